@@ -27,26 +27,26 @@ def tagBlock0 : Block where
     (.required, .regex, [true, true, true, true, true, true, true, true, true, false, false, false, false, false, false, false, false, false, false, false, false, false, false, false, false, false, false, false, false, false, false, false, false, false, false, false, false], [true, true, true, true, true, true, true, true, true, false, false, false, false, false, false, false, false, false, false, false, false, false, false, false, false, false, false, false, false, false, false, false, false, false, false, false, false]),
     (.min 20, .max 30, [false, true, true, true, true, true, false, false, false, false, true, true, true, true, true, false, false, false, false, true, true, true, true, true, false, false, false, false, true, true, true, true, true, false, false, false, false], [false, true, true, true, true, true, false, false, false, false, true, true, true, true, true, false, false, false, false, true, true, true, true, true, false, false, false, false, true, true, true, true, true, false, false, false, false]),
     (.min 20, .length 25, [false, false, false, true, false, false, false, false, false, false, false, false, true, false, false, false, false, false, false, false, false, true, false, false, false, false, false, false, false, false, true, false, false, false, false, false, false], [false, false, false, true, false, false, false, false, false, false, false, false, true, false, false, false, false, false, false, false, false, true, false, false, false, false, false, false, false, false, true, false, false, false, false, false, false]),
-    (.min 20, .email, [false, false, false, false, false, false, false, false, false, false, false, false, false, false, false, false, false, false, true, true, true, true, true, true, true, true, true, false, false, false, false, false, false, false, false, false, false], [false, false, false, false, false, false, false, false, false, false, false, false, false, false, false, false, false, false, true, true, true, true, true, true, true, true, true, false, false, false, false, false, false, false, false, false, false]),
-    (.min 20, .url, [false, false, false, false, false, false, false, false, false, false, false, false, false, false, false, false, false, false, false, false, false, false, false, false, false, false, false, true, true, true, true, true, true, true, true, true, false], [false, false, false, false, false, false, false, false, false, false, false, false, false, false, false, false, false, false, false, false, false, false, false, false, false, false, false, true, true, true, true, true, true, true, true, true, false]),
+    (.min 20, .email, [false, false, false, false, false, false, false, false, false, false, false, false, false, false, false, false, false, false, false, true, true, true, true, true, true, true, true, false, false, false, false, false, false, false, false, false, false], [false, false, false, false, false, false, false, false, false, false, false, false, false, false, false, false, false, false, false, true, true, true, true, true, true, true, true, false, false, false, false, false, false, false, false, false, false]),
+    (.min 20, .url, [false, false, false, false, false, false, false, false, false, false, false, false, false, false, false, false, false, false, false, false, false, false, false, false, false, false, false, false, true, true, true, true, true, true, true, true, false], [false, false, false, false, false, false, false, false, false, false, false, false, false, false, false, false, false, false, false, false, false, false, false, false, false, false, false, false, true, true, true, true, true, true, true, true, false]),
     (.min 20, .uuid, [false, false, false, false, false, false, false, false, false, false, false, false, false, false, false, false, false, false, false, false, false, false, false, false, false, false, false, false, false, false, false, false, false, false, false, false, true], [false, false, false, false, false, false, false, false, false, false, false, false, false, false, false, false, false, false, false, false, false, false, false, false, false, false, false, false, false, false, false, false, false, false, false, false, true]),
     (.min 20, .regex, [false, true, true, true, true, true, true, true, true, false, false, false, false, false, false, false, false, false, false, false, false, false, false, false, false, false, false, false, false, false, false, false, false, false, false, false, false], [false, true, true, true, true, true, true, true, true, false, false, false, false, false, false, false, false, false, false, false, false, false, false, false, false, false, false, false, false, false, false, false, false, false, false, false, false]),
     (.max 30, .length 25, [false, false, false, true, false, false, false, false, false, false, false, false, true, false, false, false, false, false, false, false, false, true, false, false, false, false, false, false, false, false, true, false, false, false, false, false, false], [false, false, false, true, false, false, false, false, false, false, false, false, true, false, false, false, false, false, false, false, false, true, false, false, false, false, false, false, false, false, true, false, false, false, false, false, false]),
-    (.max 30, .email, [false, false, false, false, false, false, false, false, false, false, false, false, false, false, false, false, false, false, true, true, true, true, true, true, true, true, true, false, false, false, false, false, false, false, false, false, false], [false, false, false, false, false, false, false, false, false, false, false, false, false, false, false, false, false, false, true, true, true, true, true, true, true, true, true, false, false, false, false, false, false, false, false, false, false]),
-    (.max 30, .url, [false, false, false, false, false, false, false, false, false, false, false, false, false, false, false, false, false, false, false, false, false, false, false, false, false, false, false, true, true, true, true, true, true, true, true, true, false], [false, false, false, false, false, false, false, false, false, false, false, false, false, false, false, false, false, false, false, false, false, false, false, false, false, false, false, true, true, true, true, true, true, true, true, true, false]),
-    (.max 30, .uuid, [false, false, false, false, false, false, false, false, false, false, false, false, false, false, false, false, false, false, false, false, false, false, false, false, false, false, false, false, false, false, false, false, false, false, false, false, true], [false, false, false, false, false, false, false, false, false, false, false, false, false, false, false, false, false, false, false, false, false, false, false, false, false, false, false, false, false, false, false, false, false, false, false, false, true]),
+    (.max 30, .email, [false, false, false, false, false, false, false, false, false, false, false, false, false, false, false, false, false, false, true, true, true, true, true, true, false, false, false, false, false, false, false, false, false, false, false, false, false], [false, false, false, false, false, false, false, false, false, false, false, false, false, false, false, false, false, false, true, true, true, true, true, true, false, false, false, false, false, false, false, false, false, false, false, false, false]),
+    (.max 30, .url, [false, false, false, false, false, false, false, false, false, false, false, false, false, false, false, false, false, false, false, false, false, false, false, false, false, false, false, true, true, true, true, true, true, false, false, false, false], [false, false, false, false, false, false, false, false, false, false, false, false, false, false, false, false, false, false, false, false, false, false, false, false, false, false, false, true, true, true, true, true, true, false, false, false, false]),
+    (.max 30, .uuid, [false, false, false, false, false, false, false, false, false, false, false, false, false, false, false, false, false, false, false, false, false, false, false, false, false, false, false, false, false, false, false, false, false, false, false, false, false], [false, false, false, false, false, false, false, false, false, false, false, false, false, false, false, false, false, false, false, false, false, false, false, false, false, false, false, false, false, false, false, false, false, false, false, false, false]),
     (.max 30, .regex, [true, true, true, true, true, true, false, false, false, false, false, false, false, false, false, false, false, false, false, false, false, false, false, false, false, false, false, false, false, false, false, false, false, false, false, false, false], [true, true, true, true, true, true, false, false, false, false, false, false, false, false, false, false, false, false, false, false, false, false, false, false, false, false, false, false, false, false, false, false, false, false, false, false, false]),
-    (.length 25, .email, [false, false, false, false, false, false, false, false, false, false, false, false, false, false, false, false, false, false, true, true, true, true, true, true, true, true, true, false, false, false, false, false, false, false, false, false, false], [false, false, false, false, false, false, false, false, false, false, false, false, false, false, false, false, false, false, true, true, true, true, true, true, true, true, true, false, false, false, false, false, false, false, false, false, false]),
-    (.length 25, .url, [false, false, false, false, false, false, false, false, false, false, false, false, false, false, false, false, false, false, false, false, false, false, false, false, false, false, false, true, true, true, true, true, true, true, true, true, false], [false, false, false, false, false, false, false, false, false, false, false, false, false, false, false, false, false, false, false, false, false, false, false, false, false, false, false, true, true, true, true, true, true, true, true, true, false]),
-    (.length 25, .uuid, [false, false, false, false, false, false, false, false, false, false, false, false, false, false, false, false, false, false, false, false, false, false, false, false, false, false, false, false, false, false, false, false, false, false, false, false, true], [false, false, false, false, false, false, false, false, false, false, false, false, false, false, false, false, false, false, false, false, false, false, false, false, false, false, false, false, false, false, false, false, false, false, false, false, true]),
+    (.length 25, .email, [false, false, false, false, false, false, false, false, false, false, false, false, false, false, false, false, false, false, false, false, false, true, false, false, false, false, false, false, false, false, false, false, false, false, false, false, false], [false, false, false, false, false, false, false, false, false, false, false, false, false, false, false, false, false, false, false, false, false, true, false, false, false, false, false, false, false, false, false, false, false, false, false, false, false]),
+    (.length 25, .url, [false, false, false, false, false, false, false, false, false, false, false, false, false, false, false, false, false, false, false, false, false, false, false, false, false, false, false, false, false, false, true, false, false, false, false, false, false], [false, false, false, false, false, false, false, false, false, false, false, false, false, false, false, false, false, false, false, false, false, false, false, false, false, false, false, false, false, false, true, false, false, false, false, false, false]),
+    (.length 25, .uuid, [false, false, false, false, false, false, false, false, false, false, false, false, false, false, false, false, false, false, false, false, false, false, false, false, false, false, false, false, false, false, false, false, false, false, false, false, false], [false, false, false, false, false, false, false, false, false, false, false, false, false, false, false, false, false, false, false, false, false, false, false, false, false, false, false, false, false, false, false, false, false, false, false, false, false]),
     (.length 25, .regex, [false, false, false, true, false, false, false, false, false, false, false, false, false, false, false, false, false, false, false, false, false, false, false, false, false, false, false, false, false, false, false, false, false, false, false, false, false], [false, false, false, true, false, false, false, false, false, false, false, false, false, false, false, false, false, false, false, false, false, false, false, false, false, false, false, false, false, false, false, false, false, false, false, false, false]),
-    (.email, .url, [false, false, false, false, false, false, false, false, false, false, false, false, false, false, false, false, false, false, true, true, true, true, true, true, true, true, true, false, false, false, false, false, false, false, false, false, false], [false, false, false, false, false, false, false, false, false, false, false, false, false, false, false, false, false, false, false, false, false, false, false, false, false, false, false, true, true, true, true, true, true, true, true, true, false]),
-    (.email, .uuid, [false, false, false, false, false, false, false, false, false, false, false, false, false, false, false, false, false, false, true, true, true, true, true, true, true, true, true, false, false, false, false, false, false, false, false, false, false], [false, false, false, false, false, false, false, false, false, false, false, false, false, false, false, false, false, false, false, false, false, false, false, false, false, false, false, false, false, false, false, false, false, false, false, false, true]),
-    (.email, .regex, [false, false, false, false, false, false, false, false, false, false, false, false, false, false, false, false, false, false, true, true, true, true, true, true, true, true, true, false, false, false, false, false, false, false, false, false, false], [false, false, false, false, false, false, false, false, false, false, false, false, false, false, false, false, false, false, true, true, true, true, true, true, true, true, true, false, false, false, false, false, false, false, false, false, false]),
-    (.url, .uuid, [false, false, false, false, false, false, false, false, false, false, false, false, false, false, false, false, false, false, false, false, false, false, false, false, false, false, false, true, true, true, true, true, true, true, true, true, false], [false, false, false, false, false, false, false, false, false, false, false, false, false, false, false, false, false, false, false, false, false, false, false, false, false, false, false, false, false, false, false, false, false, false, false, false, true]),
-    (.url, .regex, [false, false, false, false, false, false, false, false, false, false, false, false, false, false, false, false, false, false, false, false, false, false, false, false, false, false, false, true, true, true, true, true, true, true, true, true, false], [false, false, false, false, false, false, false, false, false, false, false, false, false, false, false, false, false, false, false, false, false, false, false, false, false, false, false, true, true, true, true, true, true, true, true, true, false]),
-    (.uuid, .regex, [false, false, false, false, false, false, false, false, false, false, false, false, false, false, false, false, false, false, false, false, false, false, false, false, false, false, false, false, false, false, false, false, false, false, false, false, true], [false, false, false, false, false, false, false, false, false, false, false, false, false, false, false, false, false, false, false, false, false, false, false, false, false, false, false, false, false, false, false, false, false, false, false, false, true]),
-    (.min 37, .uuid, [false, false, false, false, false, false, false, false, false, false, false, false, false, false, false, false, false, false, false, false, false, false, false, false, false, false, false, false, false, false, false, false, false, false, false, false, true], [false, false, false, false, false, false, false, false, false, false, false, false, false, false, false, false, false, false, false, false, false, false, false, false, false, false, false, false, false, false, false, false, false, false, false, false, true])
+    (.email, .url, [false, false, false, false, false, false, false, false, false, false, false, false, false, false, false, false, false, false, false, false, false, false, false, false, false, false, false, false, false, false, false, false, false, false, false, false, false], [false, false, false, false, false, false, false, false, false, false, false, false, false, false, false, false, false, false, false, false, false, false, false, false, false, false, false, false, false, false, false, false, false, false, false, false, false]),
+    (.email, .uuid, [false, false, false, false, false, false, false, false, false, false, false, false, false, false, false, false, false, false, false, false, false, false, false, false, false, false, false, false, false, false, false, false, false, false, false, false, false], [false, false, false, false, false, false, false, false, false, false, false, false, false, false, false, false, false, false, false, false, false, false, false, false, false, false, false, false, false, false, false, false, false, false, false, false, false]),
+    (.email, .regex, [false, false, false, false, false, false, false, false, false, false, false, false, false, false, false, false, false, false, false, false, false, false, false, false, false, false, false, false, false, false, false, false, false, false, false, false, false], [false, false, false, false, false, false, false, false, false, false, false, false, false, false, false, false, false, false, false, false, false, false, false, false, false, false, false, false, false, false, false, false, false, false, false, false, false]),
+    (.url, .uuid, [false, false, false, false, false, false, false, false, false, false, false, false, false, false, false, false, false, false, false, false, false, false, false, false, false, false, false, false, false, false, false, false, false, false, false, false, false], [false, false, false, false, false, false, false, false, false, false, false, false, false, false, false, false, false, false, false, false, false, false, false, false, false, false, false, false, false, false, false, false, false, false, false, false, false]),
+    (.url, .regex, [false, false, false, false, false, false, false, false, false, false, false, false, false, false, false, false, false, false, false, false, false, false, false, false, false, false, false, false, false, false, false, false, false, false, false, false, false], [false, false, false, false, false, false, false, false, false, false, false, false, false, false, false, false, false, false, false, false, false, false, false, false, false, false, false, false, false, false, false, false, false, false, false, false, false]),
+    (.uuid, .regex, [false, false, false, false, false, false, false, false, false, false, false, false, false, false, false, false, false, false, false, false, false, false, false, false, false, false, false, false, false, false, false, false, false, false, false, false, false], [false, false, false, false, false, false, false, false, false, false, false, false, false, false, false, false, false, false, false, false, false, false, false, false, false, false, false, false, false, false, false, false, false, false, false, false, false]),
+    (.min 37, .uuid, [false, false, false, false, false, false, false, false, false, false, false, false, false, false, false, false, false, false, false, false, false, false, false, false, false, false, false, false, false, false, false, false, false, false, false, false, false], [false, false, false, false, false, false, false, false, false, false, false, false, false, false, false, false, false, false, false, false, false, false, false, false, false, false, false, false, false, false, false, false, false, false, false, false, false])
   ]
 
 def tagBlock1 : Block where
@@ -58,18 +58,18 @@ def tagBlock1 : Block where
     (.max 5, [true, true, true, true, true, true, true, true, false, false, false, false, false, false, true, true]),
     (.positive, [false, false, false, true, true, true, true, true, true, true, true, true, true, true, false, false]),
     (.negative, [true, true, false, false, false, false, false, false, false, false, false, false, false, false, true, true]),
-    (.nonnegative, [true, true, true, true, true, true, true, true, true, true, true, true, true, true, true, true]),
-    (.nonpositive, [true, true, true, true, true, true, true, true, true, true, true, true, true, true, true, true]),
+    (.nonnegative, [false, false, true, true, true, true, true, true, true, true, true, true, true, true, false, false]),
+    (.nonpositive, [true, true, true, false, false, false, false, false, false, false, false, false, false, false, true, true]),
     (.min 9007199254740993, [false, false, false, false, false, false, false, false, false, false, true, true, true, true, false, false]),
     (.max 9007199254740993, [true, true, true, true, true, true, true, true, true, true, true, false, false, false, true, true]),
     (.min 9223372036854775807, [false, false, false, false, false, false, false, false, false, false, false, false, false, true, false, false]),
     (.max 9223372036854775807, [true, true, true, true, true, true, true, true, true, true, true, true, true, true, true, true]),
     (.min (-9223372036854775808), [true, true, true, true, true, true, true, true, true, true, true, true, true, true, true, true]),
     (.max (-9223372036854775808), [false, false, false, false, false, false, false, false, false, false, false, false, false, false, true, false]),
-    (.gt 9007199254740993, [false, false, false, false, false, false, false, false, false, false, true, true, true, true, false, false]),
-    (.gte 9007199254740993, [false, false, false, false, false, false, false, false, false, true, true, true, true, true, false, false]),
-    (.lt 9007199254740993, [true, true, true, true, true, true, true, true, true, false, false, false, false, false, true, true]),
-    (.lte 9007199254740993, [true, true, true, true, true, true, true, true, true, true, false, false, false, false, true, true]),
+    (.gt 9007199254740993, [false, false, false, false, false, false, false, false, false, false, false, true, true, true, false, false]),
+    (.gte 9007199254740993, [false, false, false, false, false, false, false, false, false, false, true, true, true, true, false, false]),
+    (.lt 9007199254740993, [true, true, true, true, true, true, true, true, true, true, false, false, false, false, true, true]),
+    (.lte 9007199254740993, [true, true, true, true, true, true, true, true, true, true, true, false, false, false, true, true]),
     (.gt 3, [false, false, false, false, false, false, true, true, true, true, true, true, true, true, false, false]),
     (.gte 3, [false, false, false, false, false, true, true, true, true, true, true, true, true, true, false, false]),
     (.lt 5, [true, true, true, true, true, true, true, false, false, false, false, false, false, false, true, true]),
@@ -80,23 +80,23 @@ def tagBlock1 : Block where
     (.required, .max 5, [true, true, true, true, true, true, true, true, false, false, false, false, false, false, true, true], [true, true, true, true, true, true, true, true, false, false, false, false, false, false, true, true]),
     (.required, .positive, [false, false, false, true, true, true, true, true, true, true, true, true, true, true, false, false], [false, false, false, true, true, true, true, true, true, true, true, true, true, true, false, false]),
     (.required, .negative, [true, true, false, false, false, false, false, false, false, false, false, false, false, false, true, true], [true, true, false, false, false, false, false, false, false, false, false, false, false, false, true, true]),
-    (.required, .nonnegative, [true, true, true, true, true, true, true, true, true, true, true, true, true, true, true, true], [true, true, true, true, true, true, true, true, true, true, true, true, true, true, true, true]),
-    (.required, .nonpositive, [true, true, true, true, true, true, true, true, true, true, true, true, true, true, true, true], [true, true, true, true, true, true, true, true, true, true, true, true, true, true, true, true]),
+    (.required, .nonnegative, [false, false, true, true, true, true, true, true, true, true, true, true, true, true, false, false], [false, false, true, true, true, true, true, true, true, true, true, true, true, true, false, false]),
+    (.required, .nonpositive, [true, true, true, false, false, false, false, false, false, false, false, false, false, false, true, true], [true, true, true, false, false, false, false, false, false, false, false, false, false, false, true, true]),
     (.min 3, .max 5, [false, false, false, false, false, true, true, true, false, false, false, false, false, false, false, false], [false, false, false, false, false, true, true, true, false, false, false, false, false, false, false, false]),
     (.min 3, .positive, [false, false, false, false, false, true, true, true, true, true, true, true, true, true, false, false], [false, false, false, false, false, true, true, true, true, true, true, true, true, true, false, false]),
     (.min 3, .negative, [false, false, false, false, false, false, false, false, false, false, false, false, false, false, false, false], [false, false, false, false, false, false, false, false, false, false, false, false, false, false, false, false]),
     (.min 3, .nonnegative, [false, false, false, false, false, true, true, true, true, true, true, true, true, true, false, false], [false, false, false, false, false, true, true, true, true, true, true, true, true, true, false, false]),
-    (.min 3, .nonpositive, [false, false, false, false, false, true, true, true, true, true, true, true, true, true, false, false], [false, false, false, false, false, true, true, true, true, true, true, true, true, true, false, false]),
+    (.min 3, .nonpositive, [false, false, false, false, false, false, false, false, false, false, false, false, false, false, false, false], [false, false, false, false, false, false, false, false, false, false, false, false, false, false, false, false]),
     (.max 5, .positive, [false, false, false, true, true, true, true, true, false, false, false, false, false, false, false, false], [false, false, false, true, true, true, true, true, false, false, false, false, false, false, false, false]),
     (.max 5, .negative, [true, true, false, false, false, false, false, false, false, false, false, false, false, false, true, true], [true, true, false, false, false, false, false, false, false, false, false, false, false, false, true, true]),
-    (.max 5, .nonnegative, [true, true, true, true, true, true, true, true, false, false, false, false, false, false, true, true], [true, true, true, true, true, true, true, true, false, false, false, false, false, false, true, true]),
-    (.max 5, .nonpositive, [true, true, true, true, true, true, true, true, false, false, false, false, false, false, true, true], [true, true, true, true, true, true, true, true, false, false, false, false, false, false, true, true]),
+    (.max 5, .nonnegative, [false, false, true, true, true, true, true, true, false, false, false, false, false, false, false, false], [false, false, true, true, true, true, true, true, false, false, false, false, false, false, false, false]),
+    (.max 5, .nonpositive, [true, true, true, false, false, false, false, false, false, false, false, false, false, false, true, true], [true, true, true, false, false, false, false, false, false, false, false, false, false, false, true, true]),
     (.positive, .negative, [false, false, false, false, false, false, false, false, false, false, false, false, false, false, false, false], [false, false, false, false, false, false, false, false, false, false, false, false, false, false, false, false]),
     (.positive, .nonnegative, [false, false, false, true, true, true, true, true, true, true, true, true, true, true, false, false], [false, false, false, true, true, true, true, true, true, true, true, true, true, true, false, false]),
-    (.positive, .nonpositive, [false, false, false, true, true, true, true, true, true, true, true, true, true, true, false, false], [false, false, false, true, true, true, true, true, true, true, true, true, true, true, false, false]),
-    (.negative, .nonnegative, [true, true, false, false, false, false, false, false, false, false, false, false, false, false, true, true], [true, true, false, false, false, false, false, false, false, false, false, false, false, false, true, true]),
+    (.positive, .nonpositive, [false, false, false, false, false, false, false, false, false, false, false, false, false, false, false, false], [false, false, false, false, false, false, false, false, false, false, false, false, false, false, false, false]),
+    (.negative, .nonnegative, [false, false, false, false, false, false, false, false, false, false, false, false, false, false, false, false], [false, false, false, false, false, false, false, false, false, false, false, false, false, false, false, false]),
     (.negative, .nonpositive, [true, true, false, false, false, false, false, false, false, false, false, false, false, false, true, true], [true, true, false, false, false, false, false, false, false, false, false, false, false, false, true, true]),
-    (.nonnegative, .nonpositive, [true, true, true, true, true, true, true, true, true, true, true, true, true, true, true, true], [true, true, true, true, true, true, true, true, true, true, true, true, true, true, true, true])
+    (.nonnegative, .nonpositive, [false, false, true, false, false, false, false, false, false, false, false, false, false, false, false, false], [false, false, true, false, false, false, false, false, false, false, false, false, false, false, false, false])
   ]
 
 def tagBlock2 : Block where
@@ -104,43 +104,43 @@ def tagBlock2 : Block where
   probes := [.num (-4), .num (-2), .num 0, .num 2, .num 4, .num 6, .num 8, .num 10, .num 12, .num 252, .num 254, .num (-256), .num (-254)]
   singles := [
     (.required, [true, true, true, true, true, true, true, true, true, true, true, true, true]),
-    (.min 3, [true, true, true, true, true, true, true, true, true, true, true, true, true]),
-    (.max 5, [true, true, true, true, true, true, true, true, true, true, true, true, true]),
-    (.positive, [true, true, true, true, true, true, true, true, true, true, true, true, true]),
-    (.negative, [true, true, true, true, true, true, true, true, true, true, true, true, true]),
-    (.nonnegative, [true, true, true, true, true, true, true, true, true, true, true, true, true]),
-    (.nonpositive, [true, true, true, true, true, true, true, true, true, true, true, true, true]),
-    (.min 127, [true, true, true, true, true, true, true, true, true, true, true, true, true]),
+    (.min 3, [false, false, false, false, false, true, true, true, true, true, true, false, false]),
+    (.max 5, [true, true, true, true, true, true, true, true, false, false, false, true, true]),
+    (.positive, [false, false, false, true, true, true, true, true, true, true, true, false, false]),
+    (.negative, [true, true, false, false, false, false, false, false, false, false, false, true, true]),
+    (.nonnegative, [false, false, true, true, true, true, true, true, true, true, true, false, false]),
+    (.nonpositive, [true, true, true, false, false, false, false, false, false, false, false, true, true]),
+    (.min 127, [false, false, false, false, false, false, false, false, false, false, true, false, false]),
     (.max 127, [true, true, true, true, true, true, true, true, true, true, true, true, true]),
     (.min (-128), [true, true, true, true, true, true, true, true, true, true, true, true, true]),
-    (.max (-128), [true, true, true, true, true, true, true, true, true, true, true, true, true]),
-    (.gt 3, [true, true, true, true, true, true, true, true, true, true, true, true, true]),
-    (.gte 3, [true, true, true, true, true, true, true, true, true, true, true, true, true]),
-    (.lt 5, [true, true, true, true, true, true, true, true, true, true, true, true, true]),
-    (.lte 5, [true, true, true, true, true, true, true, true, true, true, true, true, true])
+    (.max (-128), [false, false, false, false, false, false, false, false, false, false, false, true, false]),
+    (.gt 3, [false, false, false, false, false, false, true, true, true, true, true, false, false]),
+    (.gte 3, [false, false, false, false, false, true, true, true, true, true, true, false, false]),
+    (.lt 5, [true, true, true, true, true, true, true, false, false, false, false, true, true]),
+    (.lte 5, [true, true, true, true, true, true, true, true, false, false, false, true, true])
   ]
   pairs := [
-    (.required, .min 3, [true, true, true, true, true, true, true, true, true, true, true, true, true], [true, true, true, true, true, true, true, true, true, true, true, true, true]),
-    (.required, .max 5, [true, true, true, true, true, true, true, true, true, true, true, true, true], [true, true, true, true, true, true, true, true, true, true, true, true, true]),
-    (.required, .positive, [true, true, true, true, true, true, true, true, true, true, true, true, true], [true, true, true, true, true, true, true, true, true, true, true, true, true]),
-    (.required, .negative, [true, true, true, true, true, true, true, true, true, true, true, true, true], [true, true, true, true, true, true, true, true, true, true, true, true, true]),
-    (.required, .nonnegative, [true, true, true, true, true, true, true, true, true, true, true, true, true], [true, true, true, true, true, true, true, true, true, true, true, true, true]),
-    (.required, .nonpositive, [true, true, true, true, true, true, true, true, true, true, true, true, true], [true, true, true, true, true, true, true, true, true, true, true, true, true]),
-    (.min 3, .max 5, [true, true, true, true, true, true, true, true, true, true, true, true, true], [true, true, true, true, true, true, true, true, true, true, true, true, true]),
-    (.min 3, .positive, [true, true, true, true, true, true, true, true, true, true, true, true, true], [true, true, true, true, true, true, true, true, true, true, true, true, true]),
-    (.min 3, .negative, [true, true, true, true, true, true, true, true, true, true, true, true, true], [true, true, true, true, true, true, true, true, true, true, true, true, true]),
-    (.min 3, .nonnegative, [true, true, true, true, true, true, true, true, true, true, true, true, true], [true, true, true, true, true, true, true, true, true, true, true, true, true]),
-    (.min 3, .nonpositive, [true, true, true, true, true, true, true, true, true, true, true, true, true], [true, true, true, true, true, true, true, true, true, true, true, true, true]),
-    (.max 5, .positive, [true, true, true, true, true, true, true, true, true, true, true, true, true], [true, true, true, true, true, true, true, true, true, true, true, true, true]),
-    (.max 5, .negative, [true, true, true, true, true, true, true, true, true, true, true, true, true], [true, true, true, true, true, true, true, true, true, true, true, true, true]),
-    (.max 5, .nonnegative, [true, true, true, true, true, true, true, true, true, true, true, true, true], [true, true, true, true, true, true, true, true, true, true, true, true, true]),
-    (.max 5, .nonpositive, [true, true, true, true, true, true, true, true, true, true, true, true, true], [true, true, true, true, true, true, true, true, true, true, true, true, true]),
-    (.positive, .negative, [true, true, true, true, true, true, true, true, true, true, true, true, true], [true, true, true, true, true, true, true, true, true, true, true, true, true]),
-    (.positive, .nonnegative, [true, true, true, true, true, true, true, true, true, true, true, true, true], [true, true, true, true, true, true, true, true, true, true, true, true, true]),
-    (.positive, .nonpositive, [true, true, true, true, true, true, true, true, true, true, true, true, true], [true, true, true, true, true, true, true, true, true, true, true, true, true]),
-    (.negative, .nonnegative, [true, true, true, true, true, true, true, true, true, true, true, true, true], [true, true, true, true, true, true, true, true, true, true, true, true, true]),
-    (.negative, .nonpositive, [true, true, true, true, true, true, true, true, true, true, true, true, true], [true, true, true, true, true, true, true, true, true, true, true, true, true]),
-    (.nonnegative, .nonpositive, [true, true, true, true, true, true, true, true, true, true, true, true, true], [true, true, true, true, true, true, true, true, true, true, true, true, true])
+    (.required, .min 3, [false, false, false, false, false, true, true, true, true, true, true, false, false], [false, false, false, false, false, true, true, true, true, true, true, false, false]),
+    (.required, .max 5, [true, true, true, true, true, true, true, true, false, false, false, true, true], [true, true, true, true, true, true, true, true, false, false, false, true, true]),
+    (.required, .positive, [false, false, false, true, true, true, true, true, true, true, true, false, false], [false, false, false, true, true, true, true, true, true, true, true, false, false]),
+    (.required, .negative, [true, true, false, false, false, false, false, false, false, false, false, true, true], [true, true, false, false, false, false, false, false, false, false, false, true, true]),
+    (.required, .nonnegative, [false, false, true, true, true, true, true, true, true, true, true, false, false], [false, false, true, true, true, true, true, true, true, true, true, false, false]),
+    (.required, .nonpositive, [true, true, true, false, false, false, false, false, false, false, false, true, true], [true, true, true, false, false, false, false, false, false, false, false, true, true]),
+    (.min 3, .max 5, [false, false, false, false, false, true, true, true, false, false, false, false, false], [false, false, false, false, false, true, true, true, false, false, false, false, false]),
+    (.min 3, .positive, [false, false, false, false, false, true, true, true, true, true, true, false, false], [false, false, false, false, false, true, true, true, true, true, true, false, false]),
+    (.min 3, .negative, [false, false, false, false, false, false, false, false, false, false, false, false, false], [false, false, false, false, false, false, false, false, false, false, false, false, false]),
+    (.min 3, .nonnegative, [false, false, false, false, false, true, true, true, true, true, true, false, false], [false, false, false, false, false, true, true, true, true, true, true, false, false]),
+    (.min 3, .nonpositive, [false, false, false, false, false, false, false, false, false, false, false, false, false], [false, false, false, false, false, false, false, false, false, false, false, false, false]),
+    (.max 5, .positive, [false, false, false, true, true, true, true, true, false, false, false, false, false], [false, false, false, true, true, true, true, true, false, false, false, false, false]),
+    (.max 5, .negative, [true, true, false, false, false, false, false, false, false, false, false, true, true], [true, true, false, false, false, false, false, false, false, false, false, true, true]),
+    (.max 5, .nonnegative, [false, false, true, true, true, true, true, true, false, false, false, false, false], [false, false, true, true, true, true, true, true, false, false, false, false, false]),
+    (.max 5, .nonpositive, [true, true, true, false, false, false, false, false, false, false, false, true, true], [true, true, true, false, false, false, false, false, false, false, false, true, true]),
+    (.positive, .negative, [false, false, false, false, false, false, false, false, false, false, false, false, false], [false, false, false, false, false, false, false, false, false, false, false, false, false]),
+    (.positive, .nonnegative, [false, false, false, true, true, true, true, true, true, true, true, false, false], [false, false, false, true, true, true, true, true, true, true, true, false, false]),
+    (.positive, .nonpositive, [false, false, false, false, false, false, false, false, false, false, false, false, false], [false, false, false, false, false, false, false, false, false, false, false, false, false]),
+    (.negative, .nonnegative, [false, false, false, false, false, false, false, false, false, false, false, false, false], [false, false, false, false, false, false, false, false, false, false, false, false, false]),
+    (.negative, .nonpositive, [true, true, false, false, false, false, false, false, false, false, false, true, true], [true, true, false, false, false, false, false, false, false, false, false, true, true]),
+    (.nonnegative, .nonpositive, [false, false, true, false, false, false, false, false, false, false, false, false, false], [false, false, true, false, false, false, false, false, false, false, false, false, false])
   ]
 
 def tagBlock3 : Block where
@@ -148,43 +148,43 @@ def tagBlock3 : Block where
   probes := [.num (-4), .num (-2), .num 0, .num 2, .num 4, .num 6, .num 8, .num 10, .num 12, .num 65532, .num 65534, .num (-65536), .num (-65534)]
   singles := [
     (.required, [true, true, true, true, true, true, true, true, true, true, true, true, true]),
-    (.min 3, [true, true, true, true, true, true, true, true, true, true, true, true, true]),
-    (.max 5, [true, true, true, true, true, true, true, true, true, true, true, true, true]),
-    (.positive, [true, true, true, true, true, true, true, true, true, true, true, true, true]),
-    (.negative, [true, true, true, true, true, true, true, true, true, true, true, true, true]),
-    (.nonnegative, [true, true, true, true, true, true, true, true, true, true, true, true, true]),
-    (.nonpositive, [true, true, true, true, true, true, true, true, true, true, true, true, true]),
-    (.min 32767, [true, true, true, true, true, true, true, true, true, true, true, true, true]),
+    (.min 3, [false, false, false, false, false, true, true, true, true, true, true, false, false]),
+    (.max 5, [true, true, true, true, true, true, true, true, false, false, false, true, true]),
+    (.positive, [false, false, false, true, true, true, true, true, true, true, true, false, false]),
+    (.negative, [true, true, false, false, false, false, false, false, false, false, false, true, true]),
+    (.nonnegative, [false, false, true, true, true, true, true, true, true, true, true, false, false]),
+    (.nonpositive, [true, true, true, false, false, false, false, false, false, false, false, true, true]),
+    (.min 32767, [false, false, false, false, false, false, false, false, false, false, true, false, false]),
     (.max 32767, [true, true, true, true, true, true, true, true, true, true, true, true, true]),
     (.min (-32768), [true, true, true, true, true, true, true, true, true, true, true, true, true]),
-    (.max (-32768), [true, true, true, true, true, true, true, true, true, true, true, true, true]),
-    (.gt 3, [true, true, true, true, true, true, true, true, true, true, true, true, true]),
-    (.gte 3, [true, true, true, true, true, true, true, true, true, true, true, true, true]),
-    (.lt 5, [true, true, true, true, true, true, true, true, true, true, true, true, true]),
-    (.lte 5, [true, true, true, true, true, true, true, true, true, true, true, true, true])
+    (.max (-32768), [false, false, false, false, false, false, false, false, false, false, false, true, false]),
+    (.gt 3, [false, false, false, false, false, false, true, true, true, true, true, false, false]),
+    (.gte 3, [false, false, false, false, false, true, true, true, true, true, true, false, false]),
+    (.lt 5, [true, true, true, true, true, true, true, false, false, false, false, true, true]),
+    (.lte 5, [true, true, true, true, true, true, true, true, false, false, false, true, true])
   ]
   pairs := [
-    (.required, .min 3, [true, true, true, true, true, true, true, true, true, true, true, true, true], [true, true, true, true, true, true, true, true, true, true, true, true, true]),
-    (.required, .max 5, [true, true, true, true, true, true, true, true, true, true, true, true, true], [true, true, true, true, true, true, true, true, true, true, true, true, true]),
-    (.required, .positive, [true, true, true, true, true, true, true, true, true, true, true, true, true], [true, true, true, true, true, true, true, true, true, true, true, true, true]),
-    (.required, .negative, [true, true, true, true, true, true, true, true, true, true, true, true, true], [true, true, true, true, true, true, true, true, true, true, true, true, true]),
-    (.required, .nonnegative, [true, true, true, true, true, true, true, true, true, true, true, true, true], [true, true, true, true, true, true, true, true, true, true, true, true, true]),
-    (.required, .nonpositive, [true, true, true, true, true, true, true, true, true, true, true, true, true], [true, true, true, true, true, true, true, true, true, true, true, true, true]),
-    (.min 3, .max 5, [true, true, true, true, true, true, true, true, true, true, true, true, true], [true, true, true, true, true, true, true, true, true, true, true, true, true]),
-    (.min 3, .positive, [true, true, true, true, true, true, true, true, true, true, true, true, true], [true, true, true, true, true, true, true, true, true, true, true, true, true]),
-    (.min 3, .negative, [true, true, true, true, true, true, true, true, true, true, true, true, true], [true, true, true, true, true, true, true, true, true, true, true, true, true]),
-    (.min 3, .nonnegative, [true, true, true, true, true, true, true, true, true, true, true, true, true], [true, true, true, true, true, true, true, true, true, true, true, true, true]),
-    (.min 3, .nonpositive, [true, true, true, true, true, true, true, true, true, true, true, true, true], [true, true, true, true, true, true, true, true, true, true, true, true, true]),
-    (.max 5, .positive, [true, true, true, true, true, true, true, true, true, true, true, true, true], [true, true, true, true, true, true, true, true, true, true, true, true, true]),
-    (.max 5, .negative, [true, true, true, true, true, true, true, true, true, true, true, true, true], [true, true, true, true, true, true, true, true, true, true, true, true, true]),
-    (.max 5, .nonnegative, [true, true, true, true, true, true, true, true, true, true, true, true, true], [true, true, true, true, true, true, true, true, true, true, true, true, true]),
-    (.max 5, .nonpositive, [true, true, true, true, true, true, true, true, true, true, true, true, true], [true, true, true, true, true, true, true, true, true, true, true, true, true]),
-    (.positive, .negative, [true, true, true, true, true, true, true, true, true, true, true, true, true], [true, true, true, true, true, true, true, true, true, true, true, true, true]),
-    (.positive, .nonnegative, [true, true, true, true, true, true, true, true, true, true, true, true, true], [true, true, true, true, true, true, true, true, true, true, true, true, true]),
-    (.positive, .nonpositive, [true, true, true, true, true, true, true, true, true, true, true, true, true], [true, true, true, true, true, true, true, true, true, true, true, true, true]),
-    (.negative, .nonnegative, [true, true, true, true, true, true, true, true, true, true, true, true, true], [true, true, true, true, true, true, true, true, true, true, true, true, true]),
-    (.negative, .nonpositive, [true, true, true, true, true, true, true, true, true, true, true, true, true], [true, true, true, true, true, true, true, true, true, true, true, true, true]),
-    (.nonnegative, .nonpositive, [true, true, true, true, true, true, true, true, true, true, true, true, true], [true, true, true, true, true, true, true, true, true, true, true, true, true])
+    (.required, .min 3, [false, false, false, false, false, true, true, true, true, true, true, false, false], [false, false, false, false, false, true, true, true, true, true, true, false, false]),
+    (.required, .max 5, [true, true, true, true, true, true, true, true, false, false, false, true, true], [true, true, true, true, true, true, true, true, false, false, false, true, true]),
+    (.required, .positive, [false, false, false, true, true, true, true, true, true, true, true, false, false], [false, false, false, true, true, true, true, true, true, true, true, false, false]),
+    (.required, .negative, [true, true, false, false, false, false, false, false, false, false, false, true, true], [true, true, false, false, false, false, false, false, false, false, false, true, true]),
+    (.required, .nonnegative, [false, false, true, true, true, true, true, true, true, true, true, false, false], [false, false, true, true, true, true, true, true, true, true, true, false, false]),
+    (.required, .nonpositive, [true, true, true, false, false, false, false, false, false, false, false, true, true], [true, true, true, false, false, false, false, false, false, false, false, true, true]),
+    (.min 3, .max 5, [false, false, false, false, false, true, true, true, false, false, false, false, false], [false, false, false, false, false, true, true, true, false, false, false, false, false]),
+    (.min 3, .positive, [false, false, false, false, false, true, true, true, true, true, true, false, false], [false, false, false, false, false, true, true, true, true, true, true, false, false]),
+    (.min 3, .negative, [false, false, false, false, false, false, false, false, false, false, false, false, false], [false, false, false, false, false, false, false, false, false, false, false, false, false]),
+    (.min 3, .nonnegative, [false, false, false, false, false, true, true, true, true, true, true, false, false], [false, false, false, false, false, true, true, true, true, true, true, false, false]),
+    (.min 3, .nonpositive, [false, false, false, false, false, false, false, false, false, false, false, false, false], [false, false, false, false, false, false, false, false, false, false, false, false, false]),
+    (.max 5, .positive, [false, false, false, true, true, true, true, true, false, false, false, false, false], [false, false, false, true, true, true, true, true, false, false, false, false, false]),
+    (.max 5, .negative, [true, true, false, false, false, false, false, false, false, false, false, true, true], [true, true, false, false, false, false, false, false, false, false, false, true, true]),
+    (.max 5, .nonnegative, [false, false, true, true, true, true, true, true, false, false, false, false, false], [false, false, true, true, true, true, true, true, false, false, false, false, false]),
+    (.max 5, .nonpositive, [true, true, true, false, false, false, false, false, false, false, false, true, true], [true, true, true, false, false, false, false, false, false, false, false, true, true]),
+    (.positive, .negative, [false, false, false, false, false, false, false, false, false, false, false, false, false], [false, false, false, false, false, false, false, false, false, false, false, false, false]),
+    (.positive, .nonnegative, [false, false, false, true, true, true, true, true, true, true, true, false, false], [false, false, false, true, true, true, true, true, true, true, true, false, false]),
+    (.positive, .nonpositive, [false, false, false, false, false, false, false, false, false, false, false, false, false], [false, false, false, false, false, false, false, false, false, false, false, false, false]),
+    (.negative, .nonnegative, [false, false, false, false, false, false, false, false, false, false, false, false, false], [false, false, false, false, false, false, false, false, false, false, false, false, false]),
+    (.negative, .nonpositive, [true, true, false, false, false, false, false, false, false, false, false, true, true], [true, true, false, false, false, false, false, false, false, false, false, true, true]),
+    (.nonnegative, .nonpositive, [false, false, true, false, false, false, false, false, false, false, false, false, false], [false, false, true, false, false, false, false, false, false, false, false, false, false])
   ]
 
 def tagBlock4 : Block where
@@ -192,43 +192,43 @@ def tagBlock4 : Block where
   probes := [.num (-4), .num (-2), .num 0, .num 2, .num 4, .num 6, .num 8, .num 10, .num 12, .num 4294967292, .num 4294967294, .num (-4294967296), .num (-4294967294)]
   singles := [
     (.required, [true, true, true, true, true, true, true, true, true, true, true, true, true]),
-    (.min 3, [true, true, true, true, true, true, true, true, true, true, true, true, true]),
-    (.max 5, [true, true, true, true, true, true, true, true, true, true, true, true, true]),
-    (.positive, [true, true, true, true, true, true, true, true, true, true, true, true, true]),
-    (.negative, [true, true, true, true, true, true, true, true, true, true, true, true, true]),
-    (.nonnegative, [true, true, true, true, true, true, true, true, true, true, true, true, true]),
-    (.nonpositive, [true, true, true, true, true, true, true, true, true, true, true, true, true]),
-    (.min 2147483647, [true, true, true, true, true, true, true, true, true, true, true, true, true]),
+    (.min 3, [false, false, false, false, false, true, true, true, true, true, true, false, false]),
+    (.max 5, [true, true, true, true, true, true, true, true, false, false, false, true, true]),
+    (.positive, [false, false, false, true, true, true, true, true, true, true, true, false, false]),
+    (.negative, [true, true, false, false, false, false, false, false, false, false, false, true, true]),
+    (.nonnegative, [false, false, true, true, true, true, true, true, true, true, true, false, false]),
+    (.nonpositive, [true, true, true, false, false, false, false, false, false, false, false, true, true]),
+    (.min 2147483647, [false, false, false, false, false, false, false, false, false, false, true, false, false]),
     (.max 2147483647, [true, true, true, true, true, true, true, true, true, true, true, true, true]),
     (.min (-2147483648), [true, true, true, true, true, true, true, true, true, true, true, true, true]),
-    (.max (-2147483648), [true, true, true, true, true, true, true, true, true, true, true, true, true]),
-    (.gt 3, [true, true, true, true, true, true, true, true, true, true, true, true, true]),
-    (.gte 3, [true, true, true, true, true, true, true, true, true, true, true, true, true]),
-    (.lt 5, [true, true, true, true, true, true, true, true, true, true, true, true, true]),
-    (.lte 5, [true, true, true, true, true, true, true, true, true, true, true, true, true])
+    (.max (-2147483648), [false, false, false, false, false, false, false, false, false, false, false, true, false]),
+    (.gt 3, [false, false, false, false, false, false, true, true, true, true, true, false, false]),
+    (.gte 3, [false, false, false, false, false, true, true, true, true, true, true, false, false]),
+    (.lt 5, [true, true, true, true, true, true, true, false, false, false, false, true, true]),
+    (.lte 5, [true, true, true, true, true, true, true, true, false, false, false, true, true])
   ]
   pairs := [
-    (.required, .min 3, [true, true, true, true, true, true, true, true, true, true, true, true, true], [true, true, true, true, true, true, true, true, true, true, true, true, true]),
-    (.required, .max 5, [true, true, true, true, true, true, true, true, true, true, true, true, true], [true, true, true, true, true, true, true, true, true, true, true, true, true]),
-    (.required, .positive, [true, true, true, true, true, true, true, true, true, true, true, true, true], [true, true, true, true, true, true, true, true, true, true, true, true, true]),
-    (.required, .negative, [true, true, true, true, true, true, true, true, true, true, true, true, true], [true, true, true, true, true, true, true, true, true, true, true, true, true]),
-    (.required, .nonnegative, [true, true, true, true, true, true, true, true, true, true, true, true, true], [true, true, true, true, true, true, true, true, true, true, true, true, true]),
-    (.required, .nonpositive, [true, true, true, true, true, true, true, true, true, true, true, true, true], [true, true, true, true, true, true, true, true, true, true, true, true, true]),
-    (.min 3, .max 5, [true, true, true, true, true, true, true, true, true, true, true, true, true], [true, true, true, true, true, true, true, true, true, true, true, true, true]),
-    (.min 3, .positive, [true, true, true, true, true, true, true, true, true, true, true, true, true], [true, true, true, true, true, true, true, true, true, true, true, true, true]),
-    (.min 3, .negative, [true, true, true, true, true, true, true, true, true, true, true, true, true], [true, true, true, true, true, true, true, true, true, true, true, true, true]),
-    (.min 3, .nonnegative, [true, true, true, true, true, true, true, true, true, true, true, true, true], [true, true, true, true, true, true, true, true, true, true, true, true, true]),
-    (.min 3, .nonpositive, [true, true, true, true, true, true, true, true, true, true, true, true, true], [true, true, true, true, true, true, true, true, true, true, true, true, true]),
-    (.max 5, .positive, [true, true, true, true, true, true, true, true, true, true, true, true, true], [true, true, true, true, true, true, true, true, true, true, true, true, true]),
-    (.max 5, .negative, [true, true, true, true, true, true, true, true, true, true, true, true, true], [true, true, true, true, true, true, true, true, true, true, true, true, true]),
-    (.max 5, .nonnegative, [true, true, true, true, true, true, true, true, true, true, true, true, true], [true, true, true, true, true, true, true, true, true, true, true, true, true]),
-    (.max 5, .nonpositive, [true, true, true, true, true, true, true, true, true, true, true, true, true], [true, true, true, true, true, true, true, true, true, true, true, true, true]),
-    (.positive, .negative, [true, true, true, true, true, true, true, true, true, true, true, true, true], [true, true, true, true, true, true, true, true, true, true, true, true, true]),
-    (.positive, .nonnegative, [true, true, true, true, true, true, true, true, true, true, true, true, true], [true, true, true, true, true, true, true, true, true, true, true, true, true]),
-    (.positive, .nonpositive, [true, true, true, true, true, true, true, true, true, true, true, true, true], [true, true, true, true, true, true, true, true, true, true, true, true, true]),
-    (.negative, .nonnegative, [true, true, true, true, true, true, true, true, true, true, true, true, true], [true, true, true, true, true, true, true, true, true, true, true, true, true]),
-    (.negative, .nonpositive, [true, true, true, true, true, true, true, true, true, true, true, true, true], [true, true, true, true, true, true, true, true, true, true, true, true, true]),
-    (.nonnegative, .nonpositive, [true, true, true, true, true, true, true, true, true, true, true, true, true], [true, true, true, true, true, true, true, true, true, true, true, true, true])
+    (.required, .min 3, [false, false, false, false, false, true, true, true, true, true, true, false, false], [false, false, false, false, false, true, true, true, true, true, true, false, false]),
+    (.required, .max 5, [true, true, true, true, true, true, true, true, false, false, false, true, true], [true, true, true, true, true, true, true, true, false, false, false, true, true]),
+    (.required, .positive, [false, false, false, true, true, true, true, true, true, true, true, false, false], [false, false, false, true, true, true, true, true, true, true, true, false, false]),
+    (.required, .negative, [true, true, false, false, false, false, false, false, false, false, false, true, true], [true, true, false, false, false, false, false, false, false, false, false, true, true]),
+    (.required, .nonnegative, [false, false, true, true, true, true, true, true, true, true, true, false, false], [false, false, true, true, true, true, true, true, true, true, true, false, false]),
+    (.required, .nonpositive, [true, true, true, false, false, false, false, false, false, false, false, true, true], [true, true, true, false, false, false, false, false, false, false, false, true, true]),
+    (.min 3, .max 5, [false, false, false, false, false, true, true, true, false, false, false, false, false], [false, false, false, false, false, true, true, true, false, false, false, false, false]),
+    (.min 3, .positive, [false, false, false, false, false, true, true, true, true, true, true, false, false], [false, false, false, false, false, true, true, true, true, true, true, false, false]),
+    (.min 3, .negative, [false, false, false, false, false, false, false, false, false, false, false, false, false], [false, false, false, false, false, false, false, false, false, false, false, false, false]),
+    (.min 3, .nonnegative, [false, false, false, false, false, true, true, true, true, true, true, false, false], [false, false, false, false, false, true, true, true, true, true, true, false, false]),
+    (.min 3, .nonpositive, [false, false, false, false, false, false, false, false, false, false, false, false, false], [false, false, false, false, false, false, false, false, false, false, false, false, false]),
+    (.max 5, .positive, [false, false, false, true, true, true, true, true, false, false, false, false, false], [false, false, false, true, true, true, true, true, false, false, false, false, false]),
+    (.max 5, .negative, [true, true, false, false, false, false, false, false, false, false, false, true, true], [true, true, false, false, false, false, false, false, false, false, false, true, true]),
+    (.max 5, .nonnegative, [false, false, true, true, true, true, true, true, false, false, false, false, false], [false, false, true, true, true, true, true, true, false, false, false, false, false]),
+    (.max 5, .nonpositive, [true, true, true, false, false, false, false, false, false, false, false, true, true], [true, true, true, false, false, false, false, false, false, false, false, true, true]),
+    (.positive, .negative, [false, false, false, false, false, false, false, false, false, false, false, false, false], [false, false, false, false, false, false, false, false, false, false, false, false, false]),
+    (.positive, .nonnegative, [false, false, false, true, true, true, true, true, true, true, true, false, false], [false, false, false, true, true, true, true, true, true, true, true, false, false]),
+    (.positive, .nonpositive, [false, false, false, false, false, false, false, false, false, false, false, false, false], [false, false, false, false, false, false, false, false, false, false, false, false, false]),
+    (.negative, .nonnegative, [false, false, false, false, false, false, false, false, false, false, false, false, false], [false, false, false, false, false, false, false, false, false, false, false, false, false]),
+    (.negative, .nonpositive, [true, true, false, false, false, false, false, false, false, false, false, true, true], [true, true, false, false, false, false, false, false, false, false, false, true, true]),
+    (.nonnegative, .nonpositive, [false, false, true, false, false, false, false, false, false, false, false, false, false], [false, false, true, false, false, false, false, false, false, false, false, false, false])
   ]
 
 def tagBlock5 : Block where
@@ -240,18 +240,18 @@ def tagBlock5 : Block where
     (.max 5, [true, true, true, true, true, true, true, true, false, false, false, false, false, false, true, true]),
     (.positive, [false, false, false, true, true, true, true, true, true, true, true, true, true, true, false, false]),
     (.negative, [true, true, false, false, false, false, false, false, false, false, false, false, false, false, true, true]),
-    (.nonnegative, [true, true, true, true, true, true, true, true, true, true, true, true, true, true, true, true]),
-    (.nonpositive, [true, true, true, true, true, true, true, true, true, true, true, true, true, true, true, true]),
+    (.nonnegative, [false, false, true, true, true, true, true, true, true, true, true, true, true, true, false, false]),
+    (.nonpositive, [true, true, true, false, false, false, false, false, false, false, false, false, false, false, true, true]),
     (.min 9007199254740993, [false, false, false, false, false, false, false, false, false, false, true, true, true, true, false, false]),
     (.max 9007199254740993, [true, true, true, true, true, true, true, true, true, true, true, false, false, false, true, true]),
     (.min 9223372036854775807, [false, false, false, false, false, false, false, false, false, false, false, false, false, true, false, false]),
     (.max 9223372036854775807, [true, true, true, true, true, true, true, true, true, true, true, true, true, true, true, true]),
     (.min (-9223372036854775808), [true, true, true, true, true, true, true, true, true, true, true, true, true, true, true, true]),
     (.max (-9223372036854775808), [false, false, false, false, false, false, false, false, false, false, false, false, false, false, true, false]),
-    (.gt 9007199254740993, [false, false, false, false, false, false, false, false, false, false, true, true, true, true, false, false]),
-    (.gte 9007199254740993, [false, false, false, false, false, false, false, false, false, true, true, true, true, true, false, false]),
-    (.lt 9007199254740993, [true, true, true, true, true, true, true, true, true, false, false, false, false, false, true, true]),
-    (.lte 9007199254740993, [true, true, true, true, true, true, true, true, true, true, false, false, false, false, true, true]),
+    (.gt 9007199254740993, [false, false, false, false, false, false, false, false, false, false, false, true, true, true, false, false]),
+    (.gte 9007199254740993, [false, false, false, false, false, false, false, false, false, false, true, true, true, true, false, false]),
+    (.lt 9007199254740993, [true, true, true, true, true, true, true, true, true, true, false, false, false, false, true, true]),
+    (.lte 9007199254740993, [true, true, true, true, true, true, true, true, true, true, true, false, false, false, true, true]),
     (.gt 3, [false, false, false, false, false, false, true, true, true, true, true, true, true, true, false, false]),
     (.gte 3, [false, false, false, false, false, true, true, true, true, true, true, true, true, true, false, false]),
     (.lt 5, [true, true, true, true, true, true, true, false, false, false, false, false, false, false, true, true]),
@@ -262,23 +262,23 @@ def tagBlock5 : Block where
     (.required, .max 5, [true, true, true, true, true, true, true, true, false, false, false, false, false, false, true, true], [true, true, true, true, true, true, true, true, false, false, false, false, false, false, true, true]),
     (.required, .positive, [false, false, false, true, true, true, true, true, true, true, true, true, true, true, false, false], [false, false, false, true, true, true, true, true, true, true, true, true, true, true, false, false]),
     (.required, .negative, [true, true, false, false, false, false, false, false, false, false, false, false, false, false, true, true], [true, true, false, false, false, false, false, false, false, false, false, false, false, false, true, true]),
-    (.required, .nonnegative, [true, true, true, true, true, true, true, true, true, true, true, true, true, true, true, true], [true, true, true, true, true, true, true, true, true, true, true, true, true, true, true, true]),
-    (.required, .nonpositive, [true, true, true, true, true, true, true, true, true, true, true, true, true, true, true, true], [true, true, true, true, true, true, true, true, true, true, true, true, true, true, true, true]),
+    (.required, .nonnegative, [false, false, true, true, true, true, true, true, true, true, true, true, true, true, false, false], [false, false, true, true, true, true, true, true, true, true, true, true, true, true, false, false]),
+    (.required, .nonpositive, [true, true, true, false, false, false, false, false, false, false, false, false, false, false, true, true], [true, true, true, false, false, false, false, false, false, false, false, false, false, false, true, true]),
     (.min 3, .max 5, [false, false, false, false, false, true, true, true, false, false, false, false, false, false, false, false], [false, false, false, false, false, true, true, true, false, false, false, false, false, false, false, false]),
     (.min 3, .positive, [false, false, false, false, false, true, true, true, true, true, true, true, true, true, false, false], [false, false, false, false, false, true, true, true, true, true, true, true, true, true, false, false]),
     (.min 3, .negative, [false, false, false, false, false, false, false, false, false, false, false, false, false, false, false, false], [false, false, false, false, false, false, false, false, false, false, false, false, false, false, false, false]),
     (.min 3, .nonnegative, [false, false, false, false, false, true, true, true, true, true, true, true, true, true, false, false], [false, false, false, false, false, true, true, true, true, true, true, true, true, true, false, false]),
-    (.min 3, .nonpositive, [false, false, false, false, false, true, true, true, true, true, true, true, true, true, false, false], [false, false, false, false, false, true, true, true, true, true, true, true, true, true, false, false]),
+    (.min 3, .nonpositive, [false, false, false, false, false, false, false, false, false, false, false, false, false, false, false, false], [false, false, false, false, false, false, false, false, false, false, false, false, false, false, false, false]),
     (.max 5, .positive, [false, false, false, true, true, true, true, true, false, false, false, false, false, false, false, false], [false, false, false, true, true, true, true, true, false, false, false, false, false, false, false, false]),
     (.max 5, .negative, [true, true, false, false, false, false, false, false, false, false, false, false, false, false, true, true], [true, true, false, false, false, false, false, false, false, false, false, false, false, false, true, true]),
-    (.max 5, .nonnegative, [true, true, true, true, true, true, true, true, false, false, false, false, false, false, true, true], [true, true, true, true, true, true, true, true, false, false, false, false, false, false, true, true]),
-    (.max 5, .nonpositive, [true, true, true, true, true, true, true, true, false, false, false, false, false, false, true, true], [true, true, true, true, true, true, true, true, false, false, false, false, false, false, true, true]),
+    (.max 5, .nonnegative, [false, false, true, true, true, true, true, true, false, false, false, false, false, false, false, false], [false, false, true, true, true, true, true, true, false, false, false, false, false, false, false, false]),
+    (.max 5, .nonpositive, [true, true, true, false, false, false, false, false, false, false, false, false, false, false, true, true], [true, true, true, false, false, false, false, false, false, false, false, false, false, false, true, true]),
     (.positive, .negative, [false, false, false, false, false, false, false, false, false, false, false, false, false, false, false, false], [false, false, false, false, false, false, false, false, false, false, false, false, false, false, false, false]),
     (.positive, .nonnegative, [false, false, false, true, true, true, true, true, true, true, true, true, true, true, false, false], [false, false, false, true, true, true, true, true, true, true, true, true, true, true, false, false]),
-    (.positive, .nonpositive, [false, false, false, true, true, true, true, true, true, true, true, true, true, true, false, false], [false, false, false, true, true, true, true, true, true, true, true, true, true, true, false, false]),
-    (.negative, .nonnegative, [true, true, false, false, false, false, false, false, false, false, false, false, false, false, true, true], [true, true, false, false, false, false, false, false, false, false, false, false, false, false, true, true]),
+    (.positive, .nonpositive, [false, false, false, false, false, false, false, false, false, false, false, false, false, false, false, false], [false, false, false, false, false, false, false, false, false, false, false, false, false, false, false, false]),
+    (.negative, .nonnegative, [false, false, false, false, false, false, false, false, false, false, false, false, false, false, false, false], [false, false, false, false, false, false, false, false, false, false, false, false, false, false, false, false]),
     (.negative, .nonpositive, [true, true, false, false, false, false, false, false, false, false, false, false, false, false, true, true], [true, true, false, false, false, false, false, false, false, false, false, false, false, false, true, true]),
-    (.nonnegative, .nonpositive, [true, true, true, true, true, true, true, true, true, true, true, true, true, true, true, true], [true, true, true, true, true, true, true, true, true, true, true, true, true, true, true, true])
+    (.nonnegative, .nonpositive, [false, false, true, false, false, false, false, false, false, false, false, false, false, false, false, false], [false, false, true, false, false, false, false, false, false, false, false, false, false, false, false, false])
   ]
 
 def tagBlock6 : Block where
@@ -286,49 +286,49 @@ def tagBlock6 : Block where
   probes := [.num 0, .num 2, .num 4, .num 6, .num 8, .num 10, .num 12, .num 18014398509481984, .num 18014398509481986, .num 18014398509481988, .num 18446744073709551612, .num 18446744073709551614, .num 18446744073709551616, .num 36893488147419103228, .num 36893488147419103230]
   singles := [
     (.required, [true, true, true, true, true, true, true, true, true, true, true, true, true, true, true]),
-    (.min 3, [true, true, true, true, true, true, true, true, true, true, true, true, true, true, true]),
-    (.max 5, [true, true, true, true, true, true, true, true, true, true, true, true, true, true, true]),
-    (.positive, [true, true, true, true, true, true, true, true, true, true, true, true, true, true, true]),
-    (.negative, [true, true, true, true, true, true, true, true, true, true, true, true, true, true, true]),
+    (.min 3, [false, false, false, true, true, true, true, true, true, true, true, true, true, true, true]),
+    (.max 5, [true, true, true, true, true, true, false, false, false, false, false, false, false, false, false]),
+    (.positive, [false, true, true, true, true, true, true, true, true, true, true, true, true, true, true]),
+    (.negative, [false, false, false, false, false, false, false, false, false, false, false, false, false, false, false]),
     (.nonnegative, [true, true, true, true, true, true, true, true, true, true, true, true, true, true, true]),
-    (.nonpositive, [true, true, true, true, true, true, true, true, true, true, true, true, true, true, true]),
-    (.min 9007199254740993, [true, true, true, true, true, true, true, true, true, true, true, true, true, true, true]),
-    (.max 9007199254740993, [true, true, true, true, true, true, true, true, true, true, true, true, true, true, true]),
-    (.min 9223372036854775807, [true, true, true, true, true, true, true, true, true, true, true, true, true, true, true]),
-    (.max 9223372036854775807, [true, true, true, true, true, true, true, true, true, true, true, true, true, true, true]),
-    (.min 18446744073709551615, [true, true, true, true, true, true, true, true, true, true, true, true, true, true, true]),
+    (.nonpositive, [true, false, false, false, false, false, false, false, false, false, false, false, false, false, false]),
+    (.min 9007199254740993, [false, false, false, false, false, false, false, false, true, true, true, true, true, true, true]),
+    (.max 9007199254740993, [true, true, true, true, true, true, true, true, true, false, false, false, false, false, false]),
+    (.min 9223372036854775807, [false, false, false, false, false, false, false, false, false, false, false, true, true, true, true]),
+    (.max 9223372036854775807, [true, true, true, true, true, true, true, true, true, true, true, true, false, false, false]),
+    (.min 18446744073709551615, [false, false, false, false, false, false, false, false, false, false, false, false, false, false, true]),
     (.max 18446744073709551615, [true, true, true, true, true, true, true, true, true, true, true, true, true, true, true]),
-    (.gt 9007199254740993, [true, true, true, true, true, true, true, true, true, true, true, true, true, true, true]),
-    (.gte 9007199254740993, [true, true, true, true, true, true, true, true, true, true, true, true, true, true, true]),
-    (.lt 9007199254740993, [true, true, true, true, true, true, true, true, true, true, true, true, true, true, true]),
-    (.lte 9007199254740993, [true, true, true, true, true, true, true, true, true, true, true, true, true, true, true]),
-    (.gt 3, [true, true, true, true, true, true, true, true, true, true, true, true, true, true, true]),
-    (.gte 3, [true, true, true, true, true, true, true, true, true, true, true, true, true, true, true]),
-    (.lt 5, [true, true, true, true, true, true, true, true, true, true, true, true, true, true, true]),
-    (.lte 5, [true, true, true, true, true, true, true, true, true, true, true, true, true, true, true])
+    (.gt 9007199254740993, [false, false, false, false, false, false, false, false, false, true, true, true, true, true, true]),
+    (.gte 9007199254740993, [false, false, false, false, false, false, false, false, true, true, true, true, true, true, true]),
+    (.lt 9007199254740993, [true, true, true, true, true, true, true, true, false, false, false, false, false, false, false]),
+    (.lte 9007199254740993, [true, true, true, true, true, true, true, true, true, false, false, false, false, false, false]),
+    (.gt 3, [false, false, false, false, true, true, true, true, true, true, true, true, true, true, true]),
+    (.gte 3, [false, false, false, true, true, true, true, true, true, true, true, true, true, true, true]),
+    (.lt 5, [true, true, true, true, true, false, false, false, false, false, false, false, false, false, false]),
+    (.lte 5, [true, true, true, true, true, true, false, false, false, false, false, false, false, false, false])
   ]
   pairs := [
-    (.required, .min 3, [true, true, true, true, true, true, true, true, true, true, true, true, true, true, true], [true, true, true, true, true, true, true, true, true, true, true, true, true, true, true]),
-    (.required, .max 5, [true, true, true, true, true, true, true, true, true, true, true, true, true, true, true], [true, true, true, true, true, true, true, true, true, true, true, true, true, true, true]),
-    (.required, .positive, [true, true, true, true, true, true, true, true, true, true, true, true, true, true, true], [true, true, true, true, true, true, true, true, true, true, true, true, true, true, true]),
-    (.required, .negative, [true, true, true, true, true, true, true, true, true, true, true, true, true, true, true], [true, true, true, true, true, true, true, true, true, true, true, true, true, true, true]),
+    (.required, .min 3, [false, false, false, true, true, true, true, true, true, true, true, true, true, true, true], [false, false, false, true, true, true, true, true, true, true, true, true, true, true, true]),
+    (.required, .max 5, [true, true, true, true, true, true, false, false, false, false, false, false, false, false, false], [true, true, true, true, true, true, false, false, false, false, false, false, false, false, false]),
+    (.required, .positive, [false, true, true, true, true, true, true, true, true, true, true, true, true, true, true], [false, true, true, true, true, true, true, true, true, true, true, true, true, true, true]),
+    (.required, .negative, [false, false, false, false, false, false, false, false, false, false, false, false, false, false, false], [false, false, false, false, false, false, false, false, false, false, false, false, false, false, false]),
     (.required, .nonnegative, [true, true, true, true, true, true, true, true, true, true, true, true, true, true, true], [true, true, true, true, true, true, true, true, true, true, true, true, true, true, true]),
-    (.required, .nonpositive, [true, true, true, true, true, true, true, true, true, true, true, true, true, true, true], [true, true, true, true, true, true, true, true, true, true, true, true, true, true, true]),
-    (.min 3, .max 5, [true, true, true, true, true, true, true, true, true, true, true, true, true, true, true], [true, true, true, true, true, true, true, true, true, true, true, true, true, true, true]),
-    (.min 3, .positive, [true, true, true, true, true, true, true, true, true, true, true, true, true, true, true], [true, true, true, true, true, true, true, true, true, true, true, true, true, true, true]),
-    (.min 3, .negative, [true, true, true, true, true, true, true, true, true, true, true, true, true, true, true], [true, true, true, true, true, true, true, true, true, true, true, true, true, true, true]),
-    (.min 3, .nonnegative, [true, true, true, true, true, true, true, true, true, true, true, true, true, true, true], [true, true, true, true, true, true, true, true, true, true, true, true, true, true, true]),
-    (.min 3, .nonpositive, [true, true, true, true, true, true, true, true, true, true, true, true, true, true, true], [true, true, true, true, true, true, true, true, true, true, true, true, true, true, true]),
-    (.max 5, .positive, [true, true, true, true, true, true, true, true, true, true, true, true, true, true, true], [true, true, true, true, true, true, true, true, true, true, true, true, true, true, true]),
-    (.max 5, .negative, [true, true, true, true, true, true, true, true, true, true, true, true, true, true, true], [true, true, true, true, true, true, true, true, true, true, true, true, true, true, true]),
-    (.max 5, .nonnegative, [true, true, true, true, true, true, true, true, true, true, true, true, true, true, true], [true, true, true, true, true, true, true, true, true, true, true, true, true, true, true]),
-    (.max 5, .nonpositive, [true, true, true, true, true, true, true, true, true, true, true, true, true, true, true], [true, true, true, true, true, true, true, true, true, true, true, true, true, true, true]),
-    (.positive, .negative, [true, true, true, true, true, true, true, true, true, true, true, true, true, true, true], [true, true, true, true, true, true, true, true, true, true, true, true, true, true, true]),
-    (.positive, .nonnegative, [true, true, true, true, true, true, true, true, true, true, true, true, true, true, true], [true, true, true, true, true, true, true, true, true, true, true, true, true, true, true]),
-    (.positive, .nonpositive, [true, true, true, true, true, true, true, true, true, true, true, true, true, true, true], [true, true, true, true, true, true, true, true, true, true, true, true, true, true, true]),
-    (.negative, .nonnegative, [true, true, true, true, true, true, true, true, true, true, true, true, true, true, true], [true, true, true, true, true, true, true, true, true, true, true, true, true, true, true]),
-    (.negative, .nonpositive, [true, true, true, true, true, true, true, true, true, true, true, true, true, true, true], [true, true, true, true, true, true, true, true, true, true, true, true, true, true, true]),
-    (.nonnegative, .nonpositive, [true, true, true, true, true, true, true, true, true, true, true, true, true, true, true], [true, true, true, true, true, true, true, true, true, true, true, true, true, true, true])
+    (.required, .nonpositive, [true, false, false, false, false, false, false, false, false, false, false, false, false, false, false], [true, false, false, false, false, false, false, false, false, false, false, false, false, false, false]),
+    (.min 3, .max 5, [false, false, false, true, true, true, false, false, false, false, false, false, false, false, false], [false, false, false, true, true, true, false, false, false, false, false, false, false, false, false]),
+    (.min 3, .positive, [false, false, false, true, true, true, true, true, true, true, true, true, true, true, true], [false, false, false, true, true, true, true, true, true, true, true, true, true, true, true]),
+    (.min 3, .negative, [false, false, false, false, false, false, false, false, false, false, false, false, false, false, false], [false, false, false, false, false, false, false, false, false, false, false, false, false, false, false]),
+    (.min 3, .nonnegative, [false, false, false, true, true, true, true, true, true, true, true, true, true, true, true], [false, false, false, true, true, true, true, true, true, true, true, true, true, true, true]),
+    (.min 3, .nonpositive, [false, false, false, false, false, false, false, false, false, false, false, false, false, false, false], [false, false, false, false, false, false, false, false, false, false, false, false, false, false, false]),
+    (.max 5, .positive, [false, true, true, true, true, true, false, false, false, false, false, false, false, false, false], [false, true, true, true, true, true, false, false, false, false, false, false, false, false, false]),
+    (.max 5, .negative, [false, false, false, false, false, false, false, false, false, false, false, false, false, false, false], [false, false, false, false, false, false, false, false, false, false, false, false, false, false, false]),
+    (.max 5, .nonnegative, [true, true, true, true, true, true, false, false, false, false, false, false, false, false, false], [true, true, true, true, true, true, false, false, false, false, false, false, false, false, false]),
+    (.max 5, .nonpositive, [true, false, false, false, false, false, false, false, false, false, false, false, false, false, false], [true, false, false, false, false, false, false, false, false, false, false, false, false, false, false]),
+    (.positive, .negative, [false, false, false, false, false, false, false, false, false, false, false, false, false, false, false], [false, false, false, false, false, false, false, false, false, false, false, false, false, false, false]),
+    (.positive, .nonnegative, [false, true, true, true, true, true, true, true, true, true, true, true, true, true, true], [false, true, true, true, true, true, true, true, true, true, true, true, true, true, true]),
+    (.positive, .nonpositive, [false, false, false, false, false, false, false, false, false, false, false, false, false, false, false], [false, false, false, false, false, false, false, false, false, false, false, false, false, false, false]),
+    (.negative, .nonnegative, [false, false, false, false, false, false, false, false, false, false, false, false, false, false, false], [false, false, false, false, false, false, false, false, false, false, false, false, false, false, false]),
+    (.negative, .nonpositive, [false, false, false, false, false, false, false, false, false, false, false, false, false, false, false], [false, false, false, false, false, false, false, false, false, false, false, false, false, false, false]),
+    (.nonnegative, .nonpositive, [true, false, false, false, false, false, false, false, false, false, false, false, false, false, false], [true, false, false, false, false, false, false, false, false, false, false, false, false, false, false])
   ]
 
 def tagBlock7 : Block where
@@ -336,41 +336,41 @@ def tagBlock7 : Block where
   probes := [.num 0, .num 2, .num 4, .num 6, .num 8, .num 10, .num 12, .num 508, .num 510]
   singles := [
     (.required, [true, true, true, true, true, true, true, true, true]),
-    (.min 3, [true, true, true, true, true, true, true, true, true]),
-    (.max 5, [true, true, true, true, true, true, true, true, true]),
-    (.positive, [true, true, true, true, true, true, true, true, true]),
-    (.negative, [true, true, true, true, true, true, true, true, true]),
+    (.min 3, [false, false, false, true, true, true, true, true, true]),
+    (.max 5, [true, true, true, true, true, true, false, false, false]),
+    (.positive, [false, true, true, true, true, true, true, true, true]),
+    (.negative, [false, false, false, false, false, false, false, false, false]),
     (.nonnegative, [true, true, true, true, true, true, true, true, true]),
-    (.nonpositive, [true, true, true, true, true, true, true, true, true]),
-    (.min 255, [true, true, true, true, true, true, true, true, true]),
+    (.nonpositive, [true, false, false, false, false, false, false, false, false]),
+    (.min 255, [false, false, false, false, false, false, false, false, true]),
     (.max 255, [true, true, true, true, true, true, true, true, true]),
-    (.gt 3, [true, true, true, true, true, true, true, true, true]),
-    (.gte 3, [true, true, true, true, true, true, true, true, true]),
-    (.lt 5, [true, true, true, true, true, true, true, true, true]),
-    (.lte 5, [true, true, true, true, true, true, true, true, true])
+    (.gt 3, [false, false, false, false, true, true, true, true, true]),
+    (.gte 3, [false, false, false, true, true, true, true, true, true]),
+    (.lt 5, [true, true, true, true, true, false, false, false, false]),
+    (.lte 5, [true, true, true, true, true, true, false, false, false])
   ]
   pairs := [
-    (.required, .min 3, [true, true, true, true, true, true, true, true, true], [true, true, true, true, true, true, true, true, true]),
-    (.required, .max 5, [true, true, true, true, true, true, true, true, true], [true, true, true, true, true, true, true, true, true]),
-    (.required, .positive, [true, true, true, true, true, true, true, true, true], [true, true, true, true, true, true, true, true, true]),
-    (.required, .negative, [true, true, true, true, true, true, true, true, true], [true, true, true, true, true, true, true, true, true]),
+    (.required, .min 3, [false, false, false, true, true, true, true, true, true], [false, false, false, true, true, true, true, true, true]),
+    (.required, .max 5, [true, true, true, true, true, true, false, false, false], [true, true, true, true, true, true, false, false, false]),
+    (.required, .positive, [false, true, true, true, true, true, true, true, true], [false, true, true, true, true, true, true, true, true]),
+    (.required, .negative, [false, false, false, false, false, false, false, false, false], [false, false, false, false, false, false, false, false, false]),
     (.required, .nonnegative, [true, true, true, true, true, true, true, true, true], [true, true, true, true, true, true, true, true, true]),
-    (.required, .nonpositive, [true, true, true, true, true, true, true, true, true], [true, true, true, true, true, true, true, true, true]),
-    (.min 3, .max 5, [true, true, true, true, true, true, true, true, true], [true, true, true, true, true, true, true, true, true]),
-    (.min 3, .positive, [true, true, true, true, true, true, true, true, true], [true, true, true, true, true, true, true, true, true]),
-    (.min 3, .negative, [true, true, true, true, true, true, true, true, true], [true, true, true, true, true, true, true, true, true]),
-    (.min 3, .nonnegative, [true, true, true, true, true, true, true, true, true], [true, true, true, true, true, true, true, true, true]),
-    (.min 3, .nonpositive, [true, true, true, true, true, true, true, true, true], [true, true, true, true, true, true, true, true, true]),
-    (.max 5, .positive, [true, true, true, true, true, true, true, true, true], [true, true, true, true, true, true, true, true, true]),
-    (.max 5, .negative, [true, true, true, true, true, true, true, true, true], [true, true, true, true, true, true, true, true, true]),
-    (.max 5, .nonnegative, [true, true, true, true, true, true, true, true, true], [true, true, true, true, true, true, true, true, true]),
-    (.max 5, .nonpositive, [true, true, true, true, true, true, true, true, true], [true, true, true, true, true, true, true, true, true]),
-    (.positive, .negative, [true, true, true, true, true, true, true, true, true], [true, true, true, true, true, true, true, true, true]),
-    (.positive, .nonnegative, [true, true, true, true, true, true, true, true, true], [true, true, true, true, true, true, true, true, true]),
-    (.positive, .nonpositive, [true, true, true, true, true, true, true, true, true], [true, true, true, true, true, true, true, true, true]),
-    (.negative, .nonnegative, [true, true, true, true, true, true, true, true, true], [true, true, true, true, true, true, true, true, true]),
-    (.negative, .nonpositive, [true, true, true, true, true, true, true, true, true], [true, true, true, true, true, true, true, true, true]),
-    (.nonnegative, .nonpositive, [true, true, true, true, true, true, true, true, true], [true, true, true, true, true, true, true, true, true])
+    (.required, .nonpositive, [true, false, false, false, false, false, false, false, false], [true, false, false, false, false, false, false, false, false]),
+    (.min 3, .max 5, [false, false, false, true, true, true, false, false, false], [false, false, false, true, true, true, false, false, false]),
+    (.min 3, .positive, [false, false, false, true, true, true, true, true, true], [false, false, false, true, true, true, true, true, true]),
+    (.min 3, .negative, [false, false, false, false, false, false, false, false, false], [false, false, false, false, false, false, false, false, false]),
+    (.min 3, .nonnegative, [false, false, false, true, true, true, true, true, true], [false, false, false, true, true, true, true, true, true]),
+    (.min 3, .nonpositive, [false, false, false, false, false, false, false, false, false], [false, false, false, false, false, false, false, false, false]),
+    (.max 5, .positive, [false, true, true, true, true, true, false, false, false], [false, true, true, true, true, true, false, false, false]),
+    (.max 5, .negative, [false, false, false, false, false, false, false, false, false], [false, false, false, false, false, false, false, false, false]),
+    (.max 5, .nonnegative, [true, true, true, true, true, true, false, false, false], [true, true, true, true, true, true, false, false, false]),
+    (.max 5, .nonpositive, [true, false, false, false, false, false, false, false, false], [true, false, false, false, false, false, false, false, false]),
+    (.positive, .negative, [false, false, false, false, false, false, false, false, false], [false, false, false, false, false, false, false, false, false]),
+    (.positive, .nonnegative, [false, true, true, true, true, true, true, true, true], [false, true, true, true, true, true, true, true, true]),
+    (.positive, .nonpositive, [false, false, false, false, false, false, false, false, false], [false, false, false, false, false, false, false, false, false]),
+    (.negative, .nonnegative, [false, false, false, false, false, false, false, false, false], [false, false, false, false, false, false, false, false, false]),
+    (.negative, .nonpositive, [false, false, false, false, false, false, false, false, false], [false, false, false, false, false, false, false, false, false]),
+    (.nonnegative, .nonpositive, [true, false, false, false, false, false, false, false, false], [true, false, false, false, false, false, false, false, false])
   ]
 
 def tagBlock8 : Block where
@@ -378,41 +378,41 @@ def tagBlock8 : Block where
   probes := [.num 0, .num 2, .num 4, .num 6, .num 8, .num 10, .num 12, .num 131068, .num 131070]
   singles := [
     (.required, [true, true, true, true, true, true, true, true, true]),
-    (.min 3, [true, true, true, true, true, true, true, true, true]),
-    (.max 5, [true, true, true, true, true, true, true, true, true]),
-    (.positive, [true, true, true, true, true, true, true, true, true]),
-    (.negative, [true, true, true, true, true, true, true, true, true]),
+    (.min 3, [false, false, false, true, true, true, true, true, true]),
+    (.max 5, [true, true, true, true, true, true, false, false, false]),
+    (.positive, [false, true, true, true, true, true, true, true, true]),
+    (.negative, [false, false, false, false, false, false, false, false, false]),
     (.nonnegative, [true, true, true, true, true, true, true, true, true]),
-    (.nonpositive, [true, true, true, true, true, true, true, true, true]),
-    (.min 65535, [true, true, true, true, true, true, true, true, true]),
+    (.nonpositive, [true, false, false, false, false, false, false, false, false]),
+    (.min 65535, [false, false, false, false, false, false, false, false, true]),
     (.max 65535, [true, true, true, true, true, true, true, true, true]),
-    (.gt 3, [true, true, true, true, true, true, true, true, true]),
-    (.gte 3, [true, true, true, true, true, true, true, true, true]),
-    (.lt 5, [true, true, true, true, true, true, true, true, true]),
-    (.lte 5, [true, true, true, true, true, true, true, true, true])
+    (.gt 3, [false, false, false, false, true, true, true, true, true]),
+    (.gte 3, [false, false, false, true, true, true, true, true, true]),
+    (.lt 5, [true, true, true, true, true, false, false, false, false]),
+    (.lte 5, [true, true, true, true, true, true, false, false, false])
   ]
   pairs := [
-    (.required, .min 3, [true, true, true, true, true, true, true, true, true], [true, true, true, true, true, true, true, true, true]),
-    (.required, .max 5, [true, true, true, true, true, true, true, true, true], [true, true, true, true, true, true, true, true, true]),
-    (.required, .positive, [true, true, true, true, true, true, true, true, true], [true, true, true, true, true, true, true, true, true]),
-    (.required, .negative, [true, true, true, true, true, true, true, true, true], [true, true, true, true, true, true, true, true, true]),
+    (.required, .min 3, [false, false, false, true, true, true, true, true, true], [false, false, false, true, true, true, true, true, true]),
+    (.required, .max 5, [true, true, true, true, true, true, false, false, false], [true, true, true, true, true, true, false, false, false]),
+    (.required, .positive, [false, true, true, true, true, true, true, true, true], [false, true, true, true, true, true, true, true, true]),
+    (.required, .negative, [false, false, false, false, false, false, false, false, false], [false, false, false, false, false, false, false, false, false]),
     (.required, .nonnegative, [true, true, true, true, true, true, true, true, true], [true, true, true, true, true, true, true, true, true]),
-    (.required, .nonpositive, [true, true, true, true, true, true, true, true, true], [true, true, true, true, true, true, true, true, true]),
-    (.min 3, .max 5, [true, true, true, true, true, true, true, true, true], [true, true, true, true, true, true, true, true, true]),
-    (.min 3, .positive, [true, true, true, true, true, true, true, true, true], [true, true, true, true, true, true, true, true, true]),
-    (.min 3, .negative, [true, true, true, true, true, true, true, true, true], [true, true, true, true, true, true, true, true, true]),
-    (.min 3, .nonnegative, [true, true, true, true, true, true, true, true, true], [true, true, true, true, true, true, true, true, true]),
-    (.min 3, .nonpositive, [true, true, true, true, true, true, true, true, true], [true, true, true, true, true, true, true, true, true]),
-    (.max 5, .positive, [true, true, true, true, true, true, true, true, true], [true, true, true, true, true, true, true, true, true]),
-    (.max 5, .negative, [true, true, true, true, true, true, true, true, true], [true, true, true, true, true, true, true, true, true]),
-    (.max 5, .nonnegative, [true, true, true, true, true, true, true, true, true], [true, true, true, true, true, true, true, true, true]),
-    (.max 5, .nonpositive, [true, true, true, true, true, true, true, true, true], [true, true, true, true, true, true, true, true, true]),
-    (.positive, .negative, [true, true, true, true, true, true, true, true, true], [true, true, true, true, true, true, true, true, true]),
-    (.positive, .nonnegative, [true, true, true, true, true, true, true, true, true], [true, true, true, true, true, true, true, true, true]),
-    (.positive, .nonpositive, [true, true, true, true, true, true, true, true, true], [true, true, true, true, true, true, true, true, true]),
-    (.negative, .nonnegative, [true, true, true, true, true, true, true, true, true], [true, true, true, true, true, true, true, true, true]),
-    (.negative, .nonpositive, [true, true, true, true, true, true, true, true, true], [true, true, true, true, true, true, true, true, true]),
-    (.nonnegative, .nonpositive, [true, true, true, true, true, true, true, true, true], [true, true, true, true, true, true, true, true, true])
+    (.required, .nonpositive, [true, false, false, false, false, false, false, false, false], [true, false, false, false, false, false, false, false, false]),
+    (.min 3, .max 5, [false, false, false, true, true, true, false, false, false], [false, false, false, true, true, true, false, false, false]),
+    (.min 3, .positive, [false, false, false, true, true, true, true, true, true], [false, false, false, true, true, true, true, true, true]),
+    (.min 3, .negative, [false, false, false, false, false, false, false, false, false], [false, false, false, false, false, false, false, false, false]),
+    (.min 3, .nonnegative, [false, false, false, true, true, true, true, true, true], [false, false, false, true, true, true, true, true, true]),
+    (.min 3, .nonpositive, [false, false, false, false, false, false, false, false, false], [false, false, false, false, false, false, false, false, false]),
+    (.max 5, .positive, [false, true, true, true, true, true, false, false, false], [false, true, true, true, true, true, false, false, false]),
+    (.max 5, .negative, [false, false, false, false, false, false, false, false, false], [false, false, false, false, false, false, false, false, false]),
+    (.max 5, .nonnegative, [true, true, true, true, true, true, false, false, false], [true, true, true, true, true, true, false, false, false]),
+    (.max 5, .nonpositive, [true, false, false, false, false, false, false, false, false], [true, false, false, false, false, false, false, false, false]),
+    (.positive, .negative, [false, false, false, false, false, false, false, false, false], [false, false, false, false, false, false, false, false, false]),
+    (.positive, .nonnegative, [false, true, true, true, true, true, true, true, true], [false, true, true, true, true, true, true, true, true]),
+    (.positive, .nonpositive, [false, false, false, false, false, false, false, false, false], [false, false, false, false, false, false, false, false, false]),
+    (.negative, .nonnegative, [false, false, false, false, false, false, false, false, false], [false, false, false, false, false, false, false, false, false]),
+    (.negative, .nonpositive, [false, false, false, false, false, false, false, false, false], [false, false, false, false, false, false, false, false, false]),
+    (.nonnegative, .nonpositive, [true, false, false, false, false, false, false, false, false], [true, false, false, false, false, false, false, false, false])
   ]
 
 def tagBlock9 : Block where
@@ -420,41 +420,41 @@ def tagBlock9 : Block where
   probes := [.num 0, .num 2, .num 4, .num 6, .num 8, .num 10, .num 12, .num 8589934588, .num 8589934590]
   singles := [
     (.required, [true, true, true, true, true, true, true, true, true]),
-    (.min 3, [true, true, true, true, true, true, true, true, true]),
-    (.max 5, [true, true, true, true, true, true, true, true, true]),
-    (.positive, [true, true, true, true, true, true, true, true, true]),
-    (.negative, [true, true, true, true, true, true, true, true, true]),
+    (.min 3, [false, false, false, true, true, true, true, true, true]),
+    (.max 5, [true, true, true, true, true, true, false, false, false]),
+    (.positive, [false, true, true, true, true, true, true, true, true]),
+    (.negative, [false, false, false, false, false, false, false, false, false]),
     (.nonnegative, [true, true, true, true, true, true, true, true, true]),
-    (.nonpositive, [true, true, true, true, true, true, true, true, true]),
-    (.min 4294967295, [true, true, true, true, true, true, true, true, true]),
+    (.nonpositive, [true, false, false, false, false, false, false, false, false]),
+    (.min 4294967295, [false, false, false, false, false, false, false, false, true]),
     (.max 4294967295, [true, true, true, true, true, true, true, true, true]),
-    (.gt 3, [true, true, true, true, true, true, true, true, true]),
-    (.gte 3, [true, true, true, true, true, true, true, true, true]),
-    (.lt 5, [true, true, true, true, true, true, true, true, true]),
-    (.lte 5, [true, true, true, true, true, true, true, true, true])
+    (.gt 3, [false, false, false, false, true, true, true, true, true]),
+    (.gte 3, [false, false, false, true, true, true, true, true, true]),
+    (.lt 5, [true, true, true, true, true, false, false, false, false]),
+    (.lte 5, [true, true, true, true, true, true, false, false, false])
   ]
   pairs := [
-    (.required, .min 3, [true, true, true, true, true, true, true, true, true], [true, true, true, true, true, true, true, true, true]),
-    (.required, .max 5, [true, true, true, true, true, true, true, true, true], [true, true, true, true, true, true, true, true, true]),
-    (.required, .positive, [true, true, true, true, true, true, true, true, true], [true, true, true, true, true, true, true, true, true]),
-    (.required, .negative, [true, true, true, true, true, true, true, true, true], [true, true, true, true, true, true, true, true, true]),
+    (.required, .min 3, [false, false, false, true, true, true, true, true, true], [false, false, false, true, true, true, true, true, true]),
+    (.required, .max 5, [true, true, true, true, true, true, false, false, false], [true, true, true, true, true, true, false, false, false]),
+    (.required, .positive, [false, true, true, true, true, true, true, true, true], [false, true, true, true, true, true, true, true, true]),
+    (.required, .negative, [false, false, false, false, false, false, false, false, false], [false, false, false, false, false, false, false, false, false]),
     (.required, .nonnegative, [true, true, true, true, true, true, true, true, true], [true, true, true, true, true, true, true, true, true]),
-    (.required, .nonpositive, [true, true, true, true, true, true, true, true, true], [true, true, true, true, true, true, true, true, true]),
-    (.min 3, .max 5, [true, true, true, true, true, true, true, true, true], [true, true, true, true, true, true, true, true, true]),
-    (.min 3, .positive, [true, true, true, true, true, true, true, true, true], [true, true, true, true, true, true, true, true, true]),
-    (.min 3, .negative, [true, true, true, true, true, true, true, true, true], [true, true, true, true, true, true, true, true, true]),
-    (.min 3, .nonnegative, [true, true, true, true, true, true, true, true, true], [true, true, true, true, true, true, true, true, true]),
-    (.min 3, .nonpositive, [true, true, true, true, true, true, true, true, true], [true, true, true, true, true, true, true, true, true]),
-    (.max 5, .positive, [true, true, true, true, true, true, true, true, true], [true, true, true, true, true, true, true, true, true]),
-    (.max 5, .negative, [true, true, true, true, true, true, true, true, true], [true, true, true, true, true, true, true, true, true]),
-    (.max 5, .nonnegative, [true, true, true, true, true, true, true, true, true], [true, true, true, true, true, true, true, true, true]),
-    (.max 5, .nonpositive, [true, true, true, true, true, true, true, true, true], [true, true, true, true, true, true, true, true, true]),
-    (.positive, .negative, [true, true, true, true, true, true, true, true, true], [true, true, true, true, true, true, true, true, true]),
-    (.positive, .nonnegative, [true, true, true, true, true, true, true, true, true], [true, true, true, true, true, true, true, true, true]),
-    (.positive, .nonpositive, [true, true, true, true, true, true, true, true, true], [true, true, true, true, true, true, true, true, true]),
-    (.negative, .nonnegative, [true, true, true, true, true, true, true, true, true], [true, true, true, true, true, true, true, true, true]),
-    (.negative, .nonpositive, [true, true, true, true, true, true, true, true, true], [true, true, true, true, true, true, true, true, true]),
-    (.nonnegative, .nonpositive, [true, true, true, true, true, true, true, true, true], [true, true, true, true, true, true, true, true, true])
+    (.required, .nonpositive, [true, false, false, false, false, false, false, false, false], [true, false, false, false, false, false, false, false, false]),
+    (.min 3, .max 5, [false, false, false, true, true, true, false, false, false], [false, false, false, true, true, true, false, false, false]),
+    (.min 3, .positive, [false, false, false, true, true, true, true, true, true], [false, false, false, true, true, true, true, true, true]),
+    (.min 3, .negative, [false, false, false, false, false, false, false, false, false], [false, false, false, false, false, false, false, false, false]),
+    (.min 3, .nonnegative, [false, false, false, true, true, true, true, true, true], [false, false, false, true, true, true, true, true, true]),
+    (.min 3, .nonpositive, [false, false, false, false, false, false, false, false, false], [false, false, false, false, false, false, false, false, false]),
+    (.max 5, .positive, [false, true, true, true, true, true, false, false, false], [false, true, true, true, true, true, false, false, false]),
+    (.max 5, .negative, [false, false, false, false, false, false, false, false, false], [false, false, false, false, false, false, false, false, false]),
+    (.max 5, .nonnegative, [true, true, true, true, true, true, false, false, false], [true, true, true, true, true, true, false, false, false]),
+    (.max 5, .nonpositive, [true, false, false, false, false, false, false, false, false], [true, false, false, false, false, false, false, false, false]),
+    (.positive, .negative, [false, false, false, false, false, false, false, false, false], [false, false, false, false, false, false, false, false, false]),
+    (.positive, .nonnegative, [false, true, true, true, true, true, true, true, true], [false, true, true, true, true, true, true, true, true]),
+    (.positive, .nonpositive, [false, false, false, false, false, false, false, false, false], [false, false, false, false, false, false, false, false, false]),
+    (.negative, .nonnegative, [false, false, false, false, false, false, false, false, false], [false, false, false, false, false, false, false, false, false]),
+    (.negative, .nonpositive, [false, false, false, false, false, false, false, false, false], [false, false, false, false, false, false, false, false, false]),
+    (.nonnegative, .nonpositive, [true, false, false, false, false, false, false, false, false], [true, false, false, false, false, false, false, false, false])
   ]
 
 def tagBlock10 : Block where
@@ -462,49 +462,49 @@ def tagBlock10 : Block where
   probes := [.num 0, .num 2, .num 4, .num 6, .num 8, .num 10, .num 12, .num 18014398509481984, .num 18014398509481986, .num 18014398509481988, .num 18446744073709551612, .num 18446744073709551614, .num 18446744073709551616, .num 36893488147419103228, .num 36893488147419103230]
   singles := [
     (.required, [true, true, true, true, true, true, true, true, true, true, true, true, true, true, true]),
-    (.min 3, [true, true, true, true, true, true, true, true, true, true, true, true, true, true, true]),
-    (.max 5, [true, true, true, true, true, true, true, true, true, true, true, true, true, true, true]),
-    (.positive, [true, true, true, true, true, true, true, true, true, true, true, true, true, true, true]),
-    (.negative, [true, true, true, true, true, true, true, true, true, true, true, true, true, true, true]),
+    (.min 3, [false, false, false, true, true, true, true, true, true, true, true, true, true, true, true]),
+    (.max 5, [true, true, true, true, true, true, false, false, false, false, false, false, false, false, false]),
+    (.positive, [false, true, true, true, true, true, true, true, true, true, true, true, true, true, true]),
+    (.negative, [false, false, false, false, false, false, false, false, false, false, false, false, false, false, false]),
     (.nonnegative, [true, true, true, true, true, true, true, true, true, true, true, true, true, true, true]),
-    (.nonpositive, [true, true, true, true, true, true, true, true, true, true, true, true, true, true, true]),
-    (.min 9007199254740993, [true, true, true, true, true, true, true, true, true, true, true, true, true, true, true]),
-    (.max 9007199254740993, [true, true, true, true, true, true, true, true, true, true, true, true, true, true, true]),
-    (.min 9223372036854775807, [true, true, true, true, true, true, true, true, true, true, true, true, true, true, true]),
-    (.max 9223372036854775807, [true, true, true, true, true, true, true, true, true, true, true, true, true, true, true]),
-    (.min 18446744073709551615, [true, true, true, true, true, true, true, true, true, true, true, true, true, true, true]),
+    (.nonpositive, [true, false, false, false, false, false, false, false, false, false, false, false, false, false, false]),
+    (.min 9007199254740993, [false, false, false, false, false, false, false, false, true, true, true, true, true, true, true]),
+    (.max 9007199254740993, [true, true, true, true, true, true, true, true, true, false, false, false, false, false, false]),
+    (.min 9223372036854775807, [false, false, false, false, false, false, false, false, false, false, false, true, true, true, true]),
+    (.max 9223372036854775807, [true, true, true, true, true, true, true, true, true, true, true, true, false, false, false]),
+    (.min 18446744073709551615, [false, false, false, false, false, false, false, false, false, false, false, false, false, false, true]),
     (.max 18446744073709551615, [true, true, true, true, true, true, true, true, true, true, true, true, true, true, true]),
-    (.gt 9007199254740993, [true, true, true, true, true, true, true, true, true, true, true, true, true, true, true]),
-    (.gte 9007199254740993, [true, true, true, true, true, true, true, true, true, true, true, true, true, true, true]),
-    (.lt 9007199254740993, [true, true, true, true, true, true, true, true, true, true, true, true, true, true, true]),
-    (.lte 9007199254740993, [true, true, true, true, true, true, true, true, true, true, true, true, true, true, true]),
-    (.gt 3, [true, true, true, true, true, true, true, true, true, true, true, true, true, true, true]),
-    (.gte 3, [true, true, true, true, true, true, true, true, true, true, true, true, true, true, true]),
-    (.lt 5, [true, true, true, true, true, true, true, true, true, true, true, true, true, true, true]),
-    (.lte 5, [true, true, true, true, true, true, true, true, true, true, true, true, true, true, true])
+    (.gt 9007199254740993, [false, false, false, false, false, false, false, false, false, true, true, true, true, true, true]),
+    (.gte 9007199254740993, [false, false, false, false, false, false, false, false, true, true, true, true, true, true, true]),
+    (.lt 9007199254740993, [true, true, true, true, true, true, true, true, false, false, false, false, false, false, false]),
+    (.lte 9007199254740993, [true, true, true, true, true, true, true, true, true, false, false, false, false, false, false]),
+    (.gt 3, [false, false, false, false, true, true, true, true, true, true, true, true, true, true, true]),
+    (.gte 3, [false, false, false, true, true, true, true, true, true, true, true, true, true, true, true]),
+    (.lt 5, [true, true, true, true, true, false, false, false, false, false, false, false, false, false, false]),
+    (.lte 5, [true, true, true, true, true, true, false, false, false, false, false, false, false, false, false])
   ]
   pairs := [
-    (.required, .min 3, [true, true, true, true, true, true, true, true, true, true, true, true, true, true, true], [true, true, true, true, true, true, true, true, true, true, true, true, true, true, true]),
-    (.required, .max 5, [true, true, true, true, true, true, true, true, true, true, true, true, true, true, true], [true, true, true, true, true, true, true, true, true, true, true, true, true, true, true]),
-    (.required, .positive, [true, true, true, true, true, true, true, true, true, true, true, true, true, true, true], [true, true, true, true, true, true, true, true, true, true, true, true, true, true, true]),
-    (.required, .negative, [true, true, true, true, true, true, true, true, true, true, true, true, true, true, true], [true, true, true, true, true, true, true, true, true, true, true, true, true, true, true]),
+    (.required, .min 3, [false, false, false, true, true, true, true, true, true, true, true, true, true, true, true], [false, false, false, true, true, true, true, true, true, true, true, true, true, true, true]),
+    (.required, .max 5, [true, true, true, true, true, true, false, false, false, false, false, false, false, false, false], [true, true, true, true, true, true, false, false, false, false, false, false, false, false, false]),
+    (.required, .positive, [false, true, true, true, true, true, true, true, true, true, true, true, true, true, true], [false, true, true, true, true, true, true, true, true, true, true, true, true, true, true]),
+    (.required, .negative, [false, false, false, false, false, false, false, false, false, false, false, false, false, false, false], [false, false, false, false, false, false, false, false, false, false, false, false, false, false, false]),
     (.required, .nonnegative, [true, true, true, true, true, true, true, true, true, true, true, true, true, true, true], [true, true, true, true, true, true, true, true, true, true, true, true, true, true, true]),
-    (.required, .nonpositive, [true, true, true, true, true, true, true, true, true, true, true, true, true, true, true], [true, true, true, true, true, true, true, true, true, true, true, true, true, true, true]),
-    (.min 3, .max 5, [true, true, true, true, true, true, true, true, true, true, true, true, true, true, true], [true, true, true, true, true, true, true, true, true, true, true, true, true, true, true]),
-    (.min 3, .positive, [true, true, true, true, true, true, true, true, true, true, true, true, true, true, true], [true, true, true, true, true, true, true, true, true, true, true, true, true, true, true]),
-    (.min 3, .negative, [true, true, true, true, true, true, true, true, true, true, true, true, true, true, true], [true, true, true, true, true, true, true, true, true, true, true, true, true, true, true]),
-    (.min 3, .nonnegative, [true, true, true, true, true, true, true, true, true, true, true, true, true, true, true], [true, true, true, true, true, true, true, true, true, true, true, true, true, true, true]),
-    (.min 3, .nonpositive, [true, true, true, true, true, true, true, true, true, true, true, true, true, true, true], [true, true, true, true, true, true, true, true, true, true, true, true, true, true, true]),
-    (.max 5, .positive, [true, true, true, true, true, true, true, true, true, true, true, true, true, true, true], [true, true, true, true, true, true, true, true, true, true, true, true, true, true, true]),
-    (.max 5, .negative, [true, true, true, true, true, true, true, true, true, true, true, true, true, true, true], [true, true, true, true, true, true, true, true, true, true, true, true, true, true, true]),
-    (.max 5, .nonnegative, [true, true, true, true, true, true, true, true, true, true, true, true, true, true, true], [true, true, true, true, true, true, true, true, true, true, true, true, true, true, true]),
-    (.max 5, .nonpositive, [true, true, true, true, true, true, true, true, true, true, true, true, true, true, true], [true, true, true, true, true, true, true, true, true, true, true, true, true, true, true]),
-    (.positive, .negative, [true, true, true, true, true, true, true, true, true, true, true, true, true, true, true], [true, true, true, true, true, true, true, true, true, true, true, true, true, true, true]),
-    (.positive, .nonnegative, [true, true, true, true, true, true, true, true, true, true, true, true, true, true, true], [true, true, true, true, true, true, true, true, true, true, true, true, true, true, true]),
-    (.positive, .nonpositive, [true, true, true, true, true, true, true, true, true, true, true, true, true, true, true], [true, true, true, true, true, true, true, true, true, true, true, true, true, true, true]),
-    (.negative, .nonnegative, [true, true, true, true, true, true, true, true, true, true, true, true, true, true, true], [true, true, true, true, true, true, true, true, true, true, true, true, true, true, true]),
-    (.negative, .nonpositive, [true, true, true, true, true, true, true, true, true, true, true, true, true, true, true], [true, true, true, true, true, true, true, true, true, true, true, true, true, true, true]),
-    (.nonnegative, .nonpositive, [true, true, true, true, true, true, true, true, true, true, true, true, true, true, true], [true, true, true, true, true, true, true, true, true, true, true, true, true, true, true])
+    (.required, .nonpositive, [true, false, false, false, false, false, false, false, false, false, false, false, false, false, false], [true, false, false, false, false, false, false, false, false, false, false, false, false, false, false]),
+    (.min 3, .max 5, [false, false, false, true, true, true, false, false, false, false, false, false, false, false, false], [false, false, false, true, true, true, false, false, false, false, false, false, false, false, false]),
+    (.min 3, .positive, [false, false, false, true, true, true, true, true, true, true, true, true, true, true, true], [false, false, false, true, true, true, true, true, true, true, true, true, true, true, true]),
+    (.min 3, .negative, [false, false, false, false, false, false, false, false, false, false, false, false, false, false, false], [false, false, false, false, false, false, false, false, false, false, false, false, false, false, false]),
+    (.min 3, .nonnegative, [false, false, false, true, true, true, true, true, true, true, true, true, true, true, true], [false, false, false, true, true, true, true, true, true, true, true, true, true, true, true]),
+    (.min 3, .nonpositive, [false, false, false, false, false, false, false, false, false, false, false, false, false, false, false], [false, false, false, false, false, false, false, false, false, false, false, false, false, false, false]),
+    (.max 5, .positive, [false, true, true, true, true, true, false, false, false, false, false, false, false, false, false], [false, true, true, true, true, true, false, false, false, false, false, false, false, false, false]),
+    (.max 5, .negative, [false, false, false, false, false, false, false, false, false, false, false, false, false, false, false], [false, false, false, false, false, false, false, false, false, false, false, false, false, false, false]),
+    (.max 5, .nonnegative, [true, true, true, true, true, true, false, false, false, false, false, false, false, false, false], [true, true, true, true, true, true, false, false, false, false, false, false, false, false, false]),
+    (.max 5, .nonpositive, [true, false, false, false, false, false, false, false, false, false, false, false, false, false, false], [true, false, false, false, false, false, false, false, false, false, false, false, false, false, false]),
+    (.positive, .negative, [false, false, false, false, false, false, false, false, false, false, false, false, false, false, false], [false, false, false, false, false, false, false, false, false, false, false, false, false, false, false]),
+    (.positive, .nonnegative, [false, true, true, true, true, true, true, true, true, true, true, true, true, true, true], [false, true, true, true, true, true, true, true, true, true, true, true, true, true, true]),
+    (.positive, .nonpositive, [false, false, false, false, false, false, false, false, false, false, false, false, false, false, false], [false, false, false, false, false, false, false, false, false, false, false, false, false, false, false]),
+    (.negative, .nonnegative, [false, false, false, false, false, false, false, false, false, false, false, false, false, false, false], [false, false, false, false, false, false, false, false, false, false, false, false, false, false, false]),
+    (.negative, .nonpositive, [false, false, false, false, false, false, false, false, false, false, false, false, false, false, false], [false, false, false, false, false, false, false, false, false, false, false, false, false, false, false]),
+    (.nonnegative, .nonpositive, [true, false, false, false, false, false, false, false, false, false, false, false, false, false, false], [true, false, false, false, false, false, false, false, false, false, false, false, false, false, false])
   ]
 
 def tagBlock11 : Block where
@@ -516,8 +516,8 @@ def tagBlock11 : Block where
     (.max 5, [true, true, true, true, true, true, true, true, true, true, true, true, false, false]),
     (.positive, [false, false, false, false, true, true, true, true, true, true, true, true, true, true]),
     (.negative, [true, true, true, false, false, false, false, false, false, false, false, false, false, false]),
-    (.nonnegative, [true, true, true, true, true, true, true, true, true, true, true, true, true, true]),
-    (.nonpositive, [true, true, true, true, true, true, true, true, true, true, true, true, true, true]),
+    (.nonnegative, [false, false, false, true, true, true, true, true, true, true, true, true, true, true]),
+    (.nonpositive, [true, true, true, true, false, false, false, false, false, false, false, false, false, false]),
     (.gt 3, [false, false, false, false, false, false, false, false, false, true, true, true, true, true]),
     (.gte 3, [false, false, false, false, false, false, false, false, true, true, true, true, true, true]),
     (.lt 5, [true, true, true, true, true, true, true, true, true, true, true, false, false, false]),
@@ -528,23 +528,23 @@ def tagBlock11 : Block where
     (.required, .max 5, [true, true, true, true, true, true, true, true, true, true, true, true, false, false], [true, true, true, true, true, true, true, true, true, true, true, true, false, false]),
     (.required, .positive, [false, false, false, false, true, true, true, true, true, true, true, true, true, true], [false, false, false, false, true, true, true, true, true, true, true, true, true, true]),
     (.required, .negative, [true, true, true, false, false, false, false, false, false, false, false, false, false, false], [true, true, true, false, false, false, false, false, false, false, false, false, false, false]),
-    (.required, .nonnegative, [true, true, true, true, true, true, true, true, true, true, true, true, true, true], [true, true, true, true, true, true, true, true, true, true, true, true, true, true]),
-    (.required, .nonpositive, [true, true, true, true, true, true, true, true, true, true, true, true, true, true], [true, true, true, true, true, true, true, true, true, true, true, true, true, true]),
+    (.required, .nonnegative, [false, false, false, true, true, true, true, true, true, true, true, true, true, true], [false, false, false, true, true, true, true, true, true, true, true, true, true, true]),
+    (.required, .nonpositive, [true, true, true, true, false, false, false, false, false, false, false, false, false, false], [true, true, true, true, false, false, false, false, false, false, false, false, false, false]),
     (.min 3, .max 5, [false, false, false, false, false, false, false, false, true, true, true, true, false, false], [false, false, false, false, false, false, false, false, true, true, true, true, false, false]),
     (.min 3, .positive, [false, false, false, false, false, false, false, false, true, true, true, true, true, true], [false, false, false, false, false, false, false, false, true, true, true, true, true, true]),
     (.min 3, .negative, [false, false, false, false, false, false, false, false, false, false, false, false, false, false], [false, false, false, false, false, false, false, false, false, false, false, false, false, false]),
     (.min 3, .nonnegative, [false, false, false, false, false, false, false, false, true, true, true, true, true, true], [false, false, false, false, false, false, false, false, true, true, true, true, true, true]),
-    (.min 3, .nonpositive, [false, false, false, false, false, false, false, false, true, true, true, true, true, true], [false, false, false, false, false, false, false, false, true, true, true, true, true, true]),
+    (.min 3, .nonpositive, [false, false, false, false, false, false, false, false, false, false, false, false, false, false], [false, false, false, false, false, false, false, false, false, false, false, false, false, false]),
     (.max 5, .positive, [false, false, false, false, true, true, true, true, true, true, true, true, false, false], [false, false, false, false, true, true, true, true, true, true, true, true, false, false]),
     (.max 5, .negative, [true, true, true, false, false, false, false, false, false, false, false, false, false, false], [true, true, true, false, false, false, false, false, false, false, false, false, false, false]),
-    (.max 5, .nonnegative, [true, true, true, true, true, true, true, true, true, true, true, true, false, false], [true, true, true, true, true, true, true, true, true, true, true, true, false, false]),
-    (.max 5, .nonpositive, [true, true, true, true, true, true, true, true, true, true, true, true, false, false], [true, true, true, true, true, true, true, true, true, true, true, true, false, false]),
+    (.max 5, .nonnegative, [false, false, false, true, true, true, true, true, true, true, true, true, false, false], [false, false, false, true, true, true, true, true, true, true, true, true, false, false]),
+    (.max 5, .nonpositive, [true, true, true, true, false, false, false, false, false, false, false, false, false, false], [true, true, true, true, false, false, false, false, false, false, false, false, false, false]),
     (.positive, .negative, [false, false, false, false, false, false, false, false, false, false, false, false, false, false], [false, false, false, false, false, false, false, false, false, false, false, false, false, false]),
     (.positive, .nonnegative, [false, false, false, false, true, true, true, true, true, true, true, true, true, true], [false, false, false, false, true, true, true, true, true, true, true, true, true, true]),
-    (.positive, .nonpositive, [false, false, false, false, true, true, true, true, true, true, true, true, true, true], [false, false, false, false, true, true, true, true, true, true, true, true, true, true]),
-    (.negative, .nonnegative, [true, true, true, false, false, false, false, false, false, false, false, false, false, false], [true, true, true, false, false, false, false, false, false, false, false, false, false, false]),
+    (.positive, .nonpositive, [false, false, false, false, false, false, false, false, false, false, false, false, false, false], [false, false, false, false, false, false, false, false, false, false, false, false, false, false]),
+    (.negative, .nonnegative, [false, false, false, false, false, false, false, false, false, false, false, false, false, false], [false, false, false, false, false, false, false, false, false, false, false, false, false, false]),
     (.negative, .nonpositive, [true, true, true, false, false, false, false, false, false, false, false, false, false, false], [true, true, true, false, false, false, false, false, false, false, false, false, false, false]),
-    (.nonnegative, .nonpositive, [true, true, true, true, true, true, true, true, true, true, true, true, true, true], [true, true, true, true, true, true, true, true, true, true, true, true, true, true])
+    (.nonnegative, .nonpositive, [false, false, false, true, false, false, false, false, false, false, false, false, false, false], [false, false, false, true, false, false, false, false, false, false, false, false, false, false])
   ]
 
 def tagBlock12 : Block where
@@ -556,8 +556,8 @@ def tagBlock12 : Block where
     (.max 5, [true, true, true, true, true, true, true, true, true, true, true, true, false, false]),
     (.positive, [false, false, false, false, true, true, true, true, true, true, true, true, true, true]),
     (.negative, [true, true, true, false, false, false, false, false, false, false, false, false, false, false]),
-    (.nonnegative, [true, true, true, true, true, true, true, true, true, true, true, true, true, true]),
-    (.nonpositive, [true, true, true, true, true, true, true, true, true, true, true, true, true, true]),
+    (.nonnegative, [false, false, false, true, true, true, true, true, true, true, true, true, true, true]),
+    (.nonpositive, [true, true, true, true, false, false, false, false, false, false, false, false, false, false]),
     (.gt 3, [false, false, false, false, false, false, false, false, false, true, true, true, true, true]),
     (.gte 3, [false, false, false, false, false, false, false, false, true, true, true, true, true, true]),
     (.lt 5, [true, true, true, true, true, true, true, true, true, true, true, false, false, false]),
@@ -568,23 +568,23 @@ def tagBlock12 : Block where
     (.required, .max 5, [true, true, true, true, true, true, true, true, true, true, true, true, false, false], [true, true, true, true, true, true, true, true, true, true, true, true, false, false]),
     (.required, .positive, [false, false, false, false, true, true, true, true, true, true, true, true, true, true], [false, false, false, false, true, true, true, true, true, true, true, true, true, true]),
     (.required, .negative, [true, true, true, false, false, false, false, false, false, false, false, false, false, false], [true, true, true, false, false, false, false, false, false, false, false, false, false, false]),
-    (.required, .nonnegative, [true, true, true, true, true, true, true, true, true, true, true, true, true, true], [true, true, true, true, true, true, true, true, true, true, true, true, true, true]),
-    (.required, .nonpositive, [true, true, true, true, true, true, true, true, true, true, true, true, true, true], [true, true, true, true, true, true, true, true, true, true, true, true, true, true]),
+    (.required, .nonnegative, [false, false, false, true, true, true, true, true, true, true, true, true, true, true], [false, false, false, true, true, true, true, true, true, true, true, true, true, true]),
+    (.required, .nonpositive, [true, true, true, true, false, false, false, false, false, false, false, false, false, false], [true, true, true, true, false, false, false, false, false, false, false, false, false, false]),
     (.min 3, .max 5, [false, false, false, false, false, false, false, false, true, true, true, true, false, false], [false, false, false, false, false, false, false, false, true, true, true, true, false, false]),
     (.min 3, .positive, [false, false, false, false, false, false, false, false, true, true, true, true, true, true], [false, false, false, false, false, false, false, false, true, true, true, true, true, true]),
     (.min 3, .negative, [false, false, false, false, false, false, false, false, false, false, false, false, false, false], [false, false, false, false, false, false, false, false, false, false, false, false, false, false]),
     (.min 3, .nonnegative, [false, false, false, false, false, false, false, false, true, true, true, true, true, true], [false, false, false, false, false, false, false, false, true, true, true, true, true, true]),
-    (.min 3, .nonpositive, [false, false, false, false, false, false, false, false, true, true, true, true, true, true], [false, false, false, false, false, false, false, false, true, true, true, true, true, true]),
+    (.min 3, .nonpositive, [false, false, false, false, false, false, false, false, false, false, false, false, false, false], [false, false, false, false, false, false, false, false, false, false, false, false, false, false]),
     (.max 5, .positive, [false, false, false, false, true, true, true, true, true, true, true, true, false, false], [false, false, false, false, true, true, true, true, true, true, true, true, false, false]),
     (.max 5, .negative, [true, true, true, false, false, false, false, false, false, false, false, false, false, false], [true, true, true, false, false, false, false, false, false, false, false, false, false, false]),
-    (.max 5, .nonnegative, [true, true, true, true, true, true, true, true, true, true, true, true, false, false], [true, true, true, true, true, true, true, true, true, true, true, true, false, false]),
-    (.max 5, .nonpositive, [true, true, true, true, true, true, true, true, true, true, true, true, false, false], [true, true, true, true, true, true, true, true, true, true, true, true, false, false]),
+    (.max 5, .nonnegative, [false, false, false, true, true, true, true, true, true, true, true, true, false, false], [false, false, false, true, true, true, true, true, true, true, true, true, false, false]),
+    (.max 5, .nonpositive, [true, true, true, true, false, false, false, false, false, false, false, false, false, false], [true, true, true, true, false, false, false, false, false, false, false, false, false, false]),
     (.positive, .negative, [false, false, false, false, false, false, false, false, false, false, false, false, false, false], [false, false, false, false, false, false, false, false, false, false, false, false, false, false]),
     (.positive, .nonnegative, [false, false, false, false, true, true, true, true, true, true, true, true, true, true], [false, false, false, false, true, true, true, true, true, true, true, true, true, true]),
-    (.positive, .nonpositive, [false, false, false, false, true, true, true, true, true, true, true, true, true, true], [false, false, false, false, true, true, true, true, true, true, true, true, true, true]),
-    (.negative, .nonnegative, [true, true, true, false, false, false, false, false, false, false, false, false, false, false], [true, true, true, false, false, false, false, false, false, false, false, false, false, false]),
+    (.positive, .nonpositive, [false, false, false, false, false, false, false, false, false, false, false, false, false, false], [false, false, false, false, false, false, false, false, false, false, false, false, false, false]),
+    (.negative, .nonnegative, [false, false, false, false, false, false, false, false, false, false, false, false, false, false], [false, false, false, false, false, false, false, false, false, false, false, false, false, false]),
     (.negative, .nonpositive, [true, true, true, false, false, false, false, false, false, false, false, false, false, false], [true, true, true, false, false, false, false, false, false, false, false, false, false, false]),
-    (.nonnegative, .nonpositive, [true, true, true, true, true, true, true, true, true, true, true, true, true, true], [true, true, true, true, true, true, true, true, true, true, true, true, true, true])
+    (.nonnegative, .nonpositive, [false, false, false, true, false, false, false, false, false, false, false, false, false, false], [false, false, false, true, false, false, false, false, false, false, false, false, false, false])
   ]
 
 def tagBlock13 : Block where
@@ -648,22 +648,22 @@ def tagBlock16 : Block where
   probes := [.elems 0, .elems 1, .elems 2, .elems 3, .elems 4, .elems 5]
   singles := [
     (.required, [true, true, true, true, true, true]),
-    (.min 2, [true, true, true, true, true, true]),
-    (.max 4, [true, true, true, true, true, true]),
-    (.length 3, [true, true, true, true, true, true]),
-    (.nonempty, [true, true, true, true, true, true])
+    (.min 2, [false, false, true, true, true, true]),
+    (.max 4, [true, true, true, true, true, false]),
+    (.length 3, [false, false, false, true, false, false]),
+    (.nonempty, [false, true, true, true, true, true])
   ]
   pairs := [
-    (.required, .min 2, [true, true, true, true, true, true], [true, true, true, true, true, true]),
-    (.required, .max 4, [true, true, true, true, true, true], [true, true, true, true, true, true]),
-    (.required, .length 3, [true, true, true, true, true, true], [true, true, true, true, true, true]),
-    (.required, .nonempty, [true, true, true, true, true, true], [true, true, true, true, true, true]),
-    (.min 2, .max 4, [true, true, true, true, true, true], [true, true, true, true, true, true]),
-    (.min 2, .length 3, [true, true, true, true, true, true], [true, true, true, true, true, true]),
-    (.min 2, .nonempty, [true, true, true, true, true, true], [true, true, true, true, true, true]),
-    (.max 4, .length 3, [true, true, true, true, true, true], [true, true, true, true, true, true]),
-    (.max 4, .nonempty, [true, true, true, true, true, true], [true, true, true, true, true, true]),
-    (.length 3, .nonempty, [true, true, true, true, true, true], [true, true, true, true, true, true])
+    (.required, .min 2, [false, false, true, true, true, true], [false, false, true, true, true, true]),
+    (.required, .max 4, [true, true, true, true, true, false], [true, true, true, true, true, false]),
+    (.required, .length 3, [false, false, false, true, false, false], [false, false, false, true, false, false]),
+    (.required, .nonempty, [false, true, true, true, true, true], [false, true, true, true, true, true]),
+    (.min 2, .max 4, [false, false, true, true, true, false], [false, false, true, true, true, false]),
+    (.min 2, .length 3, [false, false, false, true, false, false], [false, false, false, true, false, false]),
+    (.min 2, .nonempty, [false, false, true, true, true, true], [false, false, true, true, true, true]),
+    (.max 4, .length 3, [false, false, false, true, false, false], [false, false, false, true, false, false]),
+    (.max 4, .nonempty, [false, true, true, true, true, false], [false, true, true, true, true, false]),
+    (.length 3, .nonempty, [false, false, false, true, false, false], [false, false, false, true, false, false])
   ]
 
 def tagBlock17 : Block where
@@ -671,22 +671,22 @@ def tagBlock17 : Block where
   probes := [.elems 0, .elems 1, .elems 2, .elems 3, .elems 4, .elems 5]
   singles := [
     (.required, [true, true, true, true, true, true]),
-    (.min 2, [true, true, true, true, true, true]),
-    (.max 4, [true, true, true, true, true, true]),
-    (.length 3, [true, true, true, true, true, true]),
-    (.nonempty, [true, true, true, true, true, true])
+    (.min 2, [false, false, true, true, true, true]),
+    (.max 4, [true, true, true, true, true, false]),
+    (.length 3, [false, false, false, true, false, false]),
+    (.nonempty, [false, true, true, true, true, true])
   ]
   pairs := [
-    (.required, .min 2, [true, true, true, true, true, true], [true, true, true, true, true, true]),
-    (.required, .max 4, [true, true, true, true, true, true], [true, true, true, true, true, true]),
-    (.required, .length 3, [true, true, true, true, true, true], [true, true, true, true, true, true]),
-    (.required, .nonempty, [true, true, true, true, true, true], [true, true, true, true, true, true]),
-    (.min 2, .max 4, [true, true, true, true, true, true], [true, true, true, true, true, true]),
-    (.min 2, .length 3, [true, true, true, true, true, true], [true, true, true, true, true, true]),
-    (.min 2, .nonempty, [true, true, true, true, true, true], [true, true, true, true, true, true]),
-    (.max 4, .length 3, [true, true, true, true, true, true], [true, true, true, true, true, true]),
-    (.max 4, .nonempty, [true, true, true, true, true, true], [true, true, true, true, true, true]),
-    (.length 3, .nonempty, [true, true, true, true, true, true], [true, true, true, true, true, true])
+    (.required, .min 2, [false, false, true, true, true, true], [false, false, true, true, true, true]),
+    (.required, .max 4, [true, true, true, true, true, false], [true, true, true, true, true, false]),
+    (.required, .length 3, [false, false, false, true, false, false], [false, false, false, true, false, false]),
+    (.required, .nonempty, [false, true, true, true, true, true], [false, true, true, true, true, true]),
+    (.min 2, .max 4, [false, false, true, true, true, false], [false, false, true, true, true, false]),
+    (.min 2, .length 3, [false, false, false, true, false, false], [false, false, false, true, false, false]),
+    (.min 2, .nonempty, [false, false, true, true, true, true], [false, false, true, true, true, true]),
+    (.max 4, .length 3, [false, false, false, true, false, false], [false, false, false, true, false, false]),
+    (.max 4, .nonempty, [false, true, true, true, true, false], [false, true, true, true, true, false]),
+    (.length 3, .nonempty, [false, false, false, true, false, false], [false, false, false, true, false, false])
   ]
 
 def tagBlock18 : Block where
@@ -694,22 +694,22 @@ def tagBlock18 : Block where
   probes := [.elems 0, .elems 1, .elems 2, .elems 3, .elems 4, .elems 5]
   singles := [
     (.required, [true, true, true, true, true, true]),
-    (.min 2, [true, true, true, true, true, true]),
-    (.max 4, [true, true, true, true, true, true]),
-    (.length 3, [true, true, true, true, true, true]),
-    (.nonempty, [true, true, true, true, true, true])
+    (.min 2, [false, false, true, true, true, true]),
+    (.max 4, [true, true, true, true, true, false]),
+    (.length 3, [false, false, false, true, false, false]),
+    (.nonempty, [false, true, true, true, true, true])
   ]
   pairs := [
-    (.required, .min 2, [true, true, true, true, true, true], [true, true, true, true, true, true]),
-    (.required, .max 4, [true, true, true, true, true, true], [true, true, true, true, true, true]),
-    (.required, .length 3, [true, true, true, true, true, true], [true, true, true, true, true, true]),
-    (.required, .nonempty, [true, true, true, true, true, true], [true, true, true, true, true, true]),
-    (.min 2, .max 4, [true, true, true, true, true, true], [true, true, true, true, true, true]),
-    (.min 2, .length 3, [true, true, true, true, true, true], [true, true, true, true, true, true]),
-    (.min 2, .nonempty, [true, true, true, true, true, true], [true, true, true, true, true, true]),
-    (.max 4, .length 3, [true, true, true, true, true, true], [true, true, true, true, true, true]),
-    (.max 4, .nonempty, [true, true, true, true, true, true], [true, true, true, true, true, true]),
-    (.length 3, .nonempty, [true, true, true, true, true, true], [true, true, true, true, true, true])
+    (.required, .min 2, [false, false, true, true, true, true], [false, false, true, true, true, true]),
+    (.required, .max 4, [true, true, true, true, true, false], [true, true, true, true, true, false]),
+    (.required, .length 3, [false, false, false, true, false, false], [false, false, false, true, false, false]),
+    (.required, .nonempty, [false, true, true, true, true, true], [false, true, true, true, true, true]),
+    (.min 2, .max 4, [false, false, true, true, true, false], [false, false, true, true, true, false]),
+    (.min 2, .length 3, [false, false, false, true, false, false], [false, false, false, true, false, false]),
+    (.min 2, .nonempty, [false, false, true, true, true, true], [false, false, true, true, true, true]),
+    (.max 4, .length 3, [false, false, false, true, false, false], [false, false, false, true, false, false]),
+    (.max 4, .nonempty, [false, true, true, true, true, false], [false, true, true, true, true, false]),
+    (.length 3, .nonempty, [false, false, false, true, false, false], [false, false, false, true, false, false])
   ]
 
 def tagBlock19 : Block where
@@ -717,22 +717,22 @@ def tagBlock19 : Block where
   probes := [.elems 0, .elems 1, .elems 2, .elems 3, .elems 4, .elems 5]
   singles := [
     (.required, [true, true, true, true, true, true]),
-    (.min 2, [true, true, true, true, true, true]),
-    (.max 4, [true, true, true, true, true, true]),
-    (.length 3, [true, true, true, true, true, true]),
-    (.nonempty, [true, true, true, true, true, true])
+    (.min 2, [false, false, true, true, true, true]),
+    (.max 4, [true, true, true, true, true, false]),
+    (.length 3, [false, false, false, true, false, false]),
+    (.nonempty, [false, true, true, true, true, true])
   ]
   pairs := [
-    (.required, .min 2, [true, true, true, true, true, true], [true, true, true, true, true, true]),
-    (.required, .max 4, [true, true, true, true, true, true], [true, true, true, true, true, true]),
-    (.required, .length 3, [true, true, true, true, true, true], [true, true, true, true, true, true]),
-    (.required, .nonempty, [true, true, true, true, true, true], [true, true, true, true, true, true]),
-    (.min 2, .max 4, [true, true, true, true, true, true], [true, true, true, true, true, true]),
-    (.min 2, .length 3, [true, true, true, true, true, true], [true, true, true, true, true, true]),
-    (.min 2, .nonempty, [true, true, true, true, true, true], [true, true, true, true, true, true]),
-    (.max 4, .length 3, [true, true, true, true, true, true], [true, true, true, true, true, true]),
-    (.max 4, .nonempty, [true, true, true, true, true, true], [true, true, true, true, true, true]),
-    (.length 3, .nonempty, [true, true, true, true, true, true], [true, true, true, true, true, true])
+    (.required, .min 2, [false, false, true, true, true, true], [false, false, true, true, true, true]),
+    (.required, .max 4, [true, true, true, true, true, false], [true, true, true, true, true, false]),
+    (.required, .length 3, [false, false, false, true, false, false], [false, false, false, true, false, false]),
+    (.required, .nonempty, [false, true, true, true, true, true], [false, true, true, true, true, true]),
+    (.min 2, .max 4, [false, false, true, true, true, false], [false, false, true, true, true, false]),
+    (.min 2, .length 3, [false, false, false, true, false, false], [false, false, false, true, false, false]),
+    (.min 2, .nonempty, [false, false, true, true, true, true], [false, false, true, true, true, true]),
+    (.max 4, .length 3, [false, false, false, true, false, false], [false, false, false, true, false, false]),
+    (.max 4, .nonempty, [false, true, true, true, true, false], [false, true, true, true, true, false]),
+    (.length 3, .nonempty, [false, false, false, true, false, false], [false, false, false, true, false, false])
   ]
 
 def tagBlock20 : Block where
@@ -740,22 +740,22 @@ def tagBlock20 : Block where
   probes := [.elems 0, .elems 1, .elems 2, .elems 3, .elems 4, .elems 5]
   singles := [
     (.required, [true, true, true, true, true, true]),
-    (.min 2, [true, true, true, true, true, true]),
-    (.max 4, [true, true, true, true, true, true]),
-    (.length 3, [true, true, true, true, true, true]),
-    (.nonempty, [true, true, true, true, true, true])
+    (.min 2, [false, false, true, true, true, true]),
+    (.max 4, [true, true, true, true, true, false]),
+    (.length 3, [false, false, false, true, false, false]),
+    (.nonempty, [false, true, true, true, true, true])
   ]
   pairs := [
-    (.required, .min 2, [true, true, true, true, true, true], [true, true, true, true, true, true]),
-    (.required, .max 4, [true, true, true, true, true, true], [true, true, true, true, true, true]),
-    (.required, .length 3, [true, true, true, true, true, true], [true, true, true, true, true, true]),
-    (.required, .nonempty, [true, true, true, true, true, true], [true, true, true, true, true, true]),
-    (.min 2, .max 4, [true, true, true, true, true, true], [true, true, true, true, true, true]),
-    (.min 2, .length 3, [true, true, true, true, true, true], [true, true, true, true, true, true]),
-    (.min 2, .nonempty, [true, true, true, true, true, true], [true, true, true, true, true, true]),
-    (.max 4, .length 3, [true, true, true, true, true, true], [true, true, true, true, true, true]),
-    (.max 4, .nonempty, [true, true, true, true, true, true], [true, true, true, true, true, true]),
-    (.length 3, .nonempty, [true, true, true, true, true, true], [true, true, true, true, true, true])
+    (.required, .min 2, [false, false, true, true, true, true], [false, false, true, true, true, true]),
+    (.required, .max 4, [true, true, true, true, true, false], [true, true, true, true, true, false]),
+    (.required, .length 3, [false, false, false, true, false, false], [false, false, false, true, false, false]),
+    (.required, .nonempty, [false, true, true, true, true, true], [false, true, true, true, true, true]),
+    (.min 2, .max 4, [false, false, true, true, true, false], [false, false, true, true, true, false]),
+    (.min 2, .length 3, [false, false, false, true, false, false], [false, false, false, true, false, false]),
+    (.min 2, .nonempty, [false, false, true, true, true, true], [false, false, true, true, true, true]),
+    (.max 4, .length 3, [false, false, false, true, false, false], [false, false, false, true, false, false]),
+    (.max 4, .nonempty, [false, true, true, true, true, false], [false, true, true, true, true, false]),
+    (.length 3, .nonempty, [false, false, false, true, false, false], [false, false, false, true, false, false])
   ]
 
 def tagBlock21 : Block where
@@ -763,22 +763,22 @@ def tagBlock21 : Block where
   probes := [.elems 0, .elems 1, .elems 2, .elems 3, .elems 4, .elems 5]
   singles := [
     (.required, [true, true, true, true, true, true]),
-    (.min 2, [true, true, true, true, true, true]),
-    (.max 4, [true, true, true, true, true, true]),
-    (.length 3, [true, true, true, true, true, true]),
-    (.nonempty, [true, true, true, true, true, true])
+    (.min 2, [false, false, true, true, true, true]),
+    (.max 4, [true, true, true, true, true, false]),
+    (.length 3, [false, false, false, true, false, false]),
+    (.nonempty, [false, true, true, true, true, true])
   ]
   pairs := [
-    (.required, .min 2, [true, true, true, true, true, true], [true, true, true, true, true, true]),
-    (.required, .max 4, [true, true, true, true, true, true], [true, true, true, true, true, true]),
-    (.required, .length 3, [true, true, true, true, true, true], [true, true, true, true, true, true]),
-    (.required, .nonempty, [true, true, true, true, true, true], [true, true, true, true, true, true]),
-    (.min 2, .max 4, [true, true, true, true, true, true], [true, true, true, true, true, true]),
-    (.min 2, .length 3, [true, true, true, true, true, true], [true, true, true, true, true, true]),
-    (.min 2, .nonempty, [true, true, true, true, true, true], [true, true, true, true, true, true]),
-    (.max 4, .length 3, [true, true, true, true, true, true], [true, true, true, true, true, true]),
-    (.max 4, .nonempty, [true, true, true, true, true, true], [true, true, true, true, true, true]),
-    (.length 3, .nonempty, [true, true, true, true, true, true], [true, true, true, true, true, true])
+    (.required, .min 2, [false, false, true, true, true, true], [false, false, true, true, true, true]),
+    (.required, .max 4, [true, true, true, true, true, false], [true, true, true, true, true, false]),
+    (.required, .length 3, [false, false, false, true, false, false], [false, false, false, true, false, false]),
+    (.required, .nonempty, [false, true, true, true, true, true], [false, true, true, true, true, true]),
+    (.min 2, .max 4, [false, false, true, true, true, false], [false, false, true, true, true, false]),
+    (.min 2, .length 3, [false, false, false, true, false, false], [false, false, false, true, false, false]),
+    (.min 2, .nonempty, [false, false, true, true, true, true], [false, false, true, true, true, true]),
+    (.max 4, .length 3, [false, false, false, true, false, false], [false, false, false, true, false, false]),
+    (.max 4, .nonempty, [false, true, true, true, true, false], [false, true, true, true, true, false]),
+    (.length 3, .nonempty, [false, false, false, true, false, false], [false, false, false, true, false, false])
   ]
 
 def tagBlock22 : Block where
@@ -809,22 +809,22 @@ def tagBlock23 : Block where
   probes := [.elems 0, .elems 1, .elems 2, .elems 3, .elems 4, .elems 5]
   singles := [
     (.required, [true, true, true, true, true, true]),
-    (.min 2, [true, true, true, true, true, true]),
-    (.max 4, [true, true, true, true, true, true]),
-    (.length 3, [true, true, true, true, true, true]),
-    (.nonempty, [true, true, true, true, true, true])
+    (.min 2, [false, false, true, true, true, true]),
+    (.max 4, [true, true, true, true, true, false]),
+    (.length 3, [false, false, false, true, false, false]),
+    (.nonempty, [false, true, true, true, true, true])
   ]
   pairs := [
-    (.required, .min 2, [true, true, true, true, true, true], [true, true, true, true, true, true]),
-    (.required, .max 4, [true, true, true, true, true, true], [true, true, true, true, true, true]),
-    (.required, .length 3, [true, true, true, true, true, true], [true, true, true, true, true, true]),
-    (.required, .nonempty, [true, true, true, true, true, true], [true, true, true, true, true, true]),
-    (.min 2, .max 4, [true, true, true, true, true, true], [true, true, true, true, true, true]),
-    (.min 2, .length 3, [true, true, true, true, true, true], [true, true, true, true, true, true]),
-    (.min 2, .nonempty, [true, true, true, true, true, true], [true, true, true, true, true, true]),
-    (.max 4, .length 3, [true, true, true, true, true, true], [true, true, true, true, true, true]),
-    (.max 4, .nonempty, [true, true, true, true, true, true], [true, true, true, true, true, true]),
-    (.length 3, .nonempty, [true, true, true, true, true, true], [true, true, true, true, true, true])
+    (.required, .min 2, [false, false, true, true, true, true], [false, false, true, true, true, true]),
+    (.required, .max 4, [true, true, true, true, true, false], [true, true, true, true, true, false]),
+    (.required, .length 3, [false, false, false, true, false, false], [false, false, false, true, false, false]),
+    (.required, .nonempty, [false, true, true, true, true, true], [false, true, true, true, true, true]),
+    (.min 2, .max 4, [false, false, true, true, true, false], [false, false, true, true, true, false]),
+    (.min 2, .length 3, [false, false, false, true, false, false], [false, false, false, true, false, false]),
+    (.min 2, .nonempty, [false, false, true, true, true, true], [false, false, true, true, true, true]),
+    (.max 4, .length 3, [false, false, false, true, false, false], [false, false, false, true, false, false]),
+    (.max 4, .nonempty, [false, true, true, true, true, false], [false, true, true, true, true, false]),
+    (.length 3, .nonempty, [false, false, false, true, false, false], [false, false, false, true, false, false])
   ]
 
 def tagBlock24 : Block where
@@ -892,45 +892,45 @@ def tagBlock30 : Block where
   probes := [.nil, .str .plain 19, .str .plain 20, .str .plain 21, .str .plain 25, .str .plain 26, .str .plain 30, .str .plain 31, .str .plain 36, .str .plain 37, .str .other 19, .str .other 20, .str .other 21, .str .other 25, .str .other 26, .str .other 30, .str .other 31, .str .other 36, .str .other 37, .str .email 19, .str .email 20, .str .email 21, .str .email 25, .str .email 26, .str .email 30, .str .email 31, .str .email 36, .str .email 37, .str .url 19, .str .url 20, .str .url 21, .str .url 25, .str .url 26, .str .url 30, .str .url 31, .str .url 36, .str .url 37, .str .uuid 36]
   singles := [
     (.required, [false, true, true, true, true, true, true, true, true, true, true, true, true, true, true, true, true, true, true, true, true, true, true, true, true, true, true, true, true, true, true, true, true, true, true, true, true, true]),
-    (.min 20, [true, true, true, true, true, true, true, true, true, true, true, true, true, true, true, true, true, true, true, true, true, true, true, true, true, true, true, true, true, true, true, true, true, true, true, true, true, true]),
-    (.max 30, [true, true, true, true, true, true, true, true, true, true, true, true, true, true, true, true, true, true, true, true, true, true, true, true, true, true, true, true, true, true, true, true, true, true, true, true, true, true]),
-    (.length 25, [true, true, true, true, true, true, true, true, true, true, true, true, true, true, true, true, true, true, true, true, true, true, true, true, true, true, true, true, true, true, true, true, true, true, true, true, true, true]),
+    (.min 20, [true, false, true, true, true, true, true, true, true, true, false, true, true, true, true, true, true, true, true, false, true, true, true, true, true, true, true, true, false, true, true, true, true, true, true, true, true, true]),
+    (.max 30, [true, true, true, true, true, true, true, false, false, false, true, true, true, true, true, true, false, false, false, true, true, true, true, true, true, false, false, false, true, true, true, true, true, true, false, false, false, false]),
+    (.length 25, [true, false, false, false, true, false, false, false, false, false, false, false, false, true, false, false, false, false, false, false, false, false, true, false, false, false, false, false, false, false, false, true, false, false, false, false, false, false]),
     (.email, [true, false, false, false, false, false, false, false, false, false, false, false, false, false, false, false, false, false, false, true, true, true, true, true, true, true, true, true, false, false, false, false, false, false, false, false, false, false]),
     (.url, [true, false, false, false, false, false, false, false, false, false, false, false, false, false, false, false, false, false, false, false, false, false, false, false, false, false, false, false, true, true, true, true, true, true, true, true, true, false]),
-    (.uuid, [false, false, false, false, false, false, false, false, false, false, false, false, false, false, false, false, false, false, false, false, false, false, false, false, false, false, false, false, false, false, false, false, false, false, false, false, false, true]),
-    (.regex, [true, true, true, true, true, true, true, true, true, true, true, true, true, true, true, true, true, true, true, true, true, true, true, true, true, true, true, true, true, true, true, true, true, true, true, true, true, true]),
-    (.min 37, [true, true, true, true, true, true, true, true, true, true, true, true, true, true, true, true, true, true, true, true, true, true, true, true, true, true, true, true, true, true, true, true, true, true, true, true, true, true])
+    (.uuid, [true, false, false, false, false, false, false, false, false, false, false, false, false, false, false, false, false, false, false, false, false, false, false, false, false, false, false, false, false, false, false, false, false, false, false, false, false, true]),
+    (.regex, [true, true, true, true, true, true, true, true, true, true, false, false, false, false, false, false, false, false, false, false, false, false, false, false, false, false, false, false, false, false, false, false, false, false, false, false, false, false]),
+    (.min 37, [true, false, false, false, false, false, false, false, false, true, false, false, false, false, false, false, false, false, true, false, false, false, false, false, false, false, false, true, false, false, false, false, false, false, false, false, true, false])
   ]
   pairs := [
-    (.required, .min 20, [false, true, true, true, true, true, true, true, true, true, true, true, true, true, true, true, true, true, true, true, true, true, true, true, true, true, true, true, true, true, true, true, true, true, true, true, true, true], [false, true, true, true, true, true, true, true, true, true, true, true, true, true, true, true, true, true, true, true, true, true, true, true, true, true, true, true, true, true, true, true, true, true, true, true, true, true]),
-    (.required, .max 30, [false, true, true, true, true, true, true, true, true, true, true, true, true, true, true, true, true, true, true, true, true, true, true, true, true, true, true, true, true, true, true, true, true, true, true, true, true, true], [false, true, true, true, true, true, true, true, true, true, true, true, true, true, true, true, true, true, true, true, true, true, true, true, true, true, true, true, true, true, true, true, true, true, true, true, true, true]),
-    (.required, .length 25, [false, true, true, true, true, true, true, true, true, true, true, true, true, true, true, true, true, true, true, true, true, true, true, true, true, true, true, true, true, true, true, true, true, true, true, true, true, true], [false, true, true, true, true, true, true, true, true, true, true, true, true, true, true, true, true, true, true, true, true, true, true, true, true, true, true, true, true, true, true, true, true, true, true, true, true, true]),
+    (.required, .min 20, [false, false, true, true, true, true, true, true, true, true, false, true, true, true, true, true, true, true, true, false, true, true, true, true, true, true, true, true, false, true, true, true, true, true, true, true, true, true], [false, false, true, true, true, true, true, true, true, true, false, true, true, true, true, true, true, true, true, false, true, true, true, true, true, true, true, true, false, true, true, true, true, true, true, true, true, true]),
+    (.required, .max 30, [false, true, true, true, true, true, true, false, false, false, true, true, true, true, true, true, false, false, false, true, true, true, true, true, true, false, false, false, true, true, true, true, true, true, false, false, false, false], [false, true, true, true, true, true, true, false, false, false, true, true, true, true, true, true, false, false, false, true, true, true, true, true, true, false, false, false, true, true, true, true, true, true, false, false, false, false]),
+    (.required, .length 25, [false, false, false, false, true, false, false, false, false, false, false, false, false, true, false, false, false, false, false, false, false, false, true, false, false, false, false, false, false, false, false, true, false, false, false, false, false, false], [false, false, false, false, true, false, false, false, false, false, false, false, false, true, false, false, false, false, false, false, false, false, true, false, false, false, false, false, false, false, false, true, false, false, false, false, false, false]),
     (.required, .email, [false, false, false, false, false, false, false, false, false, false, false, false, false, false, false, false, false, false, false, true, true, true, true, true, true, true, true, true, false, false, false, false, false, false, false, false, false, false], [false, false, false, false, false, false, false, false, false, false, false, false, false, false, false, false, false, false, false, true, true, true, true, true, true, true, true, true, false, false, false, false, false, false, false, false, false, false]),
     (.required, .url, [false, false, false, false, false, false, false, false, false, false, false, false, false, false, false, false, false, false, false, false, false, false, false, false, false, false, false, false, true, true, true, true, true, true, true, true, true, false], [false, false, false, false, false, false, false, false, false, false, false, false, false, false, false, false, false, false, false, false, false, false, false, false, false, false, false, false, true, true, true, true, true, true, true, true, true, false]),
     (.required, .uuid, [false, false, false, false, false, false, false, false, false, false, false, false, false, false, false, false, false, false, false, false, false, false, false, false, false, false, false, false, false, false, false, false, false, false, false, false, false, true], [false, false, false, false, false, false, false, false, false, false, false, false, false, false, false, false, false, false, false, false, false, false, false, false, false, false, false, false, false, false, false, false, false, false, false, false, false, true]),
-    (.required, .regex, [false, true, true, true, true, true, true, true, true, true, true, true, true, true, true, true, true, true, true, true, true, true, true, true, true, true, true, true, true, true, true, true, true, true, true, true, true, true], [false, true, true, true, true, true, true, true, true, true, true, true, true, true, true, true, true, true, true, true, true, true, true, true, true, true, true, true, true, true, true, true, true, true, true, true, true, true]),
-    (.min 20, .max 30, [true, true, true, true, true, true, true, true, true, true, true, true, true, true, true, true, true, true, true, true, true, true, true, true, true, true, true, true, true, true, true, true, true, true, true, true, true, true], [true, true, true, true, true, true, true, true, true, true, true, true, true, true, true, true, true, true, true, true, true, true, true, true, true, true, true, true, true, true, true, true, true, true, true, true, true, true]),
-    (.min 20, .length 25, [true, true, true, true, true, true, true, true, true, true, true, true, true, true, true, true, true, true, true, true, true, true, true, true, true, true, true, true, true, true, true, true, true, true, true, true, true, true], [true, true, true, true, true, true, true, true, true, true, true, true, true, true, true, true, true, true, true, true, true, true, true, true, true, true, true, true, true, true, true, true, true, true, true, true, true, true]),
-    (.min 20, .email, [true, false, false, false, false, false, false, false, false, false, false, false, false, false, false, false, false, false, false, true, true, true, true, true, true, true, true, true, false, false, false, false, false, false, false, false, false, false], [true, false, false, false, false, false, false, false, false, false, false, false, false, false, false, false, false, false, false, true, true, true, true, true, true, true, true, true, false, false, false, false, false, false, false, false, false, false]),
-    (.min 20, .url, [true, false, false, false, false, false, false, false, false, false, false, false, false, false, false, false, false, false, false, false, false, false, false, false, false, false, false, false, true, true, true, true, true, true, true, true, true, false], [true, false, false, false, false, false, false, false, false, false, false, false, false, false, false, false, false, false, false, false, false, false, false, false, false, false, false, false, true, true, true, true, true, true, true, true, true, false]),
-    (.min 20, .uuid, [false, false, false, false, false, false, false, false, false, false, false, false, false, false, false, false, false, false, false, false, false, false, false, false, false, false, false, false, false, false, false, false, false, false, false, false, false, true], [false, false, false, false, false, false, false, false, false, false, false, false, false, false, false, false, false, false, false, false, false, false, false, false, false, false, false, false, false, false, false, false, false, false, false, false, false, true]),
-    (.min 20, .regex, [true, true, true, true, true, true, true, true, true, true, true, true, true, true, true, true, true, true, true, true, true, true, true, true, true, true, true, true, true, true, true, true, true, true, true, true, true, true], [true, true, true, true, true, true, true, true, true, true, true, true, true, true, true, true, true, true, true, true, true, true, true, true, true, true, true, true, true, true, true, true, true, true, true, true, true, true]),
-    (.max 30, .length 25, [true, true, true, true, true, true, true, true, true, true, true, true, true, true, true, true, true, true, true, true, true, true, true, true, true, true, true, true, true, true, true, true, true, true, true, true, true, true], [true, true, true, true, true, true, true, true, true, true, true, true, true, true, true, true, true, true, true, true, true, true, true, true, true, true, true, true, true, true, true, true, true, true, true, true, true, true]),
-    (.max 30, .email, [true, false, false, false, false, false, false, false, false, false, false, false, false, false, false, false, false, false, false, true, true, true, true, true, true, true, true, true, false, false, false, false, false, false, false, false, false, false], [true, false, false, false, false, false, false, false, false, false, false, false, false, false, false, false, false, false, false, true, true, true, true, true, true, true, true, true, false, false, false, false, false, false, false, false, false, false]),
-    (.max 30, .url, [true, false, false, false, false, false, false, false, false, false, false, false, false, false, false, false, false, false, false, false, false, false, false, false, false, false, false, false, true, true, true, true, true, true, true, true, true, false], [true, false, false, false, false, false, false, false, false, false, false, false, false, false, false, false, false, false, false, false, false, false, false, false, false, false, false, false, true, true, true, true, true, true, true, true, true, false]),
-    (.max 30, .uuid, [false, false, false, false, false, false, false, false, false, false, false, false, false, false, false, false, false, false, false, false, false, false, false, false, false, false, false, false, false, false, false, false, false, false, false, false, false, true], [false, false, false, false, false, false, false, false, false, false, false, false, false, false, false, false, false, false, false, false, false, false, false, false, false, false, false, false, false, false, false, false, false, false, false, false, false, true]),
-    (.max 30, .regex, [true, true, true, true, true, true, true, true, true, true, true, true, true, true, true, true, true, true, true, true, true, true, true, true, true, true, true, true, true, true, true, true, true, true, true, true, true, true], [true, true, true, true, true, true, true, true, true, true, true, true, true, true, true, true, true, true, true, true, true, true, true, true, true, true, true, true, true, true, true, true, true, true, true, true, true, true]),
-    (.length 25, .email, [true, false, false, false, false, false, false, false, false, false, false, false, false, false, false, false, false, false, false, true, true, true, true, true, true, true, true, true, false, false, false, false, false, false, false, false, false, false], [true, false, false, false, false, false, false, false, false, false, false, false, false, false, false, false, false, false, false, true, true, true, true, true, true, true, true, true, false, false, false, false, false, false, false, false, false, false]),
-    (.length 25, .url, [true, false, false, false, false, false, false, false, false, false, false, false, false, false, false, false, false, false, false, false, false, false, false, false, false, false, false, false, true, true, true, true, true, true, true, true, true, false], [true, false, false, false, false, false, false, false, false, false, false, false, false, false, false, false, false, false, false, false, false, false, false, false, false, false, false, false, true, true, true, true, true, true, true, true, true, false]),
-    (.length 25, .uuid, [false, false, false, false, false, false, false, false, false, false, false, false, false, false, false, false, false, false, false, false, false, false, false, false, false, false, false, false, false, false, false, false, false, false, false, false, false, true], [false, false, false, false, false, false, false, false, false, false, false, false, false, false, false, false, false, false, false, false, false, false, false, false, false, false, false, false, false, false, false, false, false, false, false, false, false, true]),
-    (.length 25, .regex, [true, true, true, true, true, true, true, true, true, true, true, true, true, true, true, true, true, true, true, true, true, true, true, true, true, true, true, true, true, true, true, true, true, true, true, true, true, true], [true, true, true, true, true, true, true, true, true, true, true, true, true, true, true, true, true, true, true, true, true, true, true, true, true, true, true, true, true, true, true, true, true, true, true, true, true, true]),
-    (.email, .url, [true, false, false, false, false, false, false, false, false, false, false, false, false, false, false, false, false, false, false, true, true, true, true, true, true, true, true, true, false, false, false, false, false, false, false, false, false, false], [true, false, false, false, false, false, false, false, false, false, false, false, false, false, false, false, false, false, false, false, false, false, false, false, false, false, false, false, true, true, true, true, true, true, true, true, true, false]),
-    (.email, .uuid, [true, false, false, false, false, false, false, false, false, false, false, false, false, false, false, false, false, false, false, true, true, true, true, true, true, true, true, true, false, false, false, false, false, false, false, false, false, false], [false, false, false, false, false, false, false, false, false, false, false, false, false, false, false, false, false, false, false, false, false, false, false, false, false, false, false, false, false, false, false, false, false, false, false, false, false, true]),
-    (.email, .regex, [true, false, false, false, false, false, false, false, false, false, false, false, false, false, false, false, false, false, false, true, true, true, true, true, true, true, true, true, false, false, false, false, false, false, false, false, false, false], [true, false, false, false, false, false, false, false, false, false, false, false, false, false, false, false, false, false, false, true, true, true, true, true, true, true, true, true, false, false, false, false, false, false, false, false, false, false]),
-    (.url, .uuid, [true, false, false, false, false, false, false, false, false, false, false, false, false, false, false, false, false, false, false, false, false, false, false, false, false, false, false, false, true, true, true, true, true, true, true, true, true, false], [false, false, false, false, false, false, false, false, false, false, false, false, false, false, false, false, false, false, false, false, false, false, false, false, false, false, false, false, false, false, false, false, false, false, false, false, false, true]),
-    (.url, .regex, [true, false, false, false, false, false, false, false, false, false, false, false, false, false, false, false, false, false, false, false, false, false, false, false, false, false, false, false, true, true, true, true, true, true, true, true, true, false], [true, false, false, false, false, false, false, false, false, false, false, false, false, false, false, false, false, false, false, false, false, false, false, false, false, false, false, false, true, true, true, true, true, true, true, true, true, false]),
-    (.uuid, .regex, [false, false, false, false, false, false, false, false, false, false, false, false, false, false, false, false, false, false, false, false, false, false, false, false, false, false, false, false, false, false, false, false, false, false, false, false, false, true], [false, false, false, false, false, false, false, false, false, false, false, false, false, false, false, false, false, false, false, false, false, false, false, false, false, false, false, false, false, false, false, false, false, false, false, false, false, true]),
-    (.min 37, .uuid, [false, false, false, false, false, false, false, false, false, false, false, false, false, false, false, false, false, false, false, false, false, false, false, false, false, false, false, false, false, false, false, false, false, false, false, false, false, true], [false, false, false, false, false, false, false, false, false, false, false, false, false, false, false, false, false, false, false, false, false, false, false, false, false, false, false, false, false, false, false, false, false, false, false, false, false, true])
+    (.required, .regex, [false, true, true, true, true, true, true, true, true, true, false, false, false, false, false, false, false, false, false, false, false, false, false, false, false, false, false, false, false, false, false, false, false, false, false, false, false, false], [false, true, true, true, true, true, true, true, true, true, false, false, false, false, false, false, false, false, false, false, false, false, false, false, false, false, false, false, false, false, false, false, false, false, false, false, false, false]),
+    (.min 20, .max 30, [true, false, true, true, true, true, true, false, false, false, false, true, true, true, true, true, false, false, false, false, true, true, true, true, true, false, false, false, false, true, true, true, true, true, false, false, false, false], [true, false, true, true, true, true, true, false, false, false, false, true, true, true, true, true, false, false, false, false, true, true, true, true, true, false, false, false, false, true, true, true, true, true, false, false, false, false]),
+    (.min 20, .length 25, [true, false, false, false, true, false, false, false, false, false, false, false, false, true, false, false, false, false, false, false, false, false, true, false, false, false, false, false, false, false, false, true, false, false, false, false, false, false], [true, false, false, false, true, false, false, false, false, false, false, false, false, true, false, false, false, false, false, false, false, false, true, false, false, false, false, false, false, false, false, true, false, false, false, false, false, false]),
+    (.min 20, .email, [true, false, false, false, false, false, false, false, false, false, false, false, false, false, false, false, false, false, false, false, true, true, true, true, true, true, true, true, false, false, false, false, false, false, false, false, false, false], [true, false, false, false, false, false, false, false, false, false, false, false, false, false, false, false, false, false, false, false, true, true, true, true, true, true, true, true, false, false, false, false, false, false, false, false, false, false]),
+    (.min 20, .url, [true, false, false, false, false, false, false, false, false, false, false, false, false, false, false, false, false, false, false, false, false, false, false, false, false, false, false, false, false, true, true, true, true, true, true, true, true, false], [true, false, false, false, false, false, false, false, false, false, false, false, false, false, false, false, false, false, false, false, false, false, false, false, false, false, false, false, false, true, true, true, true, true, true, true, true, false]),
+    (.min 20, .uuid, [true, false, false, false, false, false, false, false, false, false, false, false, false, false, false, false, false, false, false, false, false, false, false, false, false, false, false, false, false, false, false, false, false, false, false, false, false, true], [true, false, false, false, false, false, false, false, false, false, false, false, false, false, false, false, false, false, false, false, false, false, false, false, false, false, false, false, false, false, false, false, false, false, false, false, false, true]),
+    (.min 20, .regex, [true, false, true, true, true, true, true, true, true, true, false, false, false, false, false, false, false, false, false, false, false, false, false, false, false, false, false, false, false, false, false, false, false, false, false, false, false, false], [true, false, true, true, true, true, true, true, true, true, false, false, false, false, false, false, false, false, false, false, false, false, false, false, false, false, false, false, false, false, false, false, false, false, false, false, false, false]),
+    (.max 30, .length 25, [true, false, false, false, true, false, false, false, false, false, false, false, false, true, false, false, false, false, false, false, false, false, true, false, false, false, false, false, false, false, false, true, false, false, false, false, false, false], [true, false, false, false, true, false, false, false, false, false, false, false, false, true, false, false, false, false, false, false, false, false, true, false, false, false, false, false, false, false, false, true, false, false, false, false, false, false]),
+    (.max 30, .email, [true, false, false, false, false, false, false, false, false, false, false, false, false, false, false, false, false, false, false, true, true, true, true, true, true, false, false, false, false, false, false, false, false, false, false, false, false, false], [true, false, false, false, false, false, false, false, false, false, false, false, false, false, false, false, false, false, false, true, true, true, true, true, true, false, false, false, false, false, false, false, false, false, false, false, false, false]),
+    (.max 30, .url, [true, false, false, false, false, false, false, false, false, false, false, false, false, false, false, false, false, false, false, false, false, false, false, false, false, false, false, false, true, true, true, true, true, true, false, false, false, false], [true, false, false, false, false, false, false, false, false, false, false, false, false, false, false, false, false, false, false, false, false, false, false, false, false, false, false, false, true, true, true, true, true, true, false, false, false, false]),
+    (.max 30, .uuid, [true, false, false, false, false, false, false, false, false, false, false, false, false, false, false, false, false, false, false, false, false, false, false, false, false, false, false, false, false, false, false, false, false, false, false, false, false, false], [true, false, false, false, false, false, false, false, false, false, false, false, false, false, false, false, false, false, false, false, false, false, false, false, false, false, false, false, false, false, false, false, false, false, false, false, false, false]),
+    (.max 30, .regex, [true, true, true, true, true, true, true, false, false, false, false, false, false, false, false, false, false, false, false, false, false, false, false, false, false, false, false, false, false, false, false, false, false, false, false, false, false, false], [true, true, true, true, true, true, true, false, false, false, false, false, false, false, false, false, false, false, false, false, false, false, false, false, false, false, false, false, false, false, false, false, false, false, false, false, false, false]),
+    (.length 25, .email, [true, false, false, false, false, false, false, false, false, false, false, false, false, false, false, false, false, false, false, false, false, false, true, false, false, false, false, false, false, false, false, false, false, false, false, false, false, false], [true, false, false, false, false, false, false, false, false, false, false, false, false, false, false, false, false, false, false, false, false, false, true, false, false, false, false, false, false, false, false, false, false, false, false, false, false, false]),
+    (.length 25, .url, [true, false, false, false, false, false, false, false, false, false, false, false, false, false, false, false, false, false, false, false, false, false, false, false, false, false, false, false, false, false, false, true, false, false, false, false, false, false], [true, false, false, false, false, false, false, false, false, false, false, false, false, false, false, false, false, false, false, false, false, false, false, false, false, false, false, false, false, false, false, true, false, false, false, false, false, false]),
+    (.length 25, .uuid, [true, false, false, false, false, false, false, false, false, false, false, false, false, false, false, false, false, false, false, false, false, false, false, false, false, false, false, false, false, false, false, false, false, false, false, false, false, false], [true, false, false, false, false, false, false, false, false, false, false, false, false, false, false, false, false, false, false, false, false, false, false, false, false, false, false, false, false, false, false, false, false, false, false, false, false, false]),
+    (.length 25, .regex, [true, false, false, false, true, false, false, false, false, false, false, false, false, false, false, false, false, false, false, false, false, false, false, false, false, false, false, false, false, false, false, false, false, false, false, false, false, false], [true, false, false, false, true, false, false, false, false, false, false, false, false, false, false, false, false, false, false, false, false, false, false, false, false, false, false, false, false, false, false, false, false, false, false, false, false, false]),
+    (.email, .url, [true, false, false, false, false, false, false, false, false, false, false, false, false, false, false, false, false, false, false, false, false, false, false, false, false, false, false, false, false, false, false, false, false, false, false, false, false, false], [true, false, false, false, false, false, false, false, false, false, false, false, false, false, false, false, false, false, false, false, false, false, false, false, false, false, false, false, false, false, false, false, false, false, false, false, false, false]),
+    (.email, .uuid, [true, false, false, false, false, false, false, false, false, false, false, false, false, false, false, false, false, false, false, false, false, false, false, false, false, false, false, false, false, false, false, false, false, false, false, false, false, false], [true, false, false, false, false, false, false, false, false, false, false, false, false, false, false, false, false, false, false, false, false, false, false, false, false, false, false, false, false, false, false, false, false, false, false, false, false, false]),
+    (.email, .regex, [true, false, false, false, false, false, false, false, false, false, false, false, false, false, false, false, false, false, false, false, false, false, false, false, false, false, false, false, false, false, false, false, false, false, false, false, false, false], [true, false, false, false, false, false, false, false, false, false, false, false, false, false, false, false, false, false, false, false, false, false, false, false, false, false, false, false, false, false, false, false, false, false, false, false, false, false]),
+    (.url, .uuid, [true, false, false, false, false, false, false, false, false, false, false, false, false, false, false, false, false, false, false, false, false, false, false, false, false, false, false, false, false, false, false, false, false, false, false, false, false, false], [true, false, false, false, false, false, false, false, false, false, false, false, false, false, false, false, false, false, false, false, false, false, false, false, false, false, false, false, false, false, false, false, false, false, false, false, false, false]),
+    (.url, .regex, [true, false, false, false, false, false, false, false, false, false, false, false, false, false, false, false, false, false, false, false, false, false, false, false, false, false, false, false, false, false, false, false, false, false, false, false, false, false], [true, false, false, false, false, false, false, false, false, false, false, false, false, false, false, false, false, false, false, false, false, false, false, false, false, false, false, false, false, false, false, false, false, false, false, false, false, false]),
+    (.uuid, .regex, [true, false, false, false, false, false, false, false, false, false, false, false, false, false, false, false, false, false, false, false, false, false, false, false, false, false, false, false, false, false, false, false, false, false, false, false, false, false], [true, false, false, false, false, false, false, false, false, false, false, false, false, false, false, false, false, false, false, false, false, false, false, false, false, false, false, false, false, false, false, false, false, false, false, false, false, false]),
+    (.min 37, .uuid, [true, false, false, false, false, false, false, false, false, false, false, false, false, false, false, false, false, false, false, false, false, false, false, false, false, false, false, false, false, false, false, false, false, false, false, false, false, false], [true, false, false, false, false, false, false, false, false, false, false, false, false, false, false, false, false, false, false, false, false, false, false, false, false, false, false, false, false, false, false, false, false, false, false, false, false, false])
   ]
 
 def tagBlock31 : Block where
@@ -938,49 +938,49 @@ def tagBlock31 : Block where
   probes := [.nil, .num (-4), .num (-2), .num 0, .num 2, .num 4, .num 6, .num 8, .num 10, .num 12, .num 18014398509481984, .num 18014398509481986, .num 18014398509481988, .num 18446744073709551612, .num 18446744073709551614, .num (-18446744073709551616), .num (-18446744073709551614)]
   singles := [
     (.required, [false, true, true, true, true, true, true, true, true, true, true, true, true, true, true, true, true]),
-    (.min 3, [true, true, true, true, true, true, true, true, true, true, true, true, true, true, true, true, true]),
-    (.max 5, [true, true, true, true, true, true, true, true, true, true, true, true, true, true, true, true, true]),
-    (.positive, [true, true, true, true, true, true, true, true, true, true, true, true, true, true, true, true, true]),
-    (.negative, [true, true, true, true, true, true, true, true, true, true, true, true, true, true, true, true, true]),
-    (.nonnegative, [true, true, true, true, true, true, true, true, true, true, true, true, true, true, true, true, true]),
-    (.nonpositive, [true, true, true, true, true, true, true, true, true, true, true, true, true, true, true, true, true]),
-    (.min 9007199254740993, [true, true, true, true, true, true, true, true, true, true, true, true, true, true, true, true, true]),
-    (.max 9007199254740993, [true, true, true, true, true, true, true, true, true, true, true, true, true, true, true, true, true]),
-    (.min 9223372036854775807, [true, true, true, true, true, true, true, true, true, true, true, true, true, true, true, true, true]),
+    (.min 3, [true, false, false, false, false, false, true, true, true, true, true, true, true, true, true, false, false]),
+    (.max 5, [true, true, true, true, true, true, true, true, true, false, false, false, false, false, false, true, true]),
+    (.positive, [true, false, false, false, true, true, true, true, true, true, true, true, true, true, true, false, false]),
+    (.negative, [true, true, true, false, false, false, false, false, false, false, false, false, false, false, false, true, true]),
+    (.nonnegative, [true, false, false, true, true, true, true, true, true, true, true, true, true, true, true, false, false]),
+    (.nonpositive, [true, true, true, true, false, false, false, false, false, false, false, false, false, false, false, true, true]),
+    (.min 9007199254740993, [true, false, false, false, false, false, false, false, false, false, false, true, true, true, true, false, false]),
+    (.max 9007199254740993, [true, true, true, true, true, true, true, true, true, true, true, true, false, false, false, true, true]),
+    (.min 9223372036854775807, [true, false, false, false, false, false, false, false, false, false, false, false, false, false, true, false, false]),
     (.max 9223372036854775807, [true, true, true, true, true, true, true, true, true, true, true, true, true, true, true, true, true]),
     (.min (-9223372036854775808), [true, true, true, true, true, true, true, true, true, true, true, true, true, true, true, true, true]),
-    (.max (-9223372036854775808), [true, true, true, true, true, true, true, true, true, true, true, true, true, true, true, true, true]),
-    (.gt 9007199254740993, [true, true, true, true, true, true, true, true, true, true, true, true, true, true, true, true, true]),
-    (.gte 9007199254740993, [true, true, true, true, true, true, true, true, true, true, true, true, true, true, true, true, true]),
-    (.lt 9007199254740993, [true, true, true, true, true, true, true, true, true, true, true, true, true, true, true, true, true]),
-    (.lte 9007199254740993, [true, true, true, true, true, true, true, true, true, true, true, true, true, true, true, true, true]),
-    (.gt 3, [true, true, true, true, true, true, true, true, true, true, true, true, true, true, true, true, true]),
-    (.gte 3, [true, true, true, true, true, true, true, true, true, true, true, true, true, true, true, true, true]),
-    (.lt 5, [true, true, true, true, true, true, true, true, true, true, true, true, true, true, true, true, true]),
-    (.lte 5, [true, true, true, true, true, true, true, true, true, true, true, true, true, true, true, true, true])
+    (.max (-9223372036854775808), [true, false, false, false, false, false, false, false, false, false, false, false, false, false, false, true, false]),
+    (.gt 9007199254740993, [true, false, false, false, false, false, false, false, false, false, false, false, true, true, true, false, false]),
+    (.gte 9007199254740993, [true, false, false, false, false, false, false, false, false, false, false, true, true, true, true, false, false]),
+    (.lt 9007199254740993, [true, true, true, true, true, true, true, true, true, true, true, false, false, false, false, true, true]),
+    (.lte 9007199254740993, [true, true, true, true, true, true, true, true, true, true, true, true, false, false, false, true, true]),
+    (.gt 3, [true, false, false, false, false, false, false, true, true, true, true, true, true, true, true, false, false]),
+    (.gte 3, [true, false, false, false, false, false, true, true, true, true, true, true, true, true, true, false, false]),
+    (.lt 5, [true, true, true, true, true, true, true, true, false, false, false, false, false, false, false, true, true]),
+    (.lte 5, [true, true, true, true, true, true, true, true, true, false, false, false, false, false, false, true, true])
   ]
   pairs := [
-    (.required, .min 3, [false, true, true, true, true, true, true, true, true, true, true, true, true, true, true, true, true], [false, true, true, true, true, true, true, true, true, true, true, true, true, true, true, true, true]),
-    (.required, .max 5, [false, true, true, true, true, true, true, true, true, true, true, true, true, true, true, true, true], [false, true, true, true, true, true, true, true, true, true, true, true, true, true, true, true, true]),
-    (.required, .positive, [false, true, true, true, true, true, true, true, true, true, true, true, true, true, true, true, true], [false, true, true, true, true, true, true, true, true, true, true, true, true, true, true, true, true]),
-    (.required, .negative, [false, true, true, true, true, true, true, true, true, true, true, true, true, true, true, true, true], [false, true, true, true, true, true, true, true, true, true, true, true, true, true, true, true, true]),
-    (.required, .nonnegative, [false, true, true, true, true, true, true, true, true, true, true, true, true, true, true, true, true], [false, true, true, true, true, true, true, true, true, true, true, true, true, true, true, true, true]),
-    (.required, .nonpositive, [false, true, true, true, true, true, true, true, true, true, true, true, true, true, true, true, true], [false, true, true, true, true, true, true, true, true, true, true, true, true, true, true, true, true]),
-    (.min 3, .max 5, [true, true, true, true, true, true, true, true, true, true, true, true, true, true, true, true, true], [true, true, true, true, true, true, true, true, true, true, true, true, true, true, true, true, true]),
-    (.min 3, .positive, [true, true, true, true, true, true, true, true, true, true, true, true, true, true, true, true, true], [true, true, true, true, true, true, true, true, true, true, true, true, true, true, true, true, true]),
-    (.min 3, .negative, [true, true, true, true, true, true, true, true, true, true, true, true, true, true, true, true, true], [true, true, true, true, true, true, true, true, true, true, true, true, true, true, true, true, true]),
-    (.min 3, .nonnegative, [true, true, true, true, true, true, true, true, true, true, true, true, true, true, true, true, true], [true, true, true, true, true, true, true, true, true, true, true, true, true, true, true, true, true]),
-    (.min 3, .nonpositive, [true, true, true, true, true, true, true, true, true, true, true, true, true, true, true, true, true], [true, true, true, true, true, true, true, true, true, true, true, true, true, true, true, true, true]),
-    (.max 5, .positive, [true, true, true, true, true, true, true, true, true, true, true, true, true, true, true, true, true], [true, true, true, true, true, true, true, true, true, true, true, true, true, true, true, true, true]),
-    (.max 5, .negative, [true, true, true, true, true, true, true, true, true, true, true, true, true, true, true, true, true], [true, true, true, true, true, true, true, true, true, true, true, true, true, true, true, true, true]),
-    (.max 5, .nonnegative, [true, true, true, true, true, true, true, true, true, true, true, true, true, true, true, true, true], [true, true, true, true, true, true, true, true, true, true, true, true, true, true, true, true, true]),
-    (.max 5, .nonpositive, [true, true, true, true, true, true, true, true, true, true, true, true, true, true, true, true, true], [true, true, true, true, true, true, true, true, true, true, true, true, true, true, true, true, true]),
-    (.positive, .negative, [true, true, true, true, true, true, true, true, true, true, true, true, true, true, true, true, true], [true, true, true, true, true, true, true, true, true, true, true, true, true, true, true, true, true]),
-    (.positive, .nonnegative, [true, true, true, true, true, true, true, true, true, true, true, true, true, true, true, true, true], [true, true, true, true, true, true, true, true, true, true, true, true, true, true, true, true, true]),
-    (.positive, .nonpositive, [true, true, true, true, true, true, true, true, true, true, true, true, true, true, true, true, true], [true, true, true, true, true, true, true, true, true, true, true, true, true, true, true, true, true]),
-    (.negative, .nonnegative, [true, true, true, true, true, true, true, true, true, true, true, true, true, true, true, true, true], [true, true, true, true, true, true, true, true, true, true, true, true, true, true, true, true, true]),
-    (.negative, .nonpositive, [true, true, true, true, true, true, true, true, true, true, true, true, true, true, true, true, true], [true, true, true, true, true, true, true, true, true, true, true, true, true, true, true, true, true]),
-    (.nonnegative, .nonpositive, [true, true, true, true, true, true, true, true, true, true, true, true, true, true, true, true, true], [true, true, true, true, true, true, true, true, true, true, true, true, true, true, true, true, true])
+    (.required, .min 3, [false, false, false, false, false, false, true, true, true, true, true, true, true, true, true, false, false], [false, false, false, false, false, false, true, true, true, true, true, true, true, true, true, false, false]),
+    (.required, .max 5, [false, true, true, true, true, true, true, true, true, false, false, false, false, false, false, true, true], [false, true, true, true, true, true, true, true, true, false, false, false, false, false, false, true, true]),
+    (.required, .positive, [false, false, false, false, true, true, true, true, true, true, true, true, true, true, true, false, false], [false, false, false, false, true, true, true, true, true, true, true, true, true, true, true, false, false]),
+    (.required, .negative, [false, true, true, false, false, false, false, false, false, false, false, false, false, false, false, true, true], [false, true, true, false, false, false, false, false, false, false, false, false, false, false, false, true, true]),
+    (.required, .nonnegative, [false, false, false, true, true, true, true, true, true, true, true, true, true, true, true, false, false], [false, false, false, true, true, true, true, true, true, true, true, true, true, true, true, false, false]),
+    (.required, .nonpositive, [false, true, true, true, false, false, false, false, false, false, false, false, false, false, false, true, true], [false, true, true, true, false, false, false, false, false, false, false, false, false, false, false, true, true]),
+    (.min 3, .max 5, [true, false, false, false, false, false, true, true, true, false, false, false, false, false, false, false, false], [true, false, false, false, false, false, true, true, true, false, false, false, false, false, false, false, false]),
+    (.min 3, .positive, [true, false, false, false, false, false, true, true, true, true, true, true, true, true, true, false, false], [true, false, false, false, false, false, true, true, true, true, true, true, true, true, true, false, false]),
+    (.min 3, .negative, [true, false, false, false, false, false, false, false, false, false, false, false, false, false, false, false, false], [true, false, false, false, false, false, false, false, false, false, false, false, false, false, false, false, false]),
+    (.min 3, .nonnegative, [true, false, false, false, false, false, true, true, true, true, true, true, true, true, true, false, false], [true, false, false, false, false, false, true, true, true, true, true, true, true, true, true, false, false]),
+    (.min 3, .nonpositive, [true, false, false, false, false, false, false, false, false, false, false, false, false, false, false, false, false], [true, false, false, false, false, false, false, false, false, false, false, false, false, false, false, false, false]),
+    (.max 5, .positive, [true, false, false, false, true, true, true, true, true, false, false, false, false, false, false, false, false], [true, false, false, false, true, true, true, true, true, false, false, false, false, false, false, false, false]),
+    (.max 5, .negative, [true, true, true, false, false, false, false, false, false, false, false, false, false, false, false, true, true], [true, true, true, false, false, false, false, false, false, false, false, false, false, false, false, true, true]),
+    (.max 5, .nonnegative, [true, false, false, true, true, true, true, true, true, false, false, false, false, false, false, false, false], [true, false, false, true, true, true, true, true, true, false, false, false, false, false, false, false, false]),
+    (.max 5, .nonpositive, [true, true, true, true, false, false, false, false, false, false, false, false, false, false, false, true, true], [true, true, true, true, false, false, false, false, false, false, false, false, false, false, false, true, true]),
+    (.positive, .negative, [true, false, false, false, false, false, false, false, false, false, false, false, false, false, false, false, false], [true, false, false, false, false, false, false, false, false, false, false, false, false, false, false, false, false]),
+    (.positive, .nonnegative, [true, false, false, false, true, true, true, true, true, true, true, true, true, true, true, false, false], [true, false, false, false, true, true, true, true, true, true, true, true, true, true, true, false, false]),
+    (.positive, .nonpositive, [true, false, false, false, false, false, false, false, false, false, false, false, false, false, false, false, false], [true, false, false, false, false, false, false, false, false, false, false, false, false, false, false, false, false]),
+    (.negative, .nonnegative, [true, false, false, false, false, false, false, false, false, false, false, false, false, false, false, false, false], [true, false, false, false, false, false, false, false, false, false, false, false, false, false, false, false, false]),
+    (.negative, .nonpositive, [true, true, true, false, false, false, false, false, false, false, false, false, false, false, false, true, true], [true, true, true, false, false, false, false, false, false, false, false, false, false, false, false, true, true]),
+    (.nonnegative, .nonpositive, [true, false, false, true, false, false, false, false, false, false, false, false, false, false, false, false, false], [true, false, false, true, false, false, false, false, false, false, false, false, false, false, false, false, false])
   ]
 
 def tagBlock32 : Block where
@@ -988,43 +988,43 @@ def tagBlock32 : Block where
   probes := [.nil, .num (-4), .num (-2), .num 0, .num 2, .num 4, .num 6, .num 8, .num 10, .num 12, .num 252, .num 254, .num (-256), .num (-254)]
   singles := [
     (.required, [false, true, true, true, true, true, true, true, true, true, true, true, true, true]),
-    (.min 3, [true, true, true, true, true, true, true, true, true, true, true, true, true, true]),
-    (.max 5, [true, true, true, true, true, true, true, true, true, true, true, true, true, true]),
-    (.positive, [true, true, true, true, true, true, true, true, true, true, true, true, true, true]),
-    (.negative, [true, true, true, true, true, true, true, true, true, true, true, true, true, true]),
-    (.nonnegative, [true, true, true, true, true, true, true, true, true, true, true, true, true, true]),
-    (.nonpositive, [true, true, true, true, true, true, true, true, true, true, true, true, true, true]),
-    (.min 127, [true, true, true, true, true, true, true, true, true, true, true, true, true, true]),
+    (.min 3, [true, false, false, false, false, false, true, true, true, true, true, true, false, false]),
+    (.max 5, [true, true, true, true, true, true, true, true, true, false, false, false, true, true]),
+    (.positive, [true, false, false, false, true, true, true, true, true, true, true, true, false, false]),
+    (.negative, [true, true, true, false, false, false, false, false, false, false, false, false, true, true]),
+    (.nonnegative, [true, false, false, true, true, true, true, true, true, true, true, true, false, false]),
+    (.nonpositive, [true, true, true, true, false, false, false, false, false, false, false, false, true, true]),
+    (.min 127, [true, false, false, false, false, false, false, false, false, false, false, true, false, false]),
     (.max 127, [true, true, true, true, true, true, true, true, true, true, true, true, true, true]),
     (.min (-128), [true, true, true, true, true, true, true, true, true, true, true, true, true, true]),
-    (.max (-128), [true, true, true, true, true, true, true, true, true, true, true, true, true, true]),
-    (.gt 3, [true, true, true, true, true, true, true, true, true, true, true, true, true, true]),
-    (.gte 3, [true, true, true, true, true, true, true, true, true, true, true, true, true, true]),
-    (.lt 5, [true, true, true, true, true, true, true, true, true, true, true, true, true, true]),
-    (.lte 5, [true, true, true, true, true, true, true, true, true, true, true, true, true, true])
+    (.max (-128), [true, false, false, false, false, false, false, false, false, false, false, false, true, false]),
+    (.gt 3, [true, false, false, false, false, false, false, true, true, true, true, true, false, false]),
+    (.gte 3, [true, false, false, false, false, false, true, true, true, true, true, true, false, false]),
+    (.lt 5, [true, true, true, true, true, true, true, true, false, false, false, false, true, true]),
+    (.lte 5, [true, true, true, true, true, true, true, true, true, false, false, false, true, true])
   ]
   pairs := [
-    (.required, .min 3, [false, true, true, true, true, true, true, true, true, true, true, true, true, true], [false, true, true, true, true, true, true, true, true, true, true, true, true, true]),
-    (.required, .max 5, [false, true, true, true, true, true, true, true, true, true, true, true, true, true], [false, true, true, true, true, true, true, true, true, true, true, true, true, true]),
-    (.required, .positive, [false, true, true, true, true, true, true, true, true, true, true, true, true, true], [false, true, true, true, true, true, true, true, true, true, true, true, true, true]),
-    (.required, .negative, [false, true, true, true, true, true, true, true, true, true, true, true, true, true], [false, true, true, true, true, true, true, true, true, true, true, true, true, true]),
-    (.required, .nonnegative, [false, true, true, true, true, true, true, true, true, true, true, true, true, true], [false, true, true, true, true, true, true, true, true, true, true, true, true, true]),
-    (.required, .nonpositive, [false, true, true, true, true, true, true, true, true, true, true, true, true, true], [false, true, true, true, true, true, true, true, true, true, true, true, true, true]),
-    (.min 3, .max 5, [true, true, true, true, true, true, true, true, true, true, true, true, true, true], [true, true, true, true, true, true, true, true, true, true, true, true, true, true]),
-    (.min 3, .positive, [true, true, true, true, true, true, true, true, true, true, true, true, true, true], [true, true, true, true, true, true, true, true, true, true, true, true, true, true]),
-    (.min 3, .negative, [true, true, true, true, true, true, true, true, true, true, true, true, true, true], [true, true, true, true, true, true, true, true, true, true, true, true, true, true]),
-    (.min 3, .nonnegative, [true, true, true, true, true, true, true, true, true, true, true, true, true, true], [true, true, true, true, true, true, true, true, true, true, true, true, true, true]),
-    (.min 3, .nonpositive, [true, true, true, true, true, true, true, true, true, true, true, true, true, true], [true, true, true, true, true, true, true, true, true, true, true, true, true, true]),
-    (.max 5, .positive, [true, true, true, true, true, true, true, true, true, true, true, true, true, true], [true, true, true, true, true, true, true, true, true, true, true, true, true, true]),
-    (.max 5, .negative, [true, true, true, true, true, true, true, true, true, true, true, true, true, true], [true, true, true, true, true, true, true, true, true, true, true, true, true, true]),
-    (.max 5, .nonnegative, [true, true, true, true, true, true, true, true, true, true, true, true, true, true], [true, true, true, true, true, true, true, true, true, true, true, true, true, true]),
-    (.max 5, .nonpositive, [true, true, true, true, true, true, true, true, true, true, true, true, true, true], [true, true, true, true, true, true, true, true, true, true, true, true, true, true]),
-    (.positive, .negative, [true, true, true, true, true, true, true, true, true, true, true, true, true, true], [true, true, true, true, true, true, true, true, true, true, true, true, true, true]),
-    (.positive, .nonnegative, [true, true, true, true, true, true, true, true, true, true, true, true, true, true], [true, true, true, true, true, true, true, true, true, true, true, true, true, true]),
-    (.positive, .nonpositive, [true, true, true, true, true, true, true, true, true, true, true, true, true, true], [true, true, true, true, true, true, true, true, true, true, true, true, true, true]),
-    (.negative, .nonnegative, [true, true, true, true, true, true, true, true, true, true, true, true, true, true], [true, true, true, true, true, true, true, true, true, true, true, true, true, true]),
-    (.negative, .nonpositive, [true, true, true, true, true, true, true, true, true, true, true, true, true, true], [true, true, true, true, true, true, true, true, true, true, true, true, true, true]),
-    (.nonnegative, .nonpositive, [true, true, true, true, true, true, true, true, true, true, true, true, true, true], [true, true, true, true, true, true, true, true, true, true, true, true, true, true])
+    (.required, .min 3, [false, false, false, false, false, false, true, true, true, true, true, true, false, false], [false, false, false, false, false, false, true, true, true, true, true, true, false, false]),
+    (.required, .max 5, [false, true, true, true, true, true, true, true, true, false, false, false, true, true], [false, true, true, true, true, true, true, true, true, false, false, false, true, true]),
+    (.required, .positive, [false, false, false, false, true, true, true, true, true, true, true, true, false, false], [false, false, false, false, true, true, true, true, true, true, true, true, false, false]),
+    (.required, .negative, [false, true, true, false, false, false, false, false, false, false, false, false, true, true], [false, true, true, false, false, false, false, false, false, false, false, false, true, true]),
+    (.required, .nonnegative, [false, false, false, true, true, true, true, true, true, true, true, true, false, false], [false, false, false, true, true, true, true, true, true, true, true, true, false, false]),
+    (.required, .nonpositive, [false, true, true, true, false, false, false, false, false, false, false, false, true, true], [false, true, true, true, false, false, false, false, false, false, false, false, true, true]),
+    (.min 3, .max 5, [true, false, false, false, false, false, true, true, true, false, false, false, false, false], [true, false, false, false, false, false, true, true, true, false, false, false, false, false]),
+    (.min 3, .positive, [true, false, false, false, false, false, true, true, true, true, true, true, false, false], [true, false, false, false, false, false, true, true, true, true, true, true, false, false]),
+    (.min 3, .negative, [true, false, false, false, false, false, false, false, false, false, false, false, false, false], [true, false, false, false, false, false, false, false, false, false, false, false, false, false]),
+    (.min 3, .nonnegative, [true, false, false, false, false, false, true, true, true, true, true, true, false, false], [true, false, false, false, false, false, true, true, true, true, true, true, false, false]),
+    (.min 3, .nonpositive, [true, false, false, false, false, false, false, false, false, false, false, false, false, false], [true, false, false, false, false, false, false, false, false, false, false, false, false, false]),
+    (.max 5, .positive, [true, false, false, false, true, true, true, true, true, false, false, false, false, false], [true, false, false, false, true, true, true, true, true, false, false, false, false, false]),
+    (.max 5, .negative, [true, true, true, false, false, false, false, false, false, false, false, false, true, true], [true, true, true, false, false, false, false, false, false, false, false, false, true, true]),
+    (.max 5, .nonnegative, [true, false, false, true, true, true, true, true, true, false, false, false, false, false], [true, false, false, true, true, true, true, true, true, false, false, false, false, false]),
+    (.max 5, .nonpositive, [true, true, true, true, false, false, false, false, false, false, false, false, true, true], [true, true, true, true, false, false, false, false, false, false, false, false, true, true]),
+    (.positive, .negative, [true, false, false, false, false, false, false, false, false, false, false, false, false, false], [true, false, false, false, false, false, false, false, false, false, false, false, false, false]),
+    (.positive, .nonnegative, [true, false, false, false, true, true, true, true, true, true, true, true, false, false], [true, false, false, false, true, true, true, true, true, true, true, true, false, false]),
+    (.positive, .nonpositive, [true, false, false, false, false, false, false, false, false, false, false, false, false, false], [true, false, false, false, false, false, false, false, false, false, false, false, false, false]),
+    (.negative, .nonnegative, [true, false, false, false, false, false, false, false, false, false, false, false, false, false], [true, false, false, false, false, false, false, false, false, false, false, false, false, false]),
+    (.negative, .nonpositive, [true, true, true, false, false, false, false, false, false, false, false, false, true, true], [true, true, true, false, false, false, false, false, false, false, false, false, true, true]),
+    (.nonnegative, .nonpositive, [true, false, false, true, false, false, false, false, false, false, false, false, false, false], [true, false, false, true, false, false, false, false, false, false, false, false, false, false])
   ]
 
 def tagBlock33 : Block where
@@ -1032,43 +1032,43 @@ def tagBlock33 : Block where
   probes := [.nil, .num (-4), .num (-2), .num 0, .num 2, .num 4, .num 6, .num 8, .num 10, .num 12, .num 65532, .num 65534, .num (-65536), .num (-65534)]
   singles := [
     (.required, [false, true, true, true, true, true, true, true, true, true, true, true, true, true]),
-    (.min 3, [true, true, true, true, true, true, true, true, true, true, true, true, true, true]),
-    (.max 5, [true, true, true, true, true, true, true, true, true, true, true, true, true, true]),
-    (.positive, [true, true, true, true, true, true, true, true, true, true, true, true, true, true]),
-    (.negative, [true, true, true, true, true, true, true, true, true, true, true, true, true, true]),
-    (.nonnegative, [true, true, true, true, true, true, true, true, true, true, true, true, true, true]),
-    (.nonpositive, [true, true, true, true, true, true, true, true, true, true, true, true, true, true]),
-    (.min 32767, [true, true, true, true, true, true, true, true, true, true, true, true, true, true]),
+    (.min 3, [true, false, false, false, false, false, true, true, true, true, true, true, false, false]),
+    (.max 5, [true, true, true, true, true, true, true, true, true, false, false, false, true, true]),
+    (.positive, [true, false, false, false, true, true, true, true, true, true, true, true, false, false]),
+    (.negative, [true, true, true, false, false, false, false, false, false, false, false, false, true, true]),
+    (.nonnegative, [true, false, false, true, true, true, true, true, true, true, true, true, false, false]),
+    (.nonpositive, [true, true, true, true, false, false, false, false, false, false, false, false, true, true]),
+    (.min 32767, [true, false, false, false, false, false, false, false, false, false, false, true, false, false]),
     (.max 32767, [true, true, true, true, true, true, true, true, true, true, true, true, true, true]),
     (.min (-32768), [true, true, true, true, true, true, true, true, true, true, true, true, true, true]),
-    (.max (-32768), [true, true, true, true, true, true, true, true, true, true, true, true, true, true]),
-    (.gt 3, [true, true, true, true, true, true, true, true, true, true, true, true, true, true]),
-    (.gte 3, [true, true, true, true, true, true, true, true, true, true, true, true, true, true]),
-    (.lt 5, [true, true, true, true, true, true, true, true, true, true, true, true, true, true]),
-    (.lte 5, [true, true, true, true, true, true, true, true, true, true, true, true, true, true])
+    (.max (-32768), [true, false, false, false, false, false, false, false, false, false, false, false, true, false]),
+    (.gt 3, [true, false, false, false, false, false, false, true, true, true, true, true, false, false]),
+    (.gte 3, [true, false, false, false, false, false, true, true, true, true, true, true, false, false]),
+    (.lt 5, [true, true, true, true, true, true, true, true, false, false, false, false, true, true]),
+    (.lte 5, [true, true, true, true, true, true, true, true, true, false, false, false, true, true])
   ]
   pairs := [
-    (.required, .min 3, [false, true, true, true, true, true, true, true, true, true, true, true, true, true], [false, true, true, true, true, true, true, true, true, true, true, true, true, true]),
-    (.required, .max 5, [false, true, true, true, true, true, true, true, true, true, true, true, true, true], [false, true, true, true, true, true, true, true, true, true, true, true, true, true]),
-    (.required, .positive, [false, true, true, true, true, true, true, true, true, true, true, true, true, true], [false, true, true, true, true, true, true, true, true, true, true, true, true, true]),
-    (.required, .negative, [false, true, true, true, true, true, true, true, true, true, true, true, true, true], [false, true, true, true, true, true, true, true, true, true, true, true, true, true]),
-    (.required, .nonnegative, [false, true, true, true, true, true, true, true, true, true, true, true, true, true], [false, true, true, true, true, true, true, true, true, true, true, true, true, true]),
-    (.required, .nonpositive, [false, true, true, true, true, true, true, true, true, true, true, true, true, true], [false, true, true, true, true, true, true, true, true, true, true, true, true, true]),
-    (.min 3, .max 5, [true, true, true, true, true, true, true, true, true, true, true, true, true, true], [true, true, true, true, true, true, true, true, true, true, true, true, true, true]),
-    (.min 3, .positive, [true, true, true, true, true, true, true, true, true, true, true, true, true, true], [true, true, true, true, true, true, true, true, true, true, true, true, true, true]),
-    (.min 3, .negative, [true, true, true, true, true, true, true, true, true, true, true, true, true, true], [true, true, true, true, true, true, true, true, true, true, true, true, true, true]),
-    (.min 3, .nonnegative, [true, true, true, true, true, true, true, true, true, true, true, true, true, true], [true, true, true, true, true, true, true, true, true, true, true, true, true, true]),
-    (.min 3, .nonpositive, [true, true, true, true, true, true, true, true, true, true, true, true, true, true], [true, true, true, true, true, true, true, true, true, true, true, true, true, true]),
-    (.max 5, .positive, [true, true, true, true, true, true, true, true, true, true, true, true, true, true], [true, true, true, true, true, true, true, true, true, true, true, true, true, true]),
-    (.max 5, .negative, [true, true, true, true, true, true, true, true, true, true, true, true, true, true], [true, true, true, true, true, true, true, true, true, true, true, true, true, true]),
-    (.max 5, .nonnegative, [true, true, true, true, true, true, true, true, true, true, true, true, true, true], [true, true, true, true, true, true, true, true, true, true, true, true, true, true]),
-    (.max 5, .nonpositive, [true, true, true, true, true, true, true, true, true, true, true, true, true, true], [true, true, true, true, true, true, true, true, true, true, true, true, true, true]),
-    (.positive, .negative, [true, true, true, true, true, true, true, true, true, true, true, true, true, true], [true, true, true, true, true, true, true, true, true, true, true, true, true, true]),
-    (.positive, .nonnegative, [true, true, true, true, true, true, true, true, true, true, true, true, true, true], [true, true, true, true, true, true, true, true, true, true, true, true, true, true]),
-    (.positive, .nonpositive, [true, true, true, true, true, true, true, true, true, true, true, true, true, true], [true, true, true, true, true, true, true, true, true, true, true, true, true, true]),
-    (.negative, .nonnegative, [true, true, true, true, true, true, true, true, true, true, true, true, true, true], [true, true, true, true, true, true, true, true, true, true, true, true, true, true]),
-    (.negative, .nonpositive, [true, true, true, true, true, true, true, true, true, true, true, true, true, true], [true, true, true, true, true, true, true, true, true, true, true, true, true, true]),
-    (.nonnegative, .nonpositive, [true, true, true, true, true, true, true, true, true, true, true, true, true, true], [true, true, true, true, true, true, true, true, true, true, true, true, true, true])
+    (.required, .min 3, [false, false, false, false, false, false, true, true, true, true, true, true, false, false], [false, false, false, false, false, false, true, true, true, true, true, true, false, false]),
+    (.required, .max 5, [false, true, true, true, true, true, true, true, true, false, false, false, true, true], [false, true, true, true, true, true, true, true, true, false, false, false, true, true]),
+    (.required, .positive, [false, false, false, false, true, true, true, true, true, true, true, true, false, false], [false, false, false, false, true, true, true, true, true, true, true, true, false, false]),
+    (.required, .negative, [false, true, true, false, false, false, false, false, false, false, false, false, true, true], [false, true, true, false, false, false, false, false, false, false, false, false, true, true]),
+    (.required, .nonnegative, [false, false, false, true, true, true, true, true, true, true, true, true, false, false], [false, false, false, true, true, true, true, true, true, true, true, true, false, false]),
+    (.required, .nonpositive, [false, true, true, true, false, false, false, false, false, false, false, false, true, true], [false, true, true, true, false, false, false, false, false, false, false, false, true, true]),
+    (.min 3, .max 5, [true, false, false, false, false, false, true, true, true, false, false, false, false, false], [true, false, false, false, false, false, true, true, true, false, false, false, false, false]),
+    (.min 3, .positive, [true, false, false, false, false, false, true, true, true, true, true, true, false, false], [true, false, false, false, false, false, true, true, true, true, true, true, false, false]),
+    (.min 3, .negative, [true, false, false, false, false, false, false, false, false, false, false, false, false, false], [true, false, false, false, false, false, false, false, false, false, false, false, false, false]),
+    (.min 3, .nonnegative, [true, false, false, false, false, false, true, true, true, true, true, true, false, false], [true, false, false, false, false, false, true, true, true, true, true, true, false, false]),
+    (.min 3, .nonpositive, [true, false, false, false, false, false, false, false, false, false, false, false, false, false], [true, false, false, false, false, false, false, false, false, false, false, false, false, false]),
+    (.max 5, .positive, [true, false, false, false, true, true, true, true, true, false, false, false, false, false], [true, false, false, false, true, true, true, true, true, false, false, false, false, false]),
+    (.max 5, .negative, [true, true, true, false, false, false, false, false, false, false, false, false, true, true], [true, true, true, false, false, false, false, false, false, false, false, false, true, true]),
+    (.max 5, .nonnegative, [true, false, false, true, true, true, true, true, true, false, false, false, false, false], [true, false, false, true, true, true, true, true, true, false, false, false, false, false]),
+    (.max 5, .nonpositive, [true, true, true, true, false, false, false, false, false, false, false, false, true, true], [true, true, true, true, false, false, false, false, false, false, false, false, true, true]),
+    (.positive, .negative, [true, false, false, false, false, false, false, false, false, false, false, false, false, false], [true, false, false, false, false, false, false, false, false, false, false, false, false, false]),
+    (.positive, .nonnegative, [true, false, false, false, true, true, true, true, true, true, true, true, false, false], [true, false, false, false, true, true, true, true, true, true, true, true, false, false]),
+    (.positive, .nonpositive, [true, false, false, false, false, false, false, false, false, false, false, false, false, false], [true, false, false, false, false, false, false, false, false, false, false, false, false, false]),
+    (.negative, .nonnegative, [true, false, false, false, false, false, false, false, false, false, false, false, false, false], [true, false, false, false, false, false, false, false, false, false, false, false, false, false]),
+    (.negative, .nonpositive, [true, true, true, false, false, false, false, false, false, false, false, false, true, true], [true, true, true, false, false, false, false, false, false, false, false, false, true, true]),
+    (.nonnegative, .nonpositive, [true, false, false, true, false, false, false, false, false, false, false, false, false, false], [true, false, false, true, false, false, false, false, false, false, false, false, false, false])
   ]
 
 def tagBlock34 : Block where
@@ -1076,43 +1076,43 @@ def tagBlock34 : Block where
   probes := [.nil, .num (-4), .num (-2), .num 0, .num 2, .num 4, .num 6, .num 8, .num 10, .num 12, .num 4294967292, .num 4294967294, .num (-4294967296), .num (-4294967294)]
   singles := [
     (.required, [false, true, true, true, true, true, true, true, true, true, true, true, true, true]),
-    (.min 3, [true, true, true, true, true, true, true, true, true, true, true, true, true, true]),
-    (.max 5, [true, true, true, true, true, true, true, true, true, true, true, true, true, true]),
-    (.positive, [true, true, true, true, true, true, true, true, true, true, true, true, true, true]),
-    (.negative, [true, true, true, true, true, true, true, true, true, true, true, true, true, true]),
-    (.nonnegative, [true, true, true, true, true, true, true, true, true, true, true, true, true, true]),
-    (.nonpositive, [true, true, true, true, true, true, true, true, true, true, true, true, true, true]),
-    (.min 2147483647, [true, true, true, true, true, true, true, true, true, true, true, true, true, true]),
+    (.min 3, [true, false, false, false, false, false, true, true, true, true, true, true, false, false]),
+    (.max 5, [true, true, true, true, true, true, true, true, true, false, false, false, true, true]),
+    (.positive, [true, false, false, false, true, true, true, true, true, true, true, true, false, false]),
+    (.negative, [true, true, true, false, false, false, false, false, false, false, false, false, true, true]),
+    (.nonnegative, [true, false, false, true, true, true, true, true, true, true, true, true, false, false]),
+    (.nonpositive, [true, true, true, true, false, false, false, false, false, false, false, false, true, true]),
+    (.min 2147483647, [true, false, false, false, false, false, false, false, false, false, false, true, false, false]),
     (.max 2147483647, [true, true, true, true, true, true, true, true, true, true, true, true, true, true]),
     (.min (-2147483648), [true, true, true, true, true, true, true, true, true, true, true, true, true, true]),
-    (.max (-2147483648), [true, true, true, true, true, true, true, true, true, true, true, true, true, true]),
-    (.gt 3, [true, true, true, true, true, true, true, true, true, true, true, true, true, true]),
-    (.gte 3, [true, true, true, true, true, true, true, true, true, true, true, true, true, true]),
-    (.lt 5, [true, true, true, true, true, true, true, true, true, true, true, true, true, true]),
-    (.lte 5, [true, true, true, true, true, true, true, true, true, true, true, true, true, true])
+    (.max (-2147483648), [true, false, false, false, false, false, false, false, false, false, false, false, true, false]),
+    (.gt 3, [true, false, false, false, false, false, false, true, true, true, true, true, false, false]),
+    (.gte 3, [true, false, false, false, false, false, true, true, true, true, true, true, false, false]),
+    (.lt 5, [true, true, true, true, true, true, true, true, false, false, false, false, true, true]),
+    (.lte 5, [true, true, true, true, true, true, true, true, true, false, false, false, true, true])
   ]
   pairs := [
-    (.required, .min 3, [false, true, true, true, true, true, true, true, true, true, true, true, true, true], [false, true, true, true, true, true, true, true, true, true, true, true, true, true]),
-    (.required, .max 5, [false, true, true, true, true, true, true, true, true, true, true, true, true, true], [false, true, true, true, true, true, true, true, true, true, true, true, true, true]),
-    (.required, .positive, [false, true, true, true, true, true, true, true, true, true, true, true, true, true], [false, true, true, true, true, true, true, true, true, true, true, true, true, true]),
-    (.required, .negative, [false, true, true, true, true, true, true, true, true, true, true, true, true, true], [false, true, true, true, true, true, true, true, true, true, true, true, true, true]),
-    (.required, .nonnegative, [false, true, true, true, true, true, true, true, true, true, true, true, true, true], [false, true, true, true, true, true, true, true, true, true, true, true, true, true]),
-    (.required, .nonpositive, [false, true, true, true, true, true, true, true, true, true, true, true, true, true], [false, true, true, true, true, true, true, true, true, true, true, true, true, true]),
-    (.min 3, .max 5, [true, true, true, true, true, true, true, true, true, true, true, true, true, true], [true, true, true, true, true, true, true, true, true, true, true, true, true, true]),
-    (.min 3, .positive, [true, true, true, true, true, true, true, true, true, true, true, true, true, true], [true, true, true, true, true, true, true, true, true, true, true, true, true, true]),
-    (.min 3, .negative, [true, true, true, true, true, true, true, true, true, true, true, true, true, true], [true, true, true, true, true, true, true, true, true, true, true, true, true, true]),
-    (.min 3, .nonnegative, [true, true, true, true, true, true, true, true, true, true, true, true, true, true], [true, true, true, true, true, true, true, true, true, true, true, true, true, true]),
-    (.min 3, .nonpositive, [true, true, true, true, true, true, true, true, true, true, true, true, true, true], [true, true, true, true, true, true, true, true, true, true, true, true, true, true]),
-    (.max 5, .positive, [true, true, true, true, true, true, true, true, true, true, true, true, true, true], [true, true, true, true, true, true, true, true, true, true, true, true, true, true]),
-    (.max 5, .negative, [true, true, true, true, true, true, true, true, true, true, true, true, true, true], [true, true, true, true, true, true, true, true, true, true, true, true, true, true]),
-    (.max 5, .nonnegative, [true, true, true, true, true, true, true, true, true, true, true, true, true, true], [true, true, true, true, true, true, true, true, true, true, true, true, true, true]),
-    (.max 5, .nonpositive, [true, true, true, true, true, true, true, true, true, true, true, true, true, true], [true, true, true, true, true, true, true, true, true, true, true, true, true, true]),
-    (.positive, .negative, [true, true, true, true, true, true, true, true, true, true, true, true, true, true], [true, true, true, true, true, true, true, true, true, true, true, true, true, true]),
-    (.positive, .nonnegative, [true, true, true, true, true, true, true, true, true, true, true, true, true, true], [true, true, true, true, true, true, true, true, true, true, true, true, true, true]),
-    (.positive, .nonpositive, [true, true, true, true, true, true, true, true, true, true, true, true, true, true], [true, true, true, true, true, true, true, true, true, true, true, true, true, true]),
-    (.negative, .nonnegative, [true, true, true, true, true, true, true, true, true, true, true, true, true, true], [true, true, true, true, true, true, true, true, true, true, true, true, true, true]),
-    (.negative, .nonpositive, [true, true, true, true, true, true, true, true, true, true, true, true, true, true], [true, true, true, true, true, true, true, true, true, true, true, true, true, true]),
-    (.nonnegative, .nonpositive, [true, true, true, true, true, true, true, true, true, true, true, true, true, true], [true, true, true, true, true, true, true, true, true, true, true, true, true, true])
+    (.required, .min 3, [false, false, false, false, false, false, true, true, true, true, true, true, false, false], [false, false, false, false, false, false, true, true, true, true, true, true, false, false]),
+    (.required, .max 5, [false, true, true, true, true, true, true, true, true, false, false, false, true, true], [false, true, true, true, true, true, true, true, true, false, false, false, true, true]),
+    (.required, .positive, [false, false, false, false, true, true, true, true, true, true, true, true, false, false], [false, false, false, false, true, true, true, true, true, true, true, true, false, false]),
+    (.required, .negative, [false, true, true, false, false, false, false, false, false, false, false, false, true, true], [false, true, true, false, false, false, false, false, false, false, false, false, true, true]),
+    (.required, .nonnegative, [false, false, false, true, true, true, true, true, true, true, true, true, false, false], [false, false, false, true, true, true, true, true, true, true, true, true, false, false]),
+    (.required, .nonpositive, [false, true, true, true, false, false, false, false, false, false, false, false, true, true], [false, true, true, true, false, false, false, false, false, false, false, false, true, true]),
+    (.min 3, .max 5, [true, false, false, false, false, false, true, true, true, false, false, false, false, false], [true, false, false, false, false, false, true, true, true, false, false, false, false, false]),
+    (.min 3, .positive, [true, false, false, false, false, false, true, true, true, true, true, true, false, false], [true, false, false, false, false, false, true, true, true, true, true, true, false, false]),
+    (.min 3, .negative, [true, false, false, false, false, false, false, false, false, false, false, false, false, false], [true, false, false, false, false, false, false, false, false, false, false, false, false, false]),
+    (.min 3, .nonnegative, [true, false, false, false, false, false, true, true, true, true, true, true, false, false], [true, false, false, false, false, false, true, true, true, true, true, true, false, false]),
+    (.min 3, .nonpositive, [true, false, false, false, false, false, false, false, false, false, false, false, false, false], [true, false, false, false, false, false, false, false, false, false, false, false, false, false]),
+    (.max 5, .positive, [true, false, false, false, true, true, true, true, true, false, false, false, false, false], [true, false, false, false, true, true, true, true, true, false, false, false, false, false]),
+    (.max 5, .negative, [true, true, true, false, false, false, false, false, false, false, false, false, true, true], [true, true, true, false, false, false, false, false, false, false, false, false, true, true]),
+    (.max 5, .nonnegative, [true, false, false, true, true, true, true, true, true, false, false, false, false, false], [true, false, false, true, true, true, true, true, true, false, false, false, false, false]),
+    (.max 5, .nonpositive, [true, true, true, true, false, false, false, false, false, false, false, false, true, true], [true, true, true, true, false, false, false, false, false, false, false, false, true, true]),
+    (.positive, .negative, [true, false, false, false, false, false, false, false, false, false, false, false, false, false], [true, false, false, false, false, false, false, false, false, false, false, false, false, false]),
+    (.positive, .nonnegative, [true, false, false, false, true, true, true, true, true, true, true, true, false, false], [true, false, false, false, true, true, true, true, true, true, true, true, false, false]),
+    (.positive, .nonpositive, [true, false, false, false, false, false, false, false, false, false, false, false, false, false], [true, false, false, false, false, false, false, false, false, false, false, false, false, false]),
+    (.negative, .nonnegative, [true, false, false, false, false, false, false, false, false, false, false, false, false, false], [true, false, false, false, false, false, false, false, false, false, false, false, false, false]),
+    (.negative, .nonpositive, [true, true, true, false, false, false, false, false, false, false, false, false, true, true], [true, true, true, false, false, false, false, false, false, false, false, false, true, true]),
+    (.nonnegative, .nonpositive, [true, false, false, true, false, false, false, false, false, false, false, false, false, false], [true, false, false, true, false, false, false, false, false, false, false, false, false, false])
   ]
 
 def tagBlock35 : Block where
@@ -1120,49 +1120,49 @@ def tagBlock35 : Block where
   probes := [.nil, .num (-4), .num (-2), .num 0, .num 2, .num 4, .num 6, .num 8, .num 10, .num 12, .num 18014398509481984, .num 18014398509481986, .num 18014398509481988, .num 18446744073709551612, .num 18446744073709551614, .num (-18446744073709551616), .num (-18446744073709551614)]
   singles := [
     (.required, [false, true, true, true, true, true, true, true, true, true, true, true, true, true, true, true, true]),
-    (.min 3, [true, true, true, true, true, true, true, true, true, true, true, true, true, true, true, true, true]),
-    (.max 5, [true, true, true, true, true, true, true, true, true, true, true, true, true, true, true, true, true]),
-    (.positive, [true, true, true, true, true, true, true, true, true, true, true, true, true, true, true, true, true]),
-    (.negative, [true, true, true, true, true, true, true, true, true, true, true, true, true, true, true, true, true]),
-    (.nonnegative, [true, true, true, true, true, true, true, true, true, true, true, true, true, true, true, true, true]),
-    (.nonpositive, [true, true, true, true, true, true, true, true, true, true, true, true, true, true, true, true, true]),
-    (.min 9007199254740993, [true, true, true, true, true, true, true, true, true, true, true, true, true, true, true, true, true]),
-    (.max 9007199254740993, [true, true, true, true, true, true, true, true, true, true, true, true, true, true, true, true, true]),
-    (.min 9223372036854775807, [true, true, true, true, true, true, true, true, true, true, true, true, true, true, true, true, true]),
+    (.min 3, [true, false, false, false, false, false, true, true, true, true, true, true, true, true, true, false, false]),
+    (.max 5, [true, true, true, true, true, true, true, true, true, false, false, false, false, false, false, true, true]),
+    (.positive, [true, false, false, false, true, true, true, true, true, true, true, true, true, true, true, false, false]),
+    (.negative, [true, true, true, false, false, false, false, false, false, false, false, false, false, false, false, true, true]),
+    (.nonnegative, [true, false, false, true, true, true, true, true, true, true, true, true, true, true, true, false, false]),
+    (.nonpositive, [true, true, true, true, false, false, false, false, false, false, false, false, false, false, false, true, true]),
+    (.min 9007199254740993, [true, false, false, false, false, false, false, false, false, false, false, true, true, true, true, false, false]),
+    (.max 9007199254740993, [true, true, true, true, true, true, true, true, true, true, true, true, false, false, false, true, true]),
+    (.min 9223372036854775807, [true, false, false, false, false, false, false, false, false, false, false, false, false, false, true, false, false]),
     (.max 9223372036854775807, [true, true, true, true, true, true, true, true, true, true, true, true, true, true, true, true, true]),
     (.min (-9223372036854775808), [true, true, true, true, true, true, true, true, true, true, true, true, true, true, true, true, true]),
-    (.max (-9223372036854775808), [true, true, true, true, true, true, true, true, true, true, true, true, true, true, true, true, true]),
-    (.gt 9007199254740993, [true, true, true, true, true, true, true, true, true, true, true, true, true, true, true, true, true]),
-    (.gte 9007199254740993, [true, true, true, true, true, true, true, true, true, true, true, true, true, true, true, true, true]),
-    (.lt 9007199254740993, [true, true, true, true, true, true, true, true, true, true, true, true, true, true, true, true, true]),
-    (.lte 9007199254740993, [true, true, true, true, true, true, true, true, true, true, true, true, true, true, true, true, true]),
-    (.gt 3, [true, true, true, true, true, true, true, true, true, true, true, true, true, true, true, true, true]),
-    (.gte 3, [true, true, true, true, true, true, true, true, true, true, true, true, true, true, true, true, true]),
-    (.lt 5, [true, true, true, true, true, true, true, true, true, true, true, true, true, true, true, true, true]),
-    (.lte 5, [true, true, true, true, true, true, true, true, true, true, true, true, true, true, true, true, true])
+    (.max (-9223372036854775808), [true, false, false, false, false, false, false, false, false, false, false, false, false, false, false, true, false]),
+    (.gt 9007199254740993, [true, false, false, false, false, false, false, false, false, false, false, false, true, true, true, false, false]),
+    (.gte 9007199254740993, [true, false, false, false, false, false, false, false, false, false, false, true, true, true, true, false, false]),
+    (.lt 9007199254740993, [true, true, true, true, true, true, true, true, true, true, true, false, false, false, false, true, true]),
+    (.lte 9007199254740993, [true, true, true, true, true, true, true, true, true, true, true, true, false, false, false, true, true]),
+    (.gt 3, [true, false, false, false, false, false, false, true, true, true, true, true, true, true, true, false, false]),
+    (.gte 3, [true, false, false, false, false, false, true, true, true, true, true, true, true, true, true, false, false]),
+    (.lt 5, [true, true, true, true, true, true, true, true, false, false, false, false, false, false, false, true, true]),
+    (.lte 5, [true, true, true, true, true, true, true, true, true, false, false, false, false, false, false, true, true])
   ]
   pairs := [
-    (.required, .min 3, [false, true, true, true, true, true, true, true, true, true, true, true, true, true, true, true, true], [false, true, true, true, true, true, true, true, true, true, true, true, true, true, true, true, true]),
-    (.required, .max 5, [false, true, true, true, true, true, true, true, true, true, true, true, true, true, true, true, true], [false, true, true, true, true, true, true, true, true, true, true, true, true, true, true, true, true]),
-    (.required, .positive, [false, true, true, true, true, true, true, true, true, true, true, true, true, true, true, true, true], [false, true, true, true, true, true, true, true, true, true, true, true, true, true, true, true, true]),
-    (.required, .negative, [false, true, true, true, true, true, true, true, true, true, true, true, true, true, true, true, true], [false, true, true, true, true, true, true, true, true, true, true, true, true, true, true, true, true]),
-    (.required, .nonnegative, [false, true, true, true, true, true, true, true, true, true, true, true, true, true, true, true, true], [false, true, true, true, true, true, true, true, true, true, true, true, true, true, true, true, true]),
-    (.required, .nonpositive, [false, true, true, true, true, true, true, true, true, true, true, true, true, true, true, true, true], [false, true, true, true, true, true, true, true, true, true, true, true, true, true, true, true, true]),
-    (.min 3, .max 5, [true, true, true, true, true, true, true, true, true, true, true, true, true, true, true, true, true], [true, true, true, true, true, true, true, true, true, true, true, true, true, true, true, true, true]),
-    (.min 3, .positive, [true, true, true, true, true, true, true, true, true, true, true, true, true, true, true, true, true], [true, true, true, true, true, true, true, true, true, true, true, true, true, true, true, true, true]),
-    (.min 3, .negative, [true, true, true, true, true, true, true, true, true, true, true, true, true, true, true, true, true], [true, true, true, true, true, true, true, true, true, true, true, true, true, true, true, true, true]),
-    (.min 3, .nonnegative, [true, true, true, true, true, true, true, true, true, true, true, true, true, true, true, true, true], [true, true, true, true, true, true, true, true, true, true, true, true, true, true, true, true, true]),
-    (.min 3, .nonpositive, [true, true, true, true, true, true, true, true, true, true, true, true, true, true, true, true, true], [true, true, true, true, true, true, true, true, true, true, true, true, true, true, true, true, true]),
-    (.max 5, .positive, [true, true, true, true, true, true, true, true, true, true, true, true, true, true, true, true, true], [true, true, true, true, true, true, true, true, true, true, true, true, true, true, true, true, true]),
-    (.max 5, .negative, [true, true, true, true, true, true, true, true, true, true, true, true, true, true, true, true, true], [true, true, true, true, true, true, true, true, true, true, true, true, true, true, true, true, true]),
-    (.max 5, .nonnegative, [true, true, true, true, true, true, true, true, true, true, true, true, true, true, true, true, true], [true, true, true, true, true, true, true, true, true, true, true, true, true, true, true, true, true]),
-    (.max 5, .nonpositive, [true, true, true, true, true, true, true, true, true, true, true, true, true, true, true, true, true], [true, true, true, true, true, true, true, true, true, true, true, true, true, true, true, true, true]),
-    (.positive, .negative, [true, true, true, true, true, true, true, true, true, true, true, true, true, true, true, true, true], [true, true, true, true, true, true, true, true, true, true, true, true, true, true, true, true, true]),
-    (.positive, .nonnegative, [true, true, true, true, true, true, true, true, true, true, true, true, true, true, true, true, true], [true, true, true, true, true, true, true, true, true, true, true, true, true, true, true, true, true]),
-    (.positive, .nonpositive, [true, true, true, true, true, true, true, true, true, true, true, true, true, true, true, true, true], [true, true, true, true, true, true, true, true, true, true, true, true, true, true, true, true, true]),
-    (.negative, .nonnegative, [true, true, true, true, true, true, true, true, true, true, true, true, true, true, true, true, true], [true, true, true, true, true, true, true, true, true, true, true, true, true, true, true, true, true]),
-    (.negative, .nonpositive, [true, true, true, true, true, true, true, true, true, true, true, true, true, true, true, true, true], [true, true, true, true, true, true, true, true, true, true, true, true, true, true, true, true, true]),
-    (.nonnegative, .nonpositive, [true, true, true, true, true, true, true, true, true, true, true, true, true, true, true, true, true], [true, true, true, true, true, true, true, true, true, true, true, true, true, true, true, true, true])
+    (.required, .min 3, [false, false, false, false, false, false, true, true, true, true, true, true, true, true, true, false, false], [false, false, false, false, false, false, true, true, true, true, true, true, true, true, true, false, false]),
+    (.required, .max 5, [false, true, true, true, true, true, true, true, true, false, false, false, false, false, false, true, true], [false, true, true, true, true, true, true, true, true, false, false, false, false, false, false, true, true]),
+    (.required, .positive, [false, false, false, false, true, true, true, true, true, true, true, true, true, true, true, false, false], [false, false, false, false, true, true, true, true, true, true, true, true, true, true, true, false, false]),
+    (.required, .negative, [false, true, true, false, false, false, false, false, false, false, false, false, false, false, false, true, true], [false, true, true, false, false, false, false, false, false, false, false, false, false, false, false, true, true]),
+    (.required, .nonnegative, [false, false, false, true, true, true, true, true, true, true, true, true, true, true, true, false, false], [false, false, false, true, true, true, true, true, true, true, true, true, true, true, true, false, false]),
+    (.required, .nonpositive, [false, true, true, true, false, false, false, false, false, false, false, false, false, false, false, true, true], [false, true, true, true, false, false, false, false, false, false, false, false, false, false, false, true, true]),
+    (.min 3, .max 5, [true, false, false, false, false, false, true, true, true, false, false, false, false, false, false, false, false], [true, false, false, false, false, false, true, true, true, false, false, false, false, false, false, false, false]),
+    (.min 3, .positive, [true, false, false, false, false, false, true, true, true, true, true, true, true, true, true, false, false], [true, false, false, false, false, false, true, true, true, true, true, true, true, true, true, false, false]),
+    (.min 3, .negative, [true, false, false, false, false, false, false, false, false, false, false, false, false, false, false, false, false], [true, false, false, false, false, false, false, false, false, false, false, false, false, false, false, false, false]),
+    (.min 3, .nonnegative, [true, false, false, false, false, false, true, true, true, true, true, true, true, true, true, false, false], [true, false, false, false, false, false, true, true, true, true, true, true, true, true, true, false, false]),
+    (.min 3, .nonpositive, [true, false, false, false, false, false, false, false, false, false, false, false, false, false, false, false, false], [true, false, false, false, false, false, false, false, false, false, false, false, false, false, false, false, false]),
+    (.max 5, .positive, [true, false, false, false, true, true, true, true, true, false, false, false, false, false, false, false, false], [true, false, false, false, true, true, true, true, true, false, false, false, false, false, false, false, false]),
+    (.max 5, .negative, [true, true, true, false, false, false, false, false, false, false, false, false, false, false, false, true, true], [true, true, true, false, false, false, false, false, false, false, false, false, false, false, false, true, true]),
+    (.max 5, .nonnegative, [true, false, false, true, true, true, true, true, true, false, false, false, false, false, false, false, false], [true, false, false, true, true, true, true, true, true, false, false, false, false, false, false, false, false]),
+    (.max 5, .nonpositive, [true, true, true, true, false, false, false, false, false, false, false, false, false, false, false, true, true], [true, true, true, true, false, false, false, false, false, false, false, false, false, false, false, true, true]),
+    (.positive, .negative, [true, false, false, false, false, false, false, false, false, false, false, false, false, false, false, false, false], [true, false, false, false, false, false, false, false, false, false, false, false, false, false, false, false, false]),
+    (.positive, .nonnegative, [true, false, false, false, true, true, true, true, true, true, true, true, true, true, true, false, false], [true, false, false, false, true, true, true, true, true, true, true, true, true, true, true, false, false]),
+    (.positive, .nonpositive, [true, false, false, false, false, false, false, false, false, false, false, false, false, false, false, false, false], [true, false, false, false, false, false, false, false, false, false, false, false, false, false, false, false, false]),
+    (.negative, .nonnegative, [true, false, false, false, false, false, false, false, false, false, false, false, false, false, false, false, false], [true, false, false, false, false, false, false, false, false, false, false, false, false, false, false, false, false]),
+    (.negative, .nonpositive, [true, true, true, false, false, false, false, false, false, false, false, false, false, false, false, true, true], [true, true, true, false, false, false, false, false, false, false, false, false, false, false, false, true, true]),
+    (.nonnegative, .nonpositive, [true, false, false, true, false, false, false, false, false, false, false, false, false, false, false, false, false], [true, false, false, true, false, false, false, false, false, false, false, false, false, false, false, false, false])
   ]
 
 def tagBlock36 : Block where
@@ -1170,49 +1170,49 @@ def tagBlock36 : Block where
   probes := [.nil, .num 0, .num 2, .num 4, .num 6, .num 8, .num 10, .num 12, .num 18014398509481984, .num 18014398509481986, .num 18014398509481988, .num 18446744073709551612, .num 18446744073709551614, .num 18446744073709551616, .num 36893488147419103228, .num 36893488147419103230]
   singles := [
     (.required, [false, true, true, true, true, true, true, true, true, true, true, true, true, true, true, true]),
-    (.min 3, [true, true, true, true, true, true, true, true, true, true, true, true, true, true, true, true]),
-    (.max 5, [true, true, true, true, true, true, true, true, true, true, true, true, true, true, true, true]),
-    (.positive, [true, true, true, true, true, true, true, true, true, true, true, true, true, true, true, true]),
-    (.negative, [true, true, true, true, true, true, true, true, true, true, true, true, true, true, true, true]),
+    (.min 3, [true, false, false, false, true, true, true, true, true, true, true, true, true, true, true, true]),
+    (.max 5, [true, true, true, true, true, true, true, false, false, false, false, false, false, false, false, false]),
+    (.positive, [true, false, true, true, true, true, true, true, true, true, true, true, true, true, true, true]),
+    (.negative, [true, false, false, false, false, false, false, false, false, false, false, false, false, false, false, false]),
     (.nonnegative, [true, true, true, true, true, true, true, true, true, true, true, true, true, true, true, true]),
-    (.nonpositive, [true, true, true, true, true, true, true, true, true, true, true, true, true, true, true, true]),
-    (.min 9007199254740993, [true, true, true, true, true, true, true, true, true, true, true, true, true, true, true, true]),
-    (.max 9007199254740993, [true, true, true, true, true, true, true, true, true, true, true, true, true, true, true, true]),
-    (.min 9223372036854775807, [true, true, true, true, true, true, true, true, true, true, true, true, true, true, true, true]),
-    (.max 9223372036854775807, [true, true, true, true, true, true, true, true, true, true, true, true, true, true, true, true]),
-    (.min 18446744073709551615, [true, true, true, true, true, true, true, true, true, true, true, true, true, true, true, true]),
+    (.nonpositive, [true, true, false, false, false, false, false, false, false, false, false, false, false, false, false, false]),
+    (.min 9007199254740993, [true, false, false, false, false, false, false, false, false, true, true, true, true, true, true, true]),
+    (.max 9007199254740993, [true, true, true, true, true, true, true, true, true, true, false, false, false, false, false, false]),
+    (.min 9223372036854775807, [true, false, false, false, false, false, false, false, false, false, false, false, true, true, true, true]),
+    (.max 9223372036854775807, [true, true, true, true, true, true, true, true, true, true, true, true, true, false, false, false]),
+    (.min 18446744073709551615, [true, false, false, false, false, false, false, false, false, false, false, false, false, false, false, true]),
     (.max 18446744073709551615, [true, true, true, true, true, true, true, true, true, true, true, true, true, true, true, true]),
-    (.gt 9007199254740993, [true, true, true, true, true, true, true, true, true, true, true, true, true, true, true, true]),
-    (.gte 9007199254740993, [true, true, true, true, true, true, true, true, true, true, true, true, true, true, true, true]),
-    (.lt 9007199254740993, [true, true, true, true, true, true, true, true, true, true, true, true, true, true, true, true]),
-    (.lte 9007199254740993, [true, true, true, true, true, true, true, true, true, true, true, true, true, true, true, true]),
-    (.gt 3, [true, true, true, true, true, true, true, true, true, true, true, true, true, true, true, true]),
-    (.gte 3, [true, true, true, true, true, true, true, true, true, true, true, true, true, true, true, true]),
-    (.lt 5, [true, true, true, true, true, true, true, true, true, true, true, true, true, true, true, true]),
-    (.lte 5, [true, true, true, true, true, true, true, true, true, true, true, true, true, true, true, true])
+    (.gt 9007199254740993, [true, false, false, false, false, false, false, false, false, false, true, true, true, true, true, true]),
+    (.gte 9007199254740993, [true, false, false, false, false, false, false, false, false, true, true, true, true, true, true, true]),
+    (.lt 9007199254740993, [true, true, true, true, true, true, true, true, true, false, false, false, false, false, false, false]),
+    (.lte 9007199254740993, [true, true, true, true, true, true, true, true, true, true, false, false, false, false, false, false]),
+    (.gt 3, [true, false, false, false, false, true, true, true, true, true, true, true, true, true, true, true]),
+    (.gte 3, [true, false, false, false, true, true, true, true, true, true, true, true, true, true, true, true]),
+    (.lt 5, [true, true, true, true, true, true, false, false, false, false, false, false, false, false, false, false]),
+    (.lte 5, [true, true, true, true, true, true, true, false, false, false, false, false, false, false, false, false])
   ]
   pairs := [
-    (.required, .min 3, [false, true, true, true, true, true, true, true, true, true, true, true, true, true, true, true], [false, true, true, true, true, true, true, true, true, true, true, true, true, true, true, true]),
-    (.required, .max 5, [false, true, true, true, true, true, true, true, true, true, true, true, true, true, true, true], [false, true, true, true, true, true, true, true, true, true, true, true, true, true, true, true]),
-    (.required, .positive, [false, true, true, true, true, true, true, true, true, true, true, true, true, true, true, true], [false, true, true, true, true, true, true, true, true, true, true, true, true, true, true, true]),
-    (.required, .negative, [false, true, true, true, true, true, true, true, true, true, true, true, true, true, true, true], [false, true, true, true, true, true, true, true, true, true, true, true, true, true, true, true]),
+    (.required, .min 3, [false, false, false, false, true, true, true, true, true, true, true, true, true, true, true, true], [false, false, false, false, true, true, true, true, true, true, true, true, true, true, true, true]),
+    (.required, .max 5, [false, true, true, true, true, true, true, false, false, false, false, false, false, false, false, false], [false, true, true, true, true, true, true, false, false, false, false, false, false, false, false, false]),
+    (.required, .positive, [false, false, true, true, true, true, true, true, true, true, true, true, true, true, true, true], [false, false, true, true, true, true, true, true, true, true, true, true, true, true, true, true]),
+    (.required, .negative, [false, false, false, false, false, false, false, false, false, false, false, false, false, false, false, false], [false, false, false, false, false, false, false, false, false, false, false, false, false, false, false, false]),
     (.required, .nonnegative, [false, true, true, true, true, true, true, true, true, true, true, true, true, true, true, true], [false, true, true, true, true, true, true, true, true, true, true, true, true, true, true, true]),
-    (.required, .nonpositive, [false, true, true, true, true, true, true, true, true, true, true, true, true, true, true, true], [false, true, true, true, true, true, true, true, true, true, true, true, true, true, true, true]),
-    (.min 3, .max 5, [true, true, true, true, true, true, true, true, true, true, true, true, true, true, true, true], [true, true, true, true, true, true, true, true, true, true, true, true, true, true, true, true]),
-    (.min 3, .positive, [true, true, true, true, true, true, true, true, true, true, true, true, true, true, true, true], [true, true, true, true, true, true, true, true, true, true, true, true, true, true, true, true]),
-    (.min 3, .negative, [true, true, true, true, true, true, true, true, true, true, true, true, true, true, true, true], [true, true, true, true, true, true, true, true, true, true, true, true, true, true, true, true]),
-    (.min 3, .nonnegative, [true, true, true, true, true, true, true, true, true, true, true, true, true, true, true, true], [true, true, true, true, true, true, true, true, true, true, true, true, true, true, true, true]),
-    (.min 3, .nonpositive, [true, true, true, true, true, true, true, true, true, true, true, true, true, true, true, true], [true, true, true, true, true, true, true, true, true, true, true, true, true, true, true, true]),
-    (.max 5, .positive, [true, true, true, true, true, true, true, true, true, true, true, true, true, true, true, true], [true, true, true, true, true, true, true, true, true, true, true, true, true, true, true, true]),
-    (.max 5, .negative, [true, true, true, true, true, true, true, true, true, true, true, true, true, true, true, true], [true, true, true, true, true, true, true, true, true, true, true, true, true, true, true, true]),
-    (.max 5, .nonnegative, [true, true, true, true, true, true, true, true, true, true, true, true, true, true, true, true], [true, true, true, true, true, true, true, true, true, true, true, true, true, true, true, true]),
-    (.max 5, .nonpositive, [true, true, true, true, true, true, true, true, true, true, true, true, true, true, true, true], [true, true, true, true, true, true, true, true, true, true, true, true, true, true, true, true]),
-    (.positive, .negative, [true, true, true, true, true, true, true, true, true, true, true, true, true, true, true, true], [true, true, true, true, true, true, true, true, true, true, true, true, true, true, true, true]),
-    (.positive, .nonnegative, [true, true, true, true, true, true, true, true, true, true, true, true, true, true, true, true], [true, true, true, true, true, true, true, true, true, true, true, true, true, true, true, true]),
-    (.positive, .nonpositive, [true, true, true, true, true, true, true, true, true, true, true, true, true, true, true, true], [true, true, true, true, true, true, true, true, true, true, true, true, true, true, true, true]),
-    (.negative, .nonnegative, [true, true, true, true, true, true, true, true, true, true, true, true, true, true, true, true], [true, true, true, true, true, true, true, true, true, true, true, true, true, true, true, true]),
-    (.negative, .nonpositive, [true, true, true, true, true, true, true, true, true, true, true, true, true, true, true, true], [true, true, true, true, true, true, true, true, true, true, true, true, true, true, true, true]),
-    (.nonnegative, .nonpositive, [true, true, true, true, true, true, true, true, true, true, true, true, true, true, true, true], [true, true, true, true, true, true, true, true, true, true, true, true, true, true, true, true])
+    (.required, .nonpositive, [false, true, false, false, false, false, false, false, false, false, false, false, false, false, false, false], [false, true, false, false, false, false, false, false, false, false, false, false, false, false, false, false]),
+    (.min 3, .max 5, [true, false, false, false, true, true, true, false, false, false, false, false, false, false, false, false], [true, false, false, false, true, true, true, false, false, false, false, false, false, false, false, false]),
+    (.min 3, .positive, [true, false, false, false, true, true, true, true, true, true, true, true, true, true, true, true], [true, false, false, false, true, true, true, true, true, true, true, true, true, true, true, true]),
+    (.min 3, .negative, [true, false, false, false, false, false, false, false, false, false, false, false, false, false, false, false], [true, false, false, false, false, false, false, false, false, false, false, false, false, false, false, false]),
+    (.min 3, .nonnegative, [true, false, false, false, true, true, true, true, true, true, true, true, true, true, true, true], [true, false, false, false, true, true, true, true, true, true, true, true, true, true, true, true]),
+    (.min 3, .nonpositive, [true, false, false, false, false, false, false, false, false, false, false, false, false, false, false, false], [true, false, false, false, false, false, false, false, false, false, false, false, false, false, false, false]),
+    (.max 5, .positive, [true, false, true, true, true, true, true, false, false, false, false, false, false, false, false, false], [true, false, true, true, true, true, true, false, false, false, false, false, false, false, false, false]),
+    (.max 5, .negative, [true, false, false, false, false, false, false, false, false, false, false, false, false, false, false, false], [true, false, false, false, false, false, false, false, false, false, false, false, false, false, false, false]),
+    (.max 5, .nonnegative, [true, true, true, true, true, true, true, false, false, false, false, false, false, false, false, false], [true, true, true, true, true, true, true, false, false, false, false, false, false, false, false, false]),
+    (.max 5, .nonpositive, [true, true, false, false, false, false, false, false, false, false, false, false, false, false, false, false], [true, true, false, false, false, false, false, false, false, false, false, false, false, false, false, false]),
+    (.positive, .negative, [true, false, false, false, false, false, false, false, false, false, false, false, false, false, false, false], [true, false, false, false, false, false, false, false, false, false, false, false, false, false, false, false]),
+    (.positive, .nonnegative, [true, false, true, true, true, true, true, true, true, true, true, true, true, true, true, true], [true, false, true, true, true, true, true, true, true, true, true, true, true, true, true, true]),
+    (.positive, .nonpositive, [true, false, false, false, false, false, false, false, false, false, false, false, false, false, false, false], [true, false, false, false, false, false, false, false, false, false, false, false, false, false, false, false]),
+    (.negative, .nonnegative, [true, false, false, false, false, false, false, false, false, false, false, false, false, false, false, false], [true, false, false, false, false, false, false, false, false, false, false, false, false, false, false, false]),
+    (.negative, .nonpositive, [true, false, false, false, false, false, false, false, false, false, false, false, false, false, false, false], [true, false, false, false, false, false, false, false, false, false, false, false, false, false, false, false]),
+    (.nonnegative, .nonpositive, [true, true, false, false, false, false, false, false, false, false, false, false, false, false, false, false], [true, true, false, false, false, false, false, false, false, false, false, false, false, false, false, false])
   ]
 
 def tagBlock37 : Block where
@@ -1220,41 +1220,41 @@ def tagBlock37 : Block where
   probes := [.nil, .num 0, .num 2, .num 4, .num 6, .num 8, .num 10, .num 12, .num 508, .num 510]
   singles := [
     (.required, [false, true, true, true, true, true, true, true, true, true]),
-    (.min 3, [true, true, true, true, true, true, true, true, true, true]),
-    (.max 5, [true, true, true, true, true, true, true, true, true, true]),
-    (.positive, [true, true, true, true, true, true, true, true, true, true]),
-    (.negative, [true, true, true, true, true, true, true, true, true, true]),
+    (.min 3, [true, false, false, false, true, true, true, true, true, true]),
+    (.max 5, [true, true, true, true, true, true, true, false, false, false]),
+    (.positive, [true, false, true, true, true, true, true, true, true, true]),
+    (.negative, [true, false, false, false, false, false, false, false, false, false]),
     (.nonnegative, [true, true, true, true, true, true, true, true, true, true]),
-    (.nonpositive, [true, true, true, true, true, true, true, true, true, true]),
-    (.min 255, [true, true, true, true, true, true, true, true, true, true]),
+    (.nonpositive, [true, true, false, false, false, false, false, false, false, false]),
+    (.min 255, [true, false, false, false, false, false, false, false, false, true]),
     (.max 255, [true, true, true, true, true, true, true, true, true, true]),
-    (.gt 3, [true, true, true, true, true, true, true, true, true, true]),
-    (.gte 3, [true, true, true, true, true, true, true, true, true, true]),
-    (.lt 5, [true, true, true, true, true, true, true, true, true, true]),
-    (.lte 5, [true, true, true, true, true, true, true, true, true, true])
+    (.gt 3, [true, false, false, false, false, true, true, true, true, true]),
+    (.gte 3, [true, false, false, false, true, true, true, true, true, true]),
+    (.lt 5, [true, true, true, true, true, true, false, false, false, false]),
+    (.lte 5, [true, true, true, true, true, true, true, false, false, false])
   ]
   pairs := [
-    (.required, .min 3, [false, true, true, true, true, true, true, true, true, true], [false, true, true, true, true, true, true, true, true, true]),
-    (.required, .max 5, [false, true, true, true, true, true, true, true, true, true], [false, true, true, true, true, true, true, true, true, true]),
-    (.required, .positive, [false, true, true, true, true, true, true, true, true, true], [false, true, true, true, true, true, true, true, true, true]),
-    (.required, .negative, [false, true, true, true, true, true, true, true, true, true], [false, true, true, true, true, true, true, true, true, true]),
+    (.required, .min 3, [false, false, false, false, true, true, true, true, true, true], [false, false, false, false, true, true, true, true, true, true]),
+    (.required, .max 5, [false, true, true, true, true, true, true, false, false, false], [false, true, true, true, true, true, true, false, false, false]),
+    (.required, .positive, [false, false, true, true, true, true, true, true, true, true], [false, false, true, true, true, true, true, true, true, true]),
+    (.required, .negative, [false, false, false, false, false, false, false, false, false, false], [false, false, false, false, false, false, false, false, false, false]),
     (.required, .nonnegative, [false, true, true, true, true, true, true, true, true, true], [false, true, true, true, true, true, true, true, true, true]),
-    (.required, .nonpositive, [false, true, true, true, true, true, true, true, true, true], [false, true, true, true, true, true, true, true, true, true]),
-    (.min 3, .max 5, [true, true, true, true, true, true, true, true, true, true], [true, true, true, true, true, true, true, true, true, true]),
-    (.min 3, .positive, [true, true, true, true, true, true, true, true, true, true], [true, true, true, true, true, true, true, true, true, true]),
-    (.min 3, .negative, [true, true, true, true, true, true, true, true, true, true], [true, true, true, true, true, true, true, true, true, true]),
-    (.min 3, .nonnegative, [true, true, true, true, true, true, true, true, true, true], [true, true, true, true, true, true, true, true, true, true]),
-    (.min 3, .nonpositive, [true, true, true, true, true, true, true, true, true, true], [true, true, true, true, true, true, true, true, true, true]),
-    (.max 5, .positive, [true, true, true, true, true, true, true, true, true, true], [true, true, true, true, true, true, true, true, true, true]),
-    (.max 5, .negative, [true, true, true, true, true, true, true, true, true, true], [true, true, true, true, true, true, true, true, true, true]),
-    (.max 5, .nonnegative, [true, true, true, true, true, true, true, true, true, true], [true, true, true, true, true, true, true, true, true, true]),
-    (.max 5, .nonpositive, [true, true, true, true, true, true, true, true, true, true], [true, true, true, true, true, true, true, true, true, true]),
-    (.positive, .negative, [true, true, true, true, true, true, true, true, true, true], [true, true, true, true, true, true, true, true, true, true]),
-    (.positive, .nonnegative, [true, true, true, true, true, true, true, true, true, true], [true, true, true, true, true, true, true, true, true, true]),
-    (.positive, .nonpositive, [true, true, true, true, true, true, true, true, true, true], [true, true, true, true, true, true, true, true, true, true]),
-    (.negative, .nonnegative, [true, true, true, true, true, true, true, true, true, true], [true, true, true, true, true, true, true, true, true, true]),
-    (.negative, .nonpositive, [true, true, true, true, true, true, true, true, true, true], [true, true, true, true, true, true, true, true, true, true]),
-    (.nonnegative, .nonpositive, [true, true, true, true, true, true, true, true, true, true], [true, true, true, true, true, true, true, true, true, true])
+    (.required, .nonpositive, [false, true, false, false, false, false, false, false, false, false], [false, true, false, false, false, false, false, false, false, false]),
+    (.min 3, .max 5, [true, false, false, false, true, true, true, false, false, false], [true, false, false, false, true, true, true, false, false, false]),
+    (.min 3, .positive, [true, false, false, false, true, true, true, true, true, true], [true, false, false, false, true, true, true, true, true, true]),
+    (.min 3, .negative, [true, false, false, false, false, false, false, false, false, false], [true, false, false, false, false, false, false, false, false, false]),
+    (.min 3, .nonnegative, [true, false, false, false, true, true, true, true, true, true], [true, false, false, false, true, true, true, true, true, true]),
+    (.min 3, .nonpositive, [true, false, false, false, false, false, false, false, false, false], [true, false, false, false, false, false, false, false, false, false]),
+    (.max 5, .positive, [true, false, true, true, true, true, true, false, false, false], [true, false, true, true, true, true, true, false, false, false]),
+    (.max 5, .negative, [true, false, false, false, false, false, false, false, false, false], [true, false, false, false, false, false, false, false, false, false]),
+    (.max 5, .nonnegative, [true, true, true, true, true, true, true, false, false, false], [true, true, true, true, true, true, true, false, false, false]),
+    (.max 5, .nonpositive, [true, true, false, false, false, false, false, false, false, false], [true, true, false, false, false, false, false, false, false, false]),
+    (.positive, .negative, [true, false, false, false, false, false, false, false, false, false], [true, false, false, false, false, false, false, false, false, false]),
+    (.positive, .nonnegative, [true, false, true, true, true, true, true, true, true, true], [true, false, true, true, true, true, true, true, true, true]),
+    (.positive, .nonpositive, [true, false, false, false, false, false, false, false, false, false], [true, false, false, false, false, false, false, false, false, false]),
+    (.negative, .nonnegative, [true, false, false, false, false, false, false, false, false, false], [true, false, false, false, false, false, false, false, false, false]),
+    (.negative, .nonpositive, [true, false, false, false, false, false, false, false, false, false], [true, false, false, false, false, false, false, false, false, false]),
+    (.nonnegative, .nonpositive, [true, true, false, false, false, false, false, false, false, false], [true, true, false, false, false, false, false, false, false, false])
   ]
 
 def tagBlock38 : Block where
@@ -1262,41 +1262,41 @@ def tagBlock38 : Block where
   probes := [.nil, .num 0, .num 2, .num 4, .num 6, .num 8, .num 10, .num 12, .num 131068, .num 131070]
   singles := [
     (.required, [false, true, true, true, true, true, true, true, true, true]),
-    (.min 3, [true, true, true, true, true, true, true, true, true, true]),
-    (.max 5, [true, true, true, true, true, true, true, true, true, true]),
-    (.positive, [true, true, true, true, true, true, true, true, true, true]),
-    (.negative, [true, true, true, true, true, true, true, true, true, true]),
+    (.min 3, [true, false, false, false, true, true, true, true, true, true]),
+    (.max 5, [true, true, true, true, true, true, true, false, false, false]),
+    (.positive, [true, false, true, true, true, true, true, true, true, true]),
+    (.negative, [true, false, false, false, false, false, false, false, false, false]),
     (.nonnegative, [true, true, true, true, true, true, true, true, true, true]),
-    (.nonpositive, [true, true, true, true, true, true, true, true, true, true]),
-    (.min 65535, [true, true, true, true, true, true, true, true, true, true]),
+    (.nonpositive, [true, true, false, false, false, false, false, false, false, false]),
+    (.min 65535, [true, false, false, false, false, false, false, false, false, true]),
     (.max 65535, [true, true, true, true, true, true, true, true, true, true]),
-    (.gt 3, [true, true, true, true, true, true, true, true, true, true]),
-    (.gte 3, [true, true, true, true, true, true, true, true, true, true]),
-    (.lt 5, [true, true, true, true, true, true, true, true, true, true]),
-    (.lte 5, [true, true, true, true, true, true, true, true, true, true])
+    (.gt 3, [true, false, false, false, false, true, true, true, true, true]),
+    (.gte 3, [true, false, false, false, true, true, true, true, true, true]),
+    (.lt 5, [true, true, true, true, true, true, false, false, false, false]),
+    (.lte 5, [true, true, true, true, true, true, true, false, false, false])
   ]
   pairs := [
-    (.required, .min 3, [false, true, true, true, true, true, true, true, true, true], [false, true, true, true, true, true, true, true, true, true]),
-    (.required, .max 5, [false, true, true, true, true, true, true, true, true, true], [false, true, true, true, true, true, true, true, true, true]),
-    (.required, .positive, [false, true, true, true, true, true, true, true, true, true], [false, true, true, true, true, true, true, true, true, true]),
-    (.required, .negative, [false, true, true, true, true, true, true, true, true, true], [false, true, true, true, true, true, true, true, true, true]),
+    (.required, .min 3, [false, false, false, false, true, true, true, true, true, true], [false, false, false, false, true, true, true, true, true, true]),
+    (.required, .max 5, [false, true, true, true, true, true, true, false, false, false], [false, true, true, true, true, true, true, false, false, false]),
+    (.required, .positive, [false, false, true, true, true, true, true, true, true, true], [false, false, true, true, true, true, true, true, true, true]),
+    (.required, .negative, [false, false, false, false, false, false, false, false, false, false], [false, false, false, false, false, false, false, false, false, false]),
     (.required, .nonnegative, [false, true, true, true, true, true, true, true, true, true], [false, true, true, true, true, true, true, true, true, true]),
-    (.required, .nonpositive, [false, true, true, true, true, true, true, true, true, true], [false, true, true, true, true, true, true, true, true, true]),
-    (.min 3, .max 5, [true, true, true, true, true, true, true, true, true, true], [true, true, true, true, true, true, true, true, true, true]),
-    (.min 3, .positive, [true, true, true, true, true, true, true, true, true, true], [true, true, true, true, true, true, true, true, true, true]),
-    (.min 3, .negative, [true, true, true, true, true, true, true, true, true, true], [true, true, true, true, true, true, true, true, true, true]),
-    (.min 3, .nonnegative, [true, true, true, true, true, true, true, true, true, true], [true, true, true, true, true, true, true, true, true, true]),
-    (.min 3, .nonpositive, [true, true, true, true, true, true, true, true, true, true], [true, true, true, true, true, true, true, true, true, true]),
-    (.max 5, .positive, [true, true, true, true, true, true, true, true, true, true], [true, true, true, true, true, true, true, true, true, true]),
-    (.max 5, .negative, [true, true, true, true, true, true, true, true, true, true], [true, true, true, true, true, true, true, true, true, true]),
-    (.max 5, .nonnegative, [true, true, true, true, true, true, true, true, true, true], [true, true, true, true, true, true, true, true, true, true]),
-    (.max 5, .nonpositive, [true, true, true, true, true, true, true, true, true, true], [true, true, true, true, true, true, true, true, true, true]),
-    (.positive, .negative, [true, true, true, true, true, true, true, true, true, true], [true, true, true, true, true, true, true, true, true, true]),
-    (.positive, .nonnegative, [true, true, true, true, true, true, true, true, true, true], [true, true, true, true, true, true, true, true, true, true]),
-    (.positive, .nonpositive, [true, true, true, true, true, true, true, true, true, true], [true, true, true, true, true, true, true, true, true, true]),
-    (.negative, .nonnegative, [true, true, true, true, true, true, true, true, true, true], [true, true, true, true, true, true, true, true, true, true]),
-    (.negative, .nonpositive, [true, true, true, true, true, true, true, true, true, true], [true, true, true, true, true, true, true, true, true, true]),
-    (.nonnegative, .nonpositive, [true, true, true, true, true, true, true, true, true, true], [true, true, true, true, true, true, true, true, true, true])
+    (.required, .nonpositive, [false, true, false, false, false, false, false, false, false, false], [false, true, false, false, false, false, false, false, false, false]),
+    (.min 3, .max 5, [true, false, false, false, true, true, true, false, false, false], [true, false, false, false, true, true, true, false, false, false]),
+    (.min 3, .positive, [true, false, false, false, true, true, true, true, true, true], [true, false, false, false, true, true, true, true, true, true]),
+    (.min 3, .negative, [true, false, false, false, false, false, false, false, false, false], [true, false, false, false, false, false, false, false, false, false]),
+    (.min 3, .nonnegative, [true, false, false, false, true, true, true, true, true, true], [true, false, false, false, true, true, true, true, true, true]),
+    (.min 3, .nonpositive, [true, false, false, false, false, false, false, false, false, false], [true, false, false, false, false, false, false, false, false, false]),
+    (.max 5, .positive, [true, false, true, true, true, true, true, false, false, false], [true, false, true, true, true, true, true, false, false, false]),
+    (.max 5, .negative, [true, false, false, false, false, false, false, false, false, false], [true, false, false, false, false, false, false, false, false, false]),
+    (.max 5, .nonnegative, [true, true, true, true, true, true, true, false, false, false], [true, true, true, true, true, true, true, false, false, false]),
+    (.max 5, .nonpositive, [true, true, false, false, false, false, false, false, false, false], [true, true, false, false, false, false, false, false, false, false]),
+    (.positive, .negative, [true, false, false, false, false, false, false, false, false, false], [true, false, false, false, false, false, false, false, false, false]),
+    (.positive, .nonnegative, [true, false, true, true, true, true, true, true, true, true], [true, false, true, true, true, true, true, true, true, true]),
+    (.positive, .nonpositive, [true, false, false, false, false, false, false, false, false, false], [true, false, false, false, false, false, false, false, false, false]),
+    (.negative, .nonnegative, [true, false, false, false, false, false, false, false, false, false], [true, false, false, false, false, false, false, false, false, false]),
+    (.negative, .nonpositive, [true, false, false, false, false, false, false, false, false, false], [true, false, false, false, false, false, false, false, false, false]),
+    (.nonnegative, .nonpositive, [true, true, false, false, false, false, false, false, false, false], [true, true, false, false, false, false, false, false, false, false])
   ]
 
 def tagBlock39 : Block where
@@ -1304,41 +1304,41 @@ def tagBlock39 : Block where
   probes := [.nil, .num 0, .num 2, .num 4, .num 6, .num 8, .num 10, .num 12, .num 8589934588, .num 8589934590]
   singles := [
     (.required, [false, true, true, true, true, true, true, true, true, true]),
-    (.min 3, [true, true, true, true, true, true, true, true, true, true]),
-    (.max 5, [true, true, true, true, true, true, true, true, true, true]),
-    (.positive, [true, true, true, true, true, true, true, true, true, true]),
-    (.negative, [true, true, true, true, true, true, true, true, true, true]),
+    (.min 3, [true, false, false, false, true, true, true, true, true, true]),
+    (.max 5, [true, true, true, true, true, true, true, false, false, false]),
+    (.positive, [true, false, true, true, true, true, true, true, true, true]),
+    (.negative, [true, false, false, false, false, false, false, false, false, false]),
     (.nonnegative, [true, true, true, true, true, true, true, true, true, true]),
-    (.nonpositive, [true, true, true, true, true, true, true, true, true, true]),
-    (.min 4294967295, [true, true, true, true, true, true, true, true, true, true]),
+    (.nonpositive, [true, true, false, false, false, false, false, false, false, false]),
+    (.min 4294967295, [true, false, false, false, false, false, false, false, false, true]),
     (.max 4294967295, [true, true, true, true, true, true, true, true, true, true]),
-    (.gt 3, [true, true, true, true, true, true, true, true, true, true]),
-    (.gte 3, [true, true, true, true, true, true, true, true, true, true]),
-    (.lt 5, [true, true, true, true, true, true, true, true, true, true]),
-    (.lte 5, [true, true, true, true, true, true, true, true, true, true])
+    (.gt 3, [true, false, false, false, false, true, true, true, true, true]),
+    (.gte 3, [true, false, false, false, true, true, true, true, true, true]),
+    (.lt 5, [true, true, true, true, true, true, false, false, false, false]),
+    (.lte 5, [true, true, true, true, true, true, true, false, false, false])
   ]
   pairs := [
-    (.required, .min 3, [false, true, true, true, true, true, true, true, true, true], [false, true, true, true, true, true, true, true, true, true]),
-    (.required, .max 5, [false, true, true, true, true, true, true, true, true, true], [false, true, true, true, true, true, true, true, true, true]),
-    (.required, .positive, [false, true, true, true, true, true, true, true, true, true], [false, true, true, true, true, true, true, true, true, true]),
-    (.required, .negative, [false, true, true, true, true, true, true, true, true, true], [false, true, true, true, true, true, true, true, true, true]),
+    (.required, .min 3, [false, false, false, false, true, true, true, true, true, true], [false, false, false, false, true, true, true, true, true, true]),
+    (.required, .max 5, [false, true, true, true, true, true, true, false, false, false], [false, true, true, true, true, true, true, false, false, false]),
+    (.required, .positive, [false, false, true, true, true, true, true, true, true, true], [false, false, true, true, true, true, true, true, true, true]),
+    (.required, .negative, [false, false, false, false, false, false, false, false, false, false], [false, false, false, false, false, false, false, false, false, false]),
     (.required, .nonnegative, [false, true, true, true, true, true, true, true, true, true], [false, true, true, true, true, true, true, true, true, true]),
-    (.required, .nonpositive, [false, true, true, true, true, true, true, true, true, true], [false, true, true, true, true, true, true, true, true, true]),
-    (.min 3, .max 5, [true, true, true, true, true, true, true, true, true, true], [true, true, true, true, true, true, true, true, true, true]),
-    (.min 3, .positive, [true, true, true, true, true, true, true, true, true, true], [true, true, true, true, true, true, true, true, true, true]),
-    (.min 3, .negative, [true, true, true, true, true, true, true, true, true, true], [true, true, true, true, true, true, true, true, true, true]),
-    (.min 3, .nonnegative, [true, true, true, true, true, true, true, true, true, true], [true, true, true, true, true, true, true, true, true, true]),
-    (.min 3, .nonpositive, [true, true, true, true, true, true, true, true, true, true], [true, true, true, true, true, true, true, true, true, true]),
-    (.max 5, .positive, [true, true, true, true, true, true, true, true, true, true], [true, true, true, true, true, true, true, true, true, true]),
-    (.max 5, .negative, [true, true, true, true, true, true, true, true, true, true], [true, true, true, true, true, true, true, true, true, true]),
-    (.max 5, .nonnegative, [true, true, true, true, true, true, true, true, true, true], [true, true, true, true, true, true, true, true, true, true]),
-    (.max 5, .nonpositive, [true, true, true, true, true, true, true, true, true, true], [true, true, true, true, true, true, true, true, true, true]),
-    (.positive, .negative, [true, true, true, true, true, true, true, true, true, true], [true, true, true, true, true, true, true, true, true, true]),
-    (.positive, .nonnegative, [true, true, true, true, true, true, true, true, true, true], [true, true, true, true, true, true, true, true, true, true]),
-    (.positive, .nonpositive, [true, true, true, true, true, true, true, true, true, true], [true, true, true, true, true, true, true, true, true, true]),
-    (.negative, .nonnegative, [true, true, true, true, true, true, true, true, true, true], [true, true, true, true, true, true, true, true, true, true]),
-    (.negative, .nonpositive, [true, true, true, true, true, true, true, true, true, true], [true, true, true, true, true, true, true, true, true, true]),
-    (.nonnegative, .nonpositive, [true, true, true, true, true, true, true, true, true, true], [true, true, true, true, true, true, true, true, true, true])
+    (.required, .nonpositive, [false, true, false, false, false, false, false, false, false, false], [false, true, false, false, false, false, false, false, false, false]),
+    (.min 3, .max 5, [true, false, false, false, true, true, true, false, false, false], [true, false, false, false, true, true, true, false, false, false]),
+    (.min 3, .positive, [true, false, false, false, true, true, true, true, true, true], [true, false, false, false, true, true, true, true, true, true]),
+    (.min 3, .negative, [true, false, false, false, false, false, false, false, false, false], [true, false, false, false, false, false, false, false, false, false]),
+    (.min 3, .nonnegative, [true, false, false, false, true, true, true, true, true, true], [true, false, false, false, true, true, true, true, true, true]),
+    (.min 3, .nonpositive, [true, false, false, false, false, false, false, false, false, false], [true, false, false, false, false, false, false, false, false, false]),
+    (.max 5, .positive, [true, false, true, true, true, true, true, false, false, false], [true, false, true, true, true, true, true, false, false, false]),
+    (.max 5, .negative, [true, false, false, false, false, false, false, false, false, false], [true, false, false, false, false, false, false, false, false, false]),
+    (.max 5, .nonnegative, [true, true, true, true, true, true, true, false, false, false], [true, true, true, true, true, true, true, false, false, false]),
+    (.max 5, .nonpositive, [true, true, false, false, false, false, false, false, false, false], [true, true, false, false, false, false, false, false, false, false]),
+    (.positive, .negative, [true, false, false, false, false, false, false, false, false, false], [true, false, false, false, false, false, false, false, false, false]),
+    (.positive, .nonnegative, [true, false, true, true, true, true, true, true, true, true], [true, false, true, true, true, true, true, true, true, true]),
+    (.positive, .nonpositive, [true, false, false, false, false, false, false, false, false, false], [true, false, false, false, false, false, false, false, false, false]),
+    (.negative, .nonnegative, [true, false, false, false, false, false, false, false, false, false], [true, false, false, false, false, false, false, false, false, false]),
+    (.negative, .nonpositive, [true, false, false, false, false, false, false, false, false, false], [true, false, false, false, false, false, false, false, false, false]),
+    (.nonnegative, .nonpositive, [true, true, false, false, false, false, false, false, false, false], [true, true, false, false, false, false, false, false, false, false])
   ]
 
 def tagBlock40 : Block where
@@ -1346,49 +1346,49 @@ def tagBlock40 : Block where
   probes := [.nil, .num 0, .num 2, .num 4, .num 6, .num 8, .num 10, .num 12, .num 18014398509481984, .num 18014398509481986, .num 18014398509481988, .num 18446744073709551612, .num 18446744073709551614, .num 18446744073709551616, .num 36893488147419103228, .num 36893488147419103230]
   singles := [
     (.required, [false, true, true, true, true, true, true, true, true, true, true, true, true, true, true, true]),
-    (.min 3, [true, true, true, true, true, true, true, true, true, true, true, true, true, true, true, true]),
-    (.max 5, [true, true, true, true, true, true, true, true, true, true, true, true, true, true, true, true]),
-    (.positive, [true, true, true, true, true, true, true, true, true, true, true, true, true, true, true, true]),
-    (.negative, [true, true, true, true, true, true, true, true, true, true, true, true, true, true, true, true]),
+    (.min 3, [true, false, false, false, true, true, true, true, true, true, true, true, true, true, true, true]),
+    (.max 5, [true, true, true, true, true, true, true, false, false, false, false, false, false, false, false, false]),
+    (.positive, [true, false, true, true, true, true, true, true, true, true, true, true, true, true, true, true]),
+    (.negative, [true, false, false, false, false, false, false, false, false, false, false, false, false, false, false, false]),
     (.nonnegative, [true, true, true, true, true, true, true, true, true, true, true, true, true, true, true, true]),
-    (.nonpositive, [true, true, true, true, true, true, true, true, true, true, true, true, true, true, true, true]),
-    (.min 9007199254740993, [true, true, true, true, true, true, true, true, true, true, true, true, true, true, true, true]),
-    (.max 9007199254740993, [true, true, true, true, true, true, true, true, true, true, true, true, true, true, true, true]),
-    (.min 9223372036854775807, [true, true, true, true, true, true, true, true, true, true, true, true, true, true, true, true]),
-    (.max 9223372036854775807, [true, true, true, true, true, true, true, true, true, true, true, true, true, true, true, true]),
-    (.min 18446744073709551615, [true, true, true, true, true, true, true, true, true, true, true, true, true, true, true, true]),
+    (.nonpositive, [true, true, false, false, false, false, false, false, false, false, false, false, false, false, false, false]),
+    (.min 9007199254740993, [true, false, false, false, false, false, false, false, false, true, true, true, true, true, true, true]),
+    (.max 9007199254740993, [true, true, true, true, true, true, true, true, true, true, false, false, false, false, false, false]),
+    (.min 9223372036854775807, [true, false, false, false, false, false, false, false, false, false, false, false, true, true, true, true]),
+    (.max 9223372036854775807, [true, true, true, true, true, true, true, true, true, true, true, true, true, false, false, false]),
+    (.min 18446744073709551615, [true, false, false, false, false, false, false, false, false, false, false, false, false, false, false, true]),
     (.max 18446744073709551615, [true, true, true, true, true, true, true, true, true, true, true, true, true, true, true, true]),
-    (.gt 9007199254740993, [true, true, true, true, true, true, true, true, true, true, true, true, true, true, true, true]),
-    (.gte 9007199254740993, [true, true, true, true, true, true, true, true, true, true, true, true, true, true, true, true]),
-    (.lt 9007199254740993, [true, true, true, true, true, true, true, true, true, true, true, true, true, true, true, true]),
-    (.lte 9007199254740993, [true, true, true, true, true, true, true, true, true, true, true, true, true, true, true, true]),
-    (.gt 3, [true, true, true, true, true, true, true, true, true, true, true, true, true, true, true, true]),
-    (.gte 3, [true, true, true, true, true, true, true, true, true, true, true, true, true, true, true, true]),
-    (.lt 5, [true, true, true, true, true, true, true, true, true, true, true, true, true, true, true, true]),
-    (.lte 5, [true, true, true, true, true, true, true, true, true, true, true, true, true, true, true, true])
+    (.gt 9007199254740993, [true, false, false, false, false, false, false, false, false, false, true, true, true, true, true, true]),
+    (.gte 9007199254740993, [true, false, false, false, false, false, false, false, false, true, true, true, true, true, true, true]),
+    (.lt 9007199254740993, [true, true, true, true, true, true, true, true, true, false, false, false, false, false, false, false]),
+    (.lte 9007199254740993, [true, true, true, true, true, true, true, true, true, true, false, false, false, false, false, false]),
+    (.gt 3, [true, false, false, false, false, true, true, true, true, true, true, true, true, true, true, true]),
+    (.gte 3, [true, false, false, false, true, true, true, true, true, true, true, true, true, true, true, true]),
+    (.lt 5, [true, true, true, true, true, true, false, false, false, false, false, false, false, false, false, false]),
+    (.lte 5, [true, true, true, true, true, true, true, false, false, false, false, false, false, false, false, false])
   ]
   pairs := [
-    (.required, .min 3, [false, true, true, true, true, true, true, true, true, true, true, true, true, true, true, true], [false, true, true, true, true, true, true, true, true, true, true, true, true, true, true, true]),
-    (.required, .max 5, [false, true, true, true, true, true, true, true, true, true, true, true, true, true, true, true], [false, true, true, true, true, true, true, true, true, true, true, true, true, true, true, true]),
-    (.required, .positive, [false, true, true, true, true, true, true, true, true, true, true, true, true, true, true, true], [false, true, true, true, true, true, true, true, true, true, true, true, true, true, true, true]),
-    (.required, .negative, [false, true, true, true, true, true, true, true, true, true, true, true, true, true, true, true], [false, true, true, true, true, true, true, true, true, true, true, true, true, true, true, true]),
+    (.required, .min 3, [false, false, false, false, true, true, true, true, true, true, true, true, true, true, true, true], [false, false, false, false, true, true, true, true, true, true, true, true, true, true, true, true]),
+    (.required, .max 5, [false, true, true, true, true, true, true, false, false, false, false, false, false, false, false, false], [false, true, true, true, true, true, true, false, false, false, false, false, false, false, false, false]),
+    (.required, .positive, [false, false, true, true, true, true, true, true, true, true, true, true, true, true, true, true], [false, false, true, true, true, true, true, true, true, true, true, true, true, true, true, true]),
+    (.required, .negative, [false, false, false, false, false, false, false, false, false, false, false, false, false, false, false, false], [false, false, false, false, false, false, false, false, false, false, false, false, false, false, false, false]),
     (.required, .nonnegative, [false, true, true, true, true, true, true, true, true, true, true, true, true, true, true, true], [false, true, true, true, true, true, true, true, true, true, true, true, true, true, true, true]),
-    (.required, .nonpositive, [false, true, true, true, true, true, true, true, true, true, true, true, true, true, true, true], [false, true, true, true, true, true, true, true, true, true, true, true, true, true, true, true]),
-    (.min 3, .max 5, [true, true, true, true, true, true, true, true, true, true, true, true, true, true, true, true], [true, true, true, true, true, true, true, true, true, true, true, true, true, true, true, true]),
-    (.min 3, .positive, [true, true, true, true, true, true, true, true, true, true, true, true, true, true, true, true], [true, true, true, true, true, true, true, true, true, true, true, true, true, true, true, true]),
-    (.min 3, .negative, [true, true, true, true, true, true, true, true, true, true, true, true, true, true, true, true], [true, true, true, true, true, true, true, true, true, true, true, true, true, true, true, true]),
-    (.min 3, .nonnegative, [true, true, true, true, true, true, true, true, true, true, true, true, true, true, true, true], [true, true, true, true, true, true, true, true, true, true, true, true, true, true, true, true]),
-    (.min 3, .nonpositive, [true, true, true, true, true, true, true, true, true, true, true, true, true, true, true, true], [true, true, true, true, true, true, true, true, true, true, true, true, true, true, true, true]),
-    (.max 5, .positive, [true, true, true, true, true, true, true, true, true, true, true, true, true, true, true, true], [true, true, true, true, true, true, true, true, true, true, true, true, true, true, true, true]),
-    (.max 5, .negative, [true, true, true, true, true, true, true, true, true, true, true, true, true, true, true, true], [true, true, true, true, true, true, true, true, true, true, true, true, true, true, true, true]),
-    (.max 5, .nonnegative, [true, true, true, true, true, true, true, true, true, true, true, true, true, true, true, true], [true, true, true, true, true, true, true, true, true, true, true, true, true, true, true, true]),
-    (.max 5, .nonpositive, [true, true, true, true, true, true, true, true, true, true, true, true, true, true, true, true], [true, true, true, true, true, true, true, true, true, true, true, true, true, true, true, true]),
-    (.positive, .negative, [true, true, true, true, true, true, true, true, true, true, true, true, true, true, true, true], [true, true, true, true, true, true, true, true, true, true, true, true, true, true, true, true]),
-    (.positive, .nonnegative, [true, true, true, true, true, true, true, true, true, true, true, true, true, true, true, true], [true, true, true, true, true, true, true, true, true, true, true, true, true, true, true, true]),
-    (.positive, .nonpositive, [true, true, true, true, true, true, true, true, true, true, true, true, true, true, true, true], [true, true, true, true, true, true, true, true, true, true, true, true, true, true, true, true]),
-    (.negative, .nonnegative, [true, true, true, true, true, true, true, true, true, true, true, true, true, true, true, true], [true, true, true, true, true, true, true, true, true, true, true, true, true, true, true, true]),
-    (.negative, .nonpositive, [true, true, true, true, true, true, true, true, true, true, true, true, true, true, true, true], [true, true, true, true, true, true, true, true, true, true, true, true, true, true, true, true]),
-    (.nonnegative, .nonpositive, [true, true, true, true, true, true, true, true, true, true, true, true, true, true, true, true], [true, true, true, true, true, true, true, true, true, true, true, true, true, true, true, true])
+    (.required, .nonpositive, [false, true, false, false, false, false, false, false, false, false, false, false, false, false, false, false], [false, true, false, false, false, false, false, false, false, false, false, false, false, false, false, false]),
+    (.min 3, .max 5, [true, false, false, false, true, true, true, false, false, false, false, false, false, false, false, false], [true, false, false, false, true, true, true, false, false, false, false, false, false, false, false, false]),
+    (.min 3, .positive, [true, false, false, false, true, true, true, true, true, true, true, true, true, true, true, true], [true, false, false, false, true, true, true, true, true, true, true, true, true, true, true, true]),
+    (.min 3, .negative, [true, false, false, false, false, false, false, false, false, false, false, false, false, false, false, false], [true, false, false, false, false, false, false, false, false, false, false, false, false, false, false, false]),
+    (.min 3, .nonnegative, [true, false, false, false, true, true, true, true, true, true, true, true, true, true, true, true], [true, false, false, false, true, true, true, true, true, true, true, true, true, true, true, true]),
+    (.min 3, .nonpositive, [true, false, false, false, false, false, false, false, false, false, false, false, false, false, false, false], [true, false, false, false, false, false, false, false, false, false, false, false, false, false, false, false]),
+    (.max 5, .positive, [true, false, true, true, true, true, true, false, false, false, false, false, false, false, false, false], [true, false, true, true, true, true, true, false, false, false, false, false, false, false, false, false]),
+    (.max 5, .negative, [true, false, false, false, false, false, false, false, false, false, false, false, false, false, false, false], [true, false, false, false, false, false, false, false, false, false, false, false, false, false, false, false]),
+    (.max 5, .nonnegative, [true, true, true, true, true, true, true, false, false, false, false, false, false, false, false, false], [true, true, true, true, true, true, true, false, false, false, false, false, false, false, false, false]),
+    (.max 5, .nonpositive, [true, true, false, false, false, false, false, false, false, false, false, false, false, false, false, false], [true, true, false, false, false, false, false, false, false, false, false, false, false, false, false, false]),
+    (.positive, .negative, [true, false, false, false, false, false, false, false, false, false, false, false, false, false, false, false], [true, false, false, false, false, false, false, false, false, false, false, false, false, false, false, false]),
+    (.positive, .nonnegative, [true, false, true, true, true, true, true, true, true, true, true, true, true, true, true, true], [true, false, true, true, true, true, true, true, true, true, true, true, true, true, true, true]),
+    (.positive, .nonpositive, [true, false, false, false, false, false, false, false, false, false, false, false, false, false, false, false], [true, false, false, false, false, false, false, false, false, false, false, false, false, false, false, false]),
+    (.negative, .nonnegative, [true, false, false, false, false, false, false, false, false, false, false, false, false, false, false, false], [true, false, false, false, false, false, false, false, false, false, false, false, false, false, false, false]),
+    (.negative, .nonpositive, [true, false, false, false, false, false, false, false, false, false, false, false, false, false, false, false], [true, false, false, false, false, false, false, false, false, false, false, false, false, false, false, false]),
+    (.nonnegative, .nonpositive, [true, true, false, false, false, false, false, false, false, false, false, false, false, false, false, false], [true, true, false, false, false, false, false, false, false, false, false, false, false, false, false, false])
   ]
 
 def tagBlock41 : Block where
@@ -1396,39 +1396,39 @@ def tagBlock41 : Block where
   probes := [.nil, .num (-4), .num (-2), .num (-1), .num 0, .num 1, .num 2, .num 4, .num 5, .num 6, .num 7, .num 8, .num 10, .num 11, .num 12]
   singles := [
     (.required, [false, true, true, true, true, true, true, true, true, true, true, true, true, true, true]),
-    (.min 3, [true, true, true, true, true, true, true, true, true, true, true, true, true, true, true]),
-    (.max 5, [true, true, true, true, true, true, true, true, true, true, true, true, true, true, true]),
-    (.positive, [true, true, true, true, true, true, true, true, true, true, true, true, true, true, true]),
-    (.negative, [true, true, true, true, true, true, true, true, true, true, true, true, true, true, true]),
-    (.nonnegative, [true, true, true, true, true, true, true, true, true, true, true, true, true, true, true]),
-    (.nonpositive, [true, true, true, true, true, true, true, true, true, true, true, true, true, true, true]),
-    (.gt 3, [true, true, true, true, true, true, true, true, true, true, true, true, true, true, true]),
-    (.gte 3, [true, true, true, true, true, true, true, true, true, true, true, true, true, true, true]),
-    (.lt 5, [true, true, true, true, true, true, true, true, true, true, true, true, true, true, true]),
-    (.lte 5, [true, true, true, true, true, true, true, true, true, true, true, true, true, true, true])
+    (.min 3, [true, false, false, false, false, false, false, false, false, true, true, true, true, true, true]),
+    (.max 5, [true, true, true, true, true, true, true, true, true, true, true, true, true, false, false]),
+    (.positive, [true, false, false, false, false, true, true, true, true, true, true, true, true, true, true]),
+    (.negative, [true, true, true, true, false, false, false, false, false, false, false, false, false, false, false]),
+    (.nonnegative, [true, false, false, false, true, true, true, true, true, true, true, true, true, true, true]),
+    (.nonpositive, [true, true, true, true, true, false, false, false, false, false, false, false, false, false, false]),
+    (.gt 3, [true, false, false, false, false, false, false, false, false, false, true, true, true, true, true]),
+    (.gte 3, [true, false, false, false, false, false, false, false, false, true, true, true, true, true, true]),
+    (.lt 5, [true, true, true, true, true, true, true, true, true, true, true, true, false, false, false]),
+    (.lte 5, [true, true, true, true, true, true, true, true, true, true, true, true, true, false, false])
   ]
   pairs := [
-    (.required, .min 3, [false, true, true, true, true, true, true, true, true, true, true, true, true, true, true], [false, true, true, true, true, true, true, true, true, true, true, true, true, true, true]),
-    (.required, .max 5, [false, true, true, true, true, true, true, true, true, true, true, true, true, true, true], [false, true, true, true, true, true, true, true, true, true, true, true, true, true, true]),
-    (.required, .positive, [false, true, true, true, true, true, true, true, true, true, true, true, true, true, true], [false, true, true, true, true, true, true, true, true, true, true, true, true, true, true]),
-    (.required, .negative, [false, true, true, true, true, true, true, true, true, true, true, true, true, true, true], [false, true, true, true, true, true, true, true, true, true, true, true, true, true, true]),
-    (.required, .nonnegative, [false, true, true, true, true, true, true, true, true, true, true, true, true, true, true], [false, true, true, true, true, true, true, true, true, true, true, true, true, true, true]),
-    (.required, .nonpositive, [false, true, true, true, true, true, true, true, true, true, true, true, true, true, true], [false, true, true, true, true, true, true, true, true, true, true, true, true, true, true]),
-    (.min 3, .max 5, [true, true, true, true, true, true, true, true, true, true, true, true, true, true, true], [true, true, true, true, true, true, true, true, true, true, true, true, true, true, true]),
-    (.min 3, .positive, [true, true, true, true, true, true, true, true, true, true, true, true, true, true, true], [true, true, true, true, true, true, true, true, true, true, true, true, true, true, true]),
-    (.min 3, .negative, [true, true, true, true, true, true, true, true, true, true, true, true, true, true, true], [true, true, true, true, true, true, true, true, true, true, true, true, true, true, true]),
-    (.min 3, .nonnegative, [true, true, true, true, true, true, true, true, true, true, true, true, true, true, true], [true, true, true, true, true, true, true, true, true, true, true, true, true, true, true]),
-    (.min 3, .nonpositive, [true, true, true, true, true, true, true, true, true, true, true, true, true, true, true], [true, true, true, true, true, true, true, true, true, true, true, true, true, true, true]),
-    (.max 5, .positive, [true, true, true, true, true, true, true, true, true, true, true, true, true, true, true], [true, true, true, true, true, true, true, true, true, true, true, true, true, true, true]),
-    (.max 5, .negative, [true, true, true, true, true, true, true, true, true, true, true, true, true, true, true], [true, true, true, true, true, true, true, true, true, true, true, true, true, true, true]),
-    (.max 5, .nonnegative, [true, true, true, true, true, true, true, true, true, true, true, true, true, true, true], [true, true, true, true, true, true, true, true, true, true, true, true, true, true, true]),
-    (.max 5, .nonpositive, [true, true, true, true, true, true, true, true, true, true, true, true, true, true, true], [true, true, true, true, true, true, true, true, true, true, true, true, true, true, true]),
-    (.positive, .negative, [true, true, true, true, true, true, true, true, true, true, true, true, true, true, true], [true, true, true, true, true, true, true, true, true, true, true, true, true, true, true]),
-    (.positive, .nonnegative, [true, true, true, true, true, true, true, true, true, true, true, true, true, true, true], [true, true, true, true, true, true, true, true, true, true, true, true, true, true, true]),
-    (.positive, .nonpositive, [true, true, true, true, true, true, true, true, true, true, true, true, true, true, true], [true, true, true, true, true, true, true, true, true, true, true, true, true, true, true]),
-    (.negative, .nonnegative, [true, true, true, true, true, true, true, true, true, true, true, true, true, true, true], [true, true, true, true, true, true, true, true, true, true, true, true, true, true, true]),
-    (.negative, .nonpositive, [true, true, true, true, true, true, true, true, true, true, true, true, true, true, true], [true, true, true, true, true, true, true, true, true, true, true, true, true, true, true]),
-    (.nonnegative, .nonpositive, [true, true, true, true, true, true, true, true, true, true, true, true, true, true, true], [true, true, true, true, true, true, true, true, true, true, true, true, true, true, true])
+    (.required, .min 3, [false, false, false, false, false, false, false, false, false, true, true, true, true, true, true], [false, false, false, false, false, false, false, false, false, true, true, true, true, true, true]),
+    (.required, .max 5, [false, true, true, true, true, true, true, true, true, true, true, true, true, false, false], [false, true, true, true, true, true, true, true, true, true, true, true, true, false, false]),
+    (.required, .positive, [false, false, false, false, false, true, true, true, true, true, true, true, true, true, true], [false, false, false, false, false, true, true, true, true, true, true, true, true, true, true]),
+    (.required, .negative, [false, true, true, true, false, false, false, false, false, false, false, false, false, false, false], [false, true, true, true, false, false, false, false, false, false, false, false, false, false, false]),
+    (.required, .nonnegative, [false, false, false, false, true, true, true, true, true, true, true, true, true, true, true], [false, false, false, false, true, true, true, true, true, true, true, true, true, true, true]),
+    (.required, .nonpositive, [false, true, true, true, true, false, false, false, false, false, false, false, false, false, false], [false, true, true, true, true, false, false, false, false, false, false, false, false, false, false]),
+    (.min 3, .max 5, [true, false, false, false, false, false, false, false, false, true, true, true, true, false, false], [true, false, false, false, false, false, false, false, false, true, true, true, true, false, false]),
+    (.min 3, .positive, [true, false, false, false, false, false, false, false, false, true, true, true, true, true, true], [true, false, false, false, false, false, false, false, false, true, true, true, true, true, true]),
+    (.min 3, .negative, [true, false, false, false, false, false, false, false, false, false, false, false, false, false, false], [true, false, false, false, false, false, false, false, false, false, false, false, false, false, false]),
+    (.min 3, .nonnegative, [true, false, false, false, false, false, false, false, false, true, true, true, true, true, true], [true, false, false, false, false, false, false, false, false, true, true, true, true, true, true]),
+    (.min 3, .nonpositive, [true, false, false, false, false, false, false, false, false, false, false, false, false, false, false], [true, false, false, false, false, false, false, false, false, false, false, false, false, false, false]),
+    (.max 5, .positive, [true, false, false, false, false, true, true, true, true, true, true, true, true, false, false], [true, false, false, false, false, true, true, true, true, true, true, true, true, false, false]),
+    (.max 5, .negative, [true, true, true, true, false, false, false, false, false, false, false, false, false, false, false], [true, true, true, true, false, false, false, false, false, false, false, false, false, false, false]),
+    (.max 5, .nonnegative, [true, false, false, false, true, true, true, true, true, true, true, true, true, false, false], [true, false, false, false, true, true, true, true, true, true, true, true, true, false, false]),
+    (.max 5, .nonpositive, [true, true, true, true, true, false, false, false, false, false, false, false, false, false, false], [true, true, true, true, true, false, false, false, false, false, false, false, false, false, false]),
+    (.positive, .negative, [true, false, false, false, false, false, false, false, false, false, false, false, false, false, false], [true, false, false, false, false, false, false, false, false, false, false, false, false, false, false]),
+    (.positive, .nonnegative, [true, false, false, false, false, true, true, true, true, true, true, true, true, true, true], [true, false, false, false, false, true, true, true, true, true, true, true, true, true, true]),
+    (.positive, .nonpositive, [true, false, false, false, false, false, false, false, false, false, false, false, false, false, false], [true, false, false, false, false, false, false, false, false, false, false, false, false, false, false]),
+    (.negative, .nonnegative, [true, false, false, false, false, false, false, false, false, false, false, false, false, false, false], [true, false, false, false, false, false, false, false, false, false, false, false, false, false, false]),
+    (.negative, .nonpositive, [true, true, true, true, false, false, false, false, false, false, false, false, false, false, false], [true, true, true, true, false, false, false, false, false, false, false, false, false, false, false]),
+    (.nonnegative, .nonpositive, [true, false, false, false, true, false, false, false, false, false, false, false, false, false, false], [true, false, false, false, true, false, false, false, false, false, false, false, false, false, false])
   ]
 
 def tagBlock42 : Block where
@@ -1436,39 +1436,39 @@ def tagBlock42 : Block where
   probes := [.nil, .num (-4), .num (-2), .num (-1), .num 0, .num 1, .num 2, .num 4, .num 5, .num 6, .num 7, .num 8, .num 10, .num 11, .num 12]
   singles := [
     (.required, [false, true, true, true, true, true, true, true, true, true, true, true, true, true, true]),
-    (.min 3, [true, true, true, true, true, true, true, true, true, true, true, true, true, true, true]),
-    (.max 5, [true, true, true, true, true, true, true, true, true, true, true, true, true, true, true]),
-    (.positive, [true, true, true, true, true, true, true, true, true, true, true, true, true, true, true]),
-    (.negative, [true, true, true, true, true, true, true, true, true, true, true, true, true, true, true]),
-    (.nonnegative, [true, true, true, true, true, true, true, true, true, true, true, true, true, true, true]),
-    (.nonpositive, [true, true, true, true, true, true, true, true, true, true, true, true, true, true, true]),
-    (.gt 3, [true, true, true, true, true, true, true, true, true, true, true, true, true, true, true]),
-    (.gte 3, [true, true, true, true, true, true, true, true, true, true, true, true, true, true, true]),
-    (.lt 5, [true, true, true, true, true, true, true, true, true, true, true, true, true, true, true]),
-    (.lte 5, [true, true, true, true, true, true, true, true, true, true, true, true, true, true, true])
+    (.min 3, [true, false, false, false, false, false, false, false, false, true, true, true, true, true, true]),
+    (.max 5, [true, true, true, true, true, true, true, true, true, true, true, true, true, false, false]),
+    (.positive, [true, false, false, false, false, true, true, true, true, true, true, true, true, true, true]),
+    (.negative, [true, true, true, true, false, false, false, false, false, false, false, false, false, false, false]),
+    (.nonnegative, [true, false, false, false, true, true, true, true, true, true, true, true, true, true, true]),
+    (.nonpositive, [true, true, true, true, true, false, false, false, false, false, false, false, false, false, false]),
+    (.gt 3, [true, false, false, false, false, false, false, false, false, false, true, true, true, true, true]),
+    (.gte 3, [true, false, false, false, false, false, false, false, false, true, true, true, true, true, true]),
+    (.lt 5, [true, true, true, true, true, true, true, true, true, true, true, true, false, false, false]),
+    (.lte 5, [true, true, true, true, true, true, true, true, true, true, true, true, true, false, false])
   ]
   pairs := [
-    (.required, .min 3, [false, true, true, true, true, true, true, true, true, true, true, true, true, true, true], [false, true, true, true, true, true, true, true, true, true, true, true, true, true, true]),
-    (.required, .max 5, [false, true, true, true, true, true, true, true, true, true, true, true, true, true, true], [false, true, true, true, true, true, true, true, true, true, true, true, true, true, true]),
-    (.required, .positive, [false, true, true, true, true, true, true, true, true, true, true, true, true, true, true], [false, true, true, true, true, true, true, true, true, true, true, true, true, true, true]),
-    (.required, .negative, [false, true, true, true, true, true, true, true, true, true, true, true, true, true, true], [false, true, true, true, true, true, true, true, true, true, true, true, true, true, true]),
-    (.required, .nonnegative, [false, true, true, true, true, true, true, true, true, true, true, true, true, true, true], [false, true, true, true, true, true, true, true, true, true, true, true, true, true, true]),
-    (.required, .nonpositive, [false, true, true, true, true, true, true, true, true, true, true, true, true, true, true], [false, true, true, true, true, true, true, true, true, true, true, true, true, true, true]),
-    (.min 3, .max 5, [true, true, true, true, true, true, true, true, true, true, true, true, true, true, true], [true, true, true, true, true, true, true, true, true, true, true, true, true, true, true]),
-    (.min 3, .positive, [true, true, true, true, true, true, true, true, true, true, true, true, true, true, true], [true, true, true, true, true, true, true, true, true, true, true, true, true, true, true]),
-    (.min 3, .negative, [true, true, true, true, true, true, true, true, true, true, true, true, true, true, true], [true, true, true, true, true, true, true, true, true, true, true, true, true, true, true]),
-    (.min 3, .nonnegative, [true, true, true, true, true, true, true, true, true, true, true, true, true, true, true], [true, true, true, true, true, true, true, true, true, true, true, true, true, true, true]),
-    (.min 3, .nonpositive, [true, true, true, true, true, true, true, true, true, true, true, true, true, true, true], [true, true, true, true, true, true, true, true, true, true, true, true, true, true, true]),
-    (.max 5, .positive, [true, true, true, true, true, true, true, true, true, true, true, true, true, true, true], [true, true, true, true, true, true, true, true, true, true, true, true, true, true, true]),
-    (.max 5, .negative, [true, true, true, true, true, true, true, true, true, true, true, true, true, true, true], [true, true, true, true, true, true, true, true, true, true, true, true, true, true, true]),
-    (.max 5, .nonnegative, [true, true, true, true, true, true, true, true, true, true, true, true, true, true, true], [true, true, true, true, true, true, true, true, true, true, true, true, true, true, true]),
-    (.max 5, .nonpositive, [true, true, true, true, true, true, true, true, true, true, true, true, true, true, true], [true, true, true, true, true, true, true, true, true, true, true, true, true, true, true]),
-    (.positive, .negative, [true, true, true, true, true, true, true, true, true, true, true, true, true, true, true], [true, true, true, true, true, true, true, true, true, true, true, true, true, true, true]),
-    (.positive, .nonnegative, [true, true, true, true, true, true, true, true, true, true, true, true, true, true, true], [true, true, true, true, true, true, true, true, true, true, true, true, true, true, true]),
-    (.positive, .nonpositive, [true, true, true, true, true, true, true, true, true, true, true, true, true, true, true], [true, true, true, true, true, true, true, true, true, true, true, true, true, true, true]),
-    (.negative, .nonnegative, [true, true, true, true, true, true, true, true, true, true, true, true, true, true, true], [true, true, true, true, true, true, true, true, true, true, true, true, true, true, true]),
-    (.negative, .nonpositive, [true, true, true, true, true, true, true, true, true, true, true, true, true, true, true], [true, true, true, true, true, true, true, true, true, true, true, true, true, true, true]),
-    (.nonnegative, .nonpositive, [true, true, true, true, true, true, true, true, true, true, true, true, true, true, true], [true, true, true, true, true, true, true, true, true, true, true, true, true, true, true])
+    (.required, .min 3, [false, false, false, false, false, false, false, false, false, true, true, true, true, true, true], [false, false, false, false, false, false, false, false, false, true, true, true, true, true, true]),
+    (.required, .max 5, [false, true, true, true, true, true, true, true, true, true, true, true, true, false, false], [false, true, true, true, true, true, true, true, true, true, true, true, true, false, false]),
+    (.required, .positive, [false, false, false, false, false, true, true, true, true, true, true, true, true, true, true], [false, false, false, false, false, true, true, true, true, true, true, true, true, true, true]),
+    (.required, .negative, [false, true, true, true, false, false, false, false, false, false, false, false, false, false, false], [false, true, true, true, false, false, false, false, false, false, false, false, false, false, false]),
+    (.required, .nonnegative, [false, false, false, false, true, true, true, true, true, true, true, true, true, true, true], [false, false, false, false, true, true, true, true, true, true, true, true, true, true, true]),
+    (.required, .nonpositive, [false, true, true, true, true, false, false, false, false, false, false, false, false, false, false], [false, true, true, true, true, false, false, false, false, false, false, false, false, false, false]),
+    (.min 3, .max 5, [true, false, false, false, false, false, false, false, false, true, true, true, true, false, false], [true, false, false, false, false, false, false, false, false, true, true, true, true, false, false]),
+    (.min 3, .positive, [true, false, false, false, false, false, false, false, false, true, true, true, true, true, true], [true, false, false, false, false, false, false, false, false, true, true, true, true, true, true]),
+    (.min 3, .negative, [true, false, false, false, false, false, false, false, false, false, false, false, false, false, false], [true, false, false, false, false, false, false, false, false, false, false, false, false, false, false]),
+    (.min 3, .nonnegative, [true, false, false, false, false, false, false, false, false, true, true, true, true, true, true], [true, false, false, false, false, false, false, false, false, true, true, true, true, true, true]),
+    (.min 3, .nonpositive, [true, false, false, false, false, false, false, false, false, false, false, false, false, false, false], [true, false, false, false, false, false, false, false, false, false, false, false, false, false, false]),
+    (.max 5, .positive, [true, false, false, false, false, true, true, true, true, true, true, true, true, false, false], [true, false, false, false, false, true, true, true, true, true, true, true, true, false, false]),
+    (.max 5, .negative, [true, true, true, true, false, false, false, false, false, false, false, false, false, false, false], [true, true, true, true, false, false, false, false, false, false, false, false, false, false, false]),
+    (.max 5, .nonnegative, [true, false, false, false, true, true, true, true, true, true, true, true, true, false, false], [true, false, false, false, true, true, true, true, true, true, true, true, true, false, false]),
+    (.max 5, .nonpositive, [true, true, true, true, true, false, false, false, false, false, false, false, false, false, false], [true, true, true, true, true, false, false, false, false, false, false, false, false, false, false]),
+    (.positive, .negative, [true, false, false, false, false, false, false, false, false, false, false, false, false, false, false], [true, false, false, false, false, false, false, false, false, false, false, false, false, false, false]),
+    (.positive, .nonnegative, [true, false, false, false, false, true, true, true, true, true, true, true, true, true, true], [true, false, false, false, false, true, true, true, true, true, true, true, true, true, true]),
+    (.positive, .nonpositive, [true, false, false, false, false, false, false, false, false, false, false, false, false, false, false], [true, false, false, false, false, false, false, false, false, false, false, false, false, false, false]),
+    (.negative, .nonnegative, [true, false, false, false, false, false, false, false, false, false, false, false, false, false, false], [true, false, false, false, false, false, false, false, false, false, false, false, false, false, false]),
+    (.negative, .nonpositive, [true, true, true, true, false, false, false, false, false, false, false, false, false, false, false], [true, true, true, true, false, false, false, false, false, false, false, false, false, false, false]),
+    (.nonnegative, .nonpositive, [true, false, false, false, true, false, false, false, false, false, false, false, false, false, false], [true, false, false, false, true, false, false, false, false, false, false, false, false, false, false])
   ]
 
 def tagBlock43 : Block where
@@ -1486,22 +1486,22 @@ def tagBlock44 : Block where
   probes := [.nil, .elems 0, .elems 1, .elems 2, .elems 3, .elems 4, .elems 5]
   singles := [
     (.required, [false, true, true, true, true, true, true]),
-    (.min 2, [false, true, true, true, true, true, true]),
-    (.max 4, [false, true, true, true, true, true, true]),
-    (.length 3, [false, true, true, true, true, true, true]),
-    (.nonempty, [false, true, true, true, true, true, true])
+    (.min 2, [true, false, false, true, true, true, true]),
+    (.max 4, [true, true, true, true, true, true, false]),
+    (.length 3, [true, false, false, false, true, false, false]),
+    (.nonempty, [true, false, true, true, true, true, true])
   ]
   pairs := [
-    (.required, .min 2, [false, true, true, true, true, true, true], [false, true, true, true, true, true, true]),
-    (.required, .max 4, [false, true, true, true, true, true, true], [false, true, true, true, true, true, true]),
-    (.required, .length 3, [false, true, true, true, true, true, true], [false, true, true, true, true, true, true]),
-    (.required, .nonempty, [false, true, true, true, true, true, true], [false, true, true, true, true, true, true]),
-    (.min 2, .max 4, [false, true, true, true, true, true, true], [false, true, true, true, true, true, true]),
-    (.min 2, .length 3, [false, true, true, true, true, true, true], [false, true, true, true, true, true, true]),
-    (.min 2, .nonempty, [false, true, true, true, true, true, true], [false, true, true, true, true, true, true]),
-    (.max 4, .length 3, [false, true, true, true, true, true, true], [false, true, true, true, true, true, true]),
-    (.max 4, .nonempty, [false, true, true, true, true, true, true], [false, true, true, true, true, true, true]),
-    (.length 3, .nonempty, [false, true, true, true, true, true, true], [false, true, true, true, true, true, true])
+    (.required, .min 2, [false, false, false, true, true, true, true], [false, false, false, true, true, true, true]),
+    (.required, .max 4, [false, true, true, true, true, true, false], [false, true, true, true, true, true, false]),
+    (.required, .length 3, [false, false, false, false, true, false, false], [false, false, false, false, true, false, false]),
+    (.required, .nonempty, [false, false, true, true, true, true, true], [false, false, true, true, true, true, true]),
+    (.min 2, .max 4, [true, false, false, true, true, true, false], [true, false, false, true, true, true, false]),
+    (.min 2, .length 3, [true, false, false, false, true, false, false], [true, false, false, false, true, false, false]),
+    (.min 2, .nonempty, [true, false, false, true, true, true, true], [true, false, false, true, true, true, true]),
+    (.max 4, .length 3, [true, false, false, false, true, false, false], [true, false, false, false, true, false, false]),
+    (.max 4, .nonempty, [true, false, true, true, true, true, false], [true, false, true, true, true, true, false]),
+    (.length 3, .nonempty, [true, false, false, false, true, false, false], [true, false, false, false, true, false, false])
   ]
 
 def tagBlock45 : Block where
@@ -1509,22 +1509,22 @@ def tagBlock45 : Block where
   probes := [.nil, .elems 0, .elems 1, .elems 2, .elems 3, .elems 4, .elems 5]
   singles := [
     (.required, [false, true, true, true, true, true, true]),
-    (.min 2, [false, true, true, true, true, true, true]),
-    (.max 4, [false, true, true, true, true, true, true]),
-    (.length 3, [false, true, true, true, true, true, true]),
-    (.nonempty, [false, true, true, true, true, true, true])
+    (.min 2, [true, false, false, true, true, true, true]),
+    (.max 4, [true, true, true, true, true, true, false]),
+    (.length 3, [true, false, false, false, true, false, false]),
+    (.nonempty, [true, false, true, true, true, true, true])
   ]
   pairs := [
-    (.required, .min 2, [false, true, true, true, true, true, true], [false, true, true, true, true, true, true]),
-    (.required, .max 4, [false, true, true, true, true, true, true], [false, true, true, true, true, true, true]),
-    (.required, .length 3, [false, true, true, true, true, true, true], [false, true, true, true, true, true, true]),
-    (.required, .nonempty, [false, true, true, true, true, true, true], [false, true, true, true, true, true, true]),
-    (.min 2, .max 4, [false, true, true, true, true, true, true], [false, true, true, true, true, true, true]),
-    (.min 2, .length 3, [false, true, true, true, true, true, true], [false, true, true, true, true, true, true]),
-    (.min 2, .nonempty, [false, true, true, true, true, true, true], [false, true, true, true, true, true, true]),
-    (.max 4, .length 3, [false, true, true, true, true, true, true], [false, true, true, true, true, true, true]),
-    (.max 4, .nonempty, [false, true, true, true, true, true, true], [false, true, true, true, true, true, true]),
-    (.length 3, .nonempty, [false, true, true, true, true, true, true], [false, true, true, true, true, true, true])
+    (.required, .min 2, [false, false, false, true, true, true, true], [false, false, false, true, true, true, true]),
+    (.required, .max 4, [false, true, true, true, true, true, false], [false, true, true, true, true, true, false]),
+    (.required, .length 3, [false, false, false, false, true, false, false], [false, false, false, false, true, false, false]),
+    (.required, .nonempty, [false, false, true, true, true, true, true], [false, false, true, true, true, true, true]),
+    (.min 2, .max 4, [true, false, false, true, true, true, false], [true, false, false, true, true, true, false]),
+    (.min 2, .length 3, [true, false, false, false, true, false, false], [true, false, false, false, true, false, false]),
+    (.min 2, .nonempty, [true, false, false, true, true, true, true], [true, false, false, true, true, true, true]),
+    (.max 4, .length 3, [true, false, false, false, true, false, false], [true, false, false, false, true, false, false]),
+    (.max 4, .nonempty, [true, false, true, true, true, true, false], [true, false, true, true, true, true, false]),
+    (.length 3, .nonempty, [true, false, false, false, true, false, false], [true, false, false, false, true, false, false])
   ]
 
 def tagBlock46 : Block where
@@ -1532,22 +1532,22 @@ def tagBlock46 : Block where
   probes := [.nil, .elems 0, .elems 1, .elems 2, .elems 3, .elems 4, .elems 5]
   singles := [
     (.required, [false, true, true, true, true, true, true]),
-    (.min 2, [false, true, true, true, true, true, true]),
-    (.max 4, [false, true, true, true, true, true, true]),
-    (.length 3, [false, true, true, true, true, true, true]),
-    (.nonempty, [false, true, true, true, true, true, true])
+    (.min 2, [true, false, false, true, true, true, true]),
+    (.max 4, [true, true, true, true, true, true, false]),
+    (.length 3, [true, false, false, false, true, false, false]),
+    (.nonempty, [true, false, true, true, true, true, true])
   ]
   pairs := [
-    (.required, .min 2, [false, true, true, true, true, true, true], [false, true, true, true, true, true, true]),
-    (.required, .max 4, [false, true, true, true, true, true, true], [false, true, true, true, true, true, true]),
-    (.required, .length 3, [false, true, true, true, true, true, true], [false, true, true, true, true, true, true]),
-    (.required, .nonempty, [false, true, true, true, true, true, true], [false, true, true, true, true, true, true]),
-    (.min 2, .max 4, [false, true, true, true, true, true, true], [false, true, true, true, true, true, true]),
-    (.min 2, .length 3, [false, true, true, true, true, true, true], [false, true, true, true, true, true, true]),
-    (.min 2, .nonempty, [false, true, true, true, true, true, true], [false, true, true, true, true, true, true]),
-    (.max 4, .length 3, [false, true, true, true, true, true, true], [false, true, true, true, true, true, true]),
-    (.max 4, .nonempty, [false, true, true, true, true, true, true], [false, true, true, true, true, true, true]),
-    (.length 3, .nonempty, [false, true, true, true, true, true, true], [false, true, true, true, true, true, true])
+    (.required, .min 2, [false, false, false, true, true, true, true], [false, false, false, true, true, true, true]),
+    (.required, .max 4, [false, true, true, true, true, true, false], [false, true, true, true, true, true, false]),
+    (.required, .length 3, [false, false, false, false, true, false, false], [false, false, false, false, true, false, false]),
+    (.required, .nonempty, [false, false, true, true, true, true, true], [false, false, true, true, true, true, true]),
+    (.min 2, .max 4, [true, false, false, true, true, true, false], [true, false, false, true, true, true, false]),
+    (.min 2, .length 3, [true, false, false, false, true, false, false], [true, false, false, false, true, false, false]),
+    (.min 2, .nonempty, [true, false, false, true, true, true, true], [true, false, false, true, true, true, true]),
+    (.max 4, .length 3, [true, false, false, false, true, false, false], [true, false, false, false, true, false, false]),
+    (.max 4, .nonempty, [true, false, true, true, true, true, false], [true, false, true, true, true, true, false]),
+    (.length 3, .nonempty, [true, false, false, false, true, false, false], [true, false, false, false, true, false, false])
   ]
 
 def tagBlock47 : Block where
@@ -1555,22 +1555,22 @@ def tagBlock47 : Block where
   probes := [.nil, .elems 0, .elems 1, .elems 2, .elems 3, .elems 4, .elems 5]
   singles := [
     (.required, [false, true, true, true, true, true, true]),
-    (.min 2, [false, true, true, true, true, true, true]),
-    (.max 4, [false, true, true, true, true, true, true]),
-    (.length 3, [false, true, true, true, true, true, true]),
-    (.nonempty, [false, true, true, true, true, true, true])
+    (.min 2, [true, false, false, true, true, true, true]),
+    (.max 4, [true, true, true, true, true, true, false]),
+    (.length 3, [true, false, false, false, true, false, false]),
+    (.nonempty, [true, false, true, true, true, true, true])
   ]
   pairs := [
-    (.required, .min 2, [false, true, true, true, true, true, true], [false, true, true, true, true, true, true]),
-    (.required, .max 4, [false, true, true, true, true, true, true], [false, true, true, true, true, true, true]),
-    (.required, .length 3, [false, true, true, true, true, true, true], [false, true, true, true, true, true, true]),
-    (.required, .nonempty, [false, true, true, true, true, true, true], [false, true, true, true, true, true, true]),
-    (.min 2, .max 4, [false, true, true, true, true, true, true], [false, true, true, true, true, true, true]),
-    (.min 2, .length 3, [false, true, true, true, true, true, true], [false, true, true, true, true, true, true]),
-    (.min 2, .nonempty, [false, true, true, true, true, true, true], [false, true, true, true, true, true, true]),
-    (.max 4, .length 3, [false, true, true, true, true, true, true], [false, true, true, true, true, true, true]),
-    (.max 4, .nonempty, [false, true, true, true, true, true, true], [false, true, true, true, true, true, true]),
-    (.length 3, .nonempty, [false, true, true, true, true, true, true], [false, true, true, true, true, true, true])
+    (.required, .min 2, [false, false, false, true, true, true, true], [false, false, false, true, true, true, true]),
+    (.required, .max 4, [false, true, true, true, true, true, false], [false, true, true, true, true, true, false]),
+    (.required, .length 3, [false, false, false, false, true, false, false], [false, false, false, false, true, false, false]),
+    (.required, .nonempty, [false, false, true, true, true, true, true], [false, false, true, true, true, true, true]),
+    (.min 2, .max 4, [true, false, false, true, true, true, false], [true, false, false, true, true, true, false]),
+    (.min 2, .length 3, [true, false, false, false, true, false, false], [true, false, false, false, true, false, false]),
+    (.min 2, .nonempty, [true, false, false, true, true, true, true], [true, false, false, true, true, true, true]),
+    (.max 4, .length 3, [true, false, false, false, true, false, false], [true, false, false, false, true, false, false]),
+    (.max 4, .nonempty, [true, false, true, true, true, true, false], [true, false, true, true, true, true, false]),
+    (.length 3, .nonempty, [true, false, false, false, true, false, false], [true, false, false, false, true, false, false])
   ]
 
 def tagBlock48 : Block where
@@ -1578,144 +1578,144 @@ def tagBlock48 : Block where
   probes := [.nil, .elems 0, .elems 1, .elems 2, .elems 3, .elems 4, .elems 5]
   singles := [
     (.required, [false, true, true, true, true, true, true]),
-    (.min 2, [false, true, true, true, true, true, true]),
-    (.max 4, [false, true, true, true, true, true, true]),
-    (.length 3, [false, true, true, true, true, true, true]),
-    (.nonempty, [false, true, true, true, true, true, true])
+    (.min 2, [true, false, false, true, true, true, true]),
+    (.max 4, [true, true, true, true, true, true, false]),
+    (.length 3, [true, false, false, false, true, false, false]),
+    (.nonempty, [true, false, true, true, true, true, true])
   ]
   pairs := [
-    (.required, .min 2, [false, true, true, true, true, true, true], [false, true, true, true, true, true, true]),
-    (.required, .max 4, [false, true, true, true, true, true, true], [false, true, true, true, true, true, true]),
-    (.required, .length 3, [false, true, true, true, true, true, true], [false, true, true, true, true, true, true]),
-    (.required, .nonempty, [false, true, true, true, true, true, true], [false, true, true, true, true, true, true]),
-    (.min 2, .max 4, [false, true, true, true, true, true, true], [false, true, true, true, true, true, true]),
-    (.min 2, .length 3, [false, true, true, true, true, true, true], [false, true, true, true, true, true, true]),
-    (.min 2, .nonempty, [false, true, true, true, true, true, true], [false, true, true, true, true, true, true]),
-    (.max 4, .length 3, [false, true, true, true, true, true, true], [false, true, true, true, true, true, true]),
-    (.max 4, .nonempty, [false, true, true, true, true, true, true], [false, true, true, true, true, true, true]),
-    (.length 3, .nonempty, [false, true, true, true, true, true, true], [false, true, true, true, true, true, true])
+    (.required, .min 2, [false, false, false, true, true, true, true], [false, false, false, true, true, true, true]),
+    (.required, .max 4, [false, true, true, true, true, true, false], [false, true, true, true, true, true, false]),
+    (.required, .length 3, [false, false, false, false, true, false, false], [false, false, false, false, true, false, false]),
+    (.required, .nonempty, [false, false, true, true, true, true, true], [false, false, true, true, true, true, true]),
+    (.min 2, .max 4, [true, false, false, true, true, true, false], [true, false, false, true, true, true, false]),
+    (.min 2, .length 3, [true, false, false, false, true, false, false], [true, false, false, false, true, false, false]),
+    (.min 2, .nonempty, [true, false, false, true, true, true, true], [true, false, false, true, true, true, true]),
+    (.max 4, .length 3, [true, false, false, false, true, false, false], [true, false, false, false, true, false, false]),
+    (.max 4, .nonempty, [true, false, true, true, true, true, false], [true, false, true, true, true, true, false]),
+    (.length 3, .nonempty, [true, false, false, false, true, false, false], [true, false, false, false, true, false, false])
   ]
 
 def tagBlock49 : Block where
   fty := ⟨true, .slice_int32⟩
   probes := [.nil, .elems 0, .elems 1, .elems 2, .elems 3, .elems 4, .elems 5]
   singles := [
-    (.required, [false, false, false, false, false, false, false]),
-    (.min 2, [false, false, false, false, false, false, false]),
-    (.max 4, [false, false, false, false, false, false, false]),
-    (.length 3, [false, false, false, false, false, false, false]),
-    (.nonempty, [false, false, false, false, false, false, false])
+    (.required, [false, true, true, true, true, true, true]),
+    (.min 2, [true, false, false, true, true, true, true]),
+    (.max 4, [true, true, true, true, true, true, false]),
+    (.length 3, [true, false, false, false, true, false, false]),
+    (.nonempty, [true, false, true, true, true, true, true])
   ]
   pairs := [
-    (.required, .min 2, [false, false, false, false, false, false, false], [false, false, false, false, false, false, false]),
-    (.required, .max 4, [false, false, false, false, false, false, false], [false, false, false, false, false, false, false]),
-    (.required, .length 3, [false, false, false, false, false, false, false], [false, false, false, false, false, false, false]),
-    (.required, .nonempty, [false, false, false, false, false, false, false], [false, false, false, false, false, false, false]),
-    (.min 2, .max 4, [false, false, false, false, false, false, false], [false, false, false, false, false, false, false]),
-    (.min 2, .length 3, [false, false, false, false, false, false, false], [false, false, false, false, false, false, false]),
-    (.min 2, .nonempty, [false, false, false, false, false, false, false], [false, false, false, false, false, false, false]),
-    (.max 4, .length 3, [false, false, false, false, false, false, false], [false, false, false, false, false, false, false]),
-    (.max 4, .nonempty, [false, false, false, false, false, false, false], [false, false, false, false, false, false, false]),
-    (.length 3, .nonempty, [false, false, false, false, false, false, false], [false, false, false, false, false, false, false])
+    (.required, .min 2, [false, false, false, true, true, true, true], [false, false, false, true, true, true, true]),
+    (.required, .max 4, [false, true, true, true, true, true, false], [false, true, true, true, true, true, false]),
+    (.required, .length 3, [false, false, false, false, true, false, false], [false, false, false, false, true, false, false]),
+    (.required, .nonempty, [false, false, true, true, true, true, true], [false, false, true, true, true, true, true]),
+    (.min 2, .max 4, [true, false, false, true, true, true, false], [true, false, false, true, true, true, false]),
+    (.min 2, .length 3, [true, false, false, false, true, false, false], [true, false, false, false, true, false, false]),
+    (.min 2, .nonempty, [true, false, false, true, true, true, true], [true, false, false, true, true, true, true]),
+    (.max 4, .length 3, [true, false, false, false, true, false, false], [true, false, false, false, true, false, false]),
+    (.max 4, .nonempty, [true, false, true, true, true, true, false], [true, false, true, true, true, true, false]),
+    (.length 3, .nonempty, [true, false, false, false, true, false, false], [true, false, false, false, true, false, false])
   ]
 
 def tagBlock50 : Block where
   fty := ⟨true, .slice_uint8⟩
   probes := [.nil, .elems 0, .elems 1, .elems 2, .elems 3, .elems 4, .elems 5]
   singles := [
-    (.required, [false, false, false, false, false, false, false]),
-    (.min 2, [false, false, false, false, false, false, false]),
-    (.max 4, [false, false, false, false, false, false, false]),
-    (.length 3, [false, false, false, false, false, false, false]),
-    (.nonempty, [false, false, false, false, false, false, false])
+    (.required, [false, true, true, true, true, true, true]),
+    (.min 2, [true, false, false, true, true, true, true]),
+    (.max 4, [true, true, true, true, true, true, false]),
+    (.length 3, [true, false, false, false, true, false, false]),
+    (.nonempty, [true, false, true, true, true, true, true])
   ]
   pairs := [
-    (.required, .min 2, [false, false, false, false, false, false, false], [false, false, false, false, false, false, false]),
-    (.required, .max 4, [false, false, false, false, false, false, false], [false, false, false, false, false, false, false]),
-    (.required, .length 3, [false, false, false, false, false, false, false], [false, false, false, false, false, false, false]),
-    (.required, .nonempty, [false, false, false, false, false, false, false], [false, false, false, false, false, false, false]),
-    (.min 2, .max 4, [false, false, false, false, false, false, false], [false, false, false, false, false, false, false]),
-    (.min 2, .length 3, [false, false, false, false, false, false, false], [false, false, false, false, false, false, false]),
-    (.min 2, .nonempty, [false, false, false, false, false, false, false], [false, false, false, false, false, false, false]),
-    (.max 4, .length 3, [false, false, false, false, false, false, false], [false, false, false, false, false, false, false]),
-    (.max 4, .nonempty, [false, false, false, false, false, false, false], [false, false, false, false, false, false, false]),
-    (.length 3, .nonempty, [false, false, false, false, false, false, false], [false, false, false, false, false, false, false])
+    (.required, .min 2, [false, false, false, true, true, true, true], [false, false, false, true, true, true, true]),
+    (.required, .max 4, [false, true, true, true, true, true, false], [false, true, true, true, true, true, false]),
+    (.required, .length 3, [false, false, false, false, true, false, false], [false, false, false, false, true, false, false]),
+    (.required, .nonempty, [false, false, true, true, true, true, true], [false, false, true, true, true, true, true]),
+    (.min 2, .max 4, [true, false, false, true, true, true, false], [true, false, false, true, true, true, false]),
+    (.min 2, .length 3, [true, false, false, false, true, false, false], [true, false, false, false, true, false, false]),
+    (.min 2, .nonempty, [true, false, false, true, true, true, true], [true, false, false, true, true, true, true]),
+    (.max 4, .length 3, [true, false, false, false, true, false, false], [true, false, false, false, true, false, false]),
+    (.max 4, .nonempty, [true, false, true, true, true, true, false], [true, false, true, true, true, true, false]),
+    (.length 3, .nonempty, [true, false, false, false, true, false, false], [true, false, false, false, true, false, false])
   ]
 
 def tagBlock51 : Block where
   fty := ⟨true, .slice_slice_string⟩
   probes := [.nil, .elems 0, .elems 1, .elems 2, .elems 3, .elems 4, .elems 5]
   singles := [
-    (.required, [false, false, false, false, false, false, false]),
-    (.min 2, [false, false, false, false, false, false, false]),
-    (.max 4, [false, false, false, false, false, false, false]),
-    (.length 3, [false, false, false, false, false, false, false]),
-    (.nonempty, [false, false, false, false, false, false, false])
+    (.required, [false, true, true, true, true, true, true]),
+    (.min 2, [true, false, false, true, true, true, true]),
+    (.max 4, [true, true, true, true, true, true, false]),
+    (.length 3, [true, false, false, false, true, false, false]),
+    (.nonempty, [true, false, true, true, true, true, true])
   ]
   pairs := [
-    (.required, .min 2, [false, false, false, false, false, false, false], [false, false, false, false, false, false, false]),
-    (.required, .max 4, [false, false, false, false, false, false, false], [false, false, false, false, false, false, false]),
-    (.required, .length 3, [false, false, false, false, false, false, false], [false, false, false, false, false, false, false]),
-    (.required, .nonempty, [false, false, false, false, false, false, false], [false, false, false, false, false, false, false]),
-    (.min 2, .max 4, [false, false, false, false, false, false, false], [false, false, false, false, false, false, false]),
-    (.min 2, .length 3, [false, false, false, false, false, false, false], [false, false, false, false, false, false, false]),
-    (.min 2, .nonempty, [false, false, false, false, false, false, false], [false, false, false, false, false, false, false]),
-    (.max 4, .length 3, [false, false, false, false, false, false, false], [false, false, false, false, false, false, false]),
-    (.max 4, .nonempty, [false, false, false, false, false, false, false], [false, false, false, false, false, false, false]),
-    (.length 3, .nonempty, [false, false, false, false, false, false, false], [false, false, false, false, false, false, false])
+    (.required, .min 2, [false, false, false, true, true, true, true], [false, false, false, true, true, true, true]),
+    (.required, .max 4, [false, true, true, true, true, true, false], [false, true, true, true, true, true, false]),
+    (.required, .length 3, [false, false, false, false, true, false, false], [false, false, false, false, true, false, false]),
+    (.required, .nonempty, [false, false, true, true, true, true, true], [false, false, true, true, true, true, true]),
+    (.min 2, .max 4, [true, false, false, true, true, true, false], [true, false, false, true, true, true, false]),
+    (.min 2, .length 3, [true, false, false, false, true, false, false], [true, false, false, false, true, false, false]),
+    (.min 2, .nonempty, [true, false, false, true, true, true, true], [true, false, false, true, true, true, true]),
+    (.max 4, .length 3, [true, false, false, false, true, false, false], [true, false, false, false, true, false, false]),
+    (.max 4, .nonempty, [true, false, true, true, true, true, false], [true, false, true, true, true, true, false]),
+    (.length 3, .nonempty, [true, false, false, false, true, false, false], [true, false, false, false, true, false, false])
   ]
 
 def tagBlock52 : Block where
   fty := ⟨true, .slice_struct⟩
   probes := [.nil, .elems 0, .elems 1, .elems 2, .elems 3, .elems 4, .elems 5]
   singles := [
-    (.required, [false, false, false, false, false, false, false]),
-    (.min 2, [false, false, false, false, false, false, false]),
-    (.max 4, [false, false, false, false, false, false, false]),
-    (.length 3, [false, false, false, false, false, false, false]),
-    (.nonempty, [false, false, false, false, false, false, false])
+    (.required, [false, true, true, true, true, true, true]),
+    (.min 2, [true, false, false, true, true, true, true]),
+    (.max 4, [true, true, true, true, true, true, false]),
+    (.length 3, [true, false, false, false, true, false, false]),
+    (.nonempty, [true, false, true, true, true, true, true])
   ]
   pairs := [
-    (.required, .min 2, [false, false, false, false, false, false, false], [false, false, false, false, false, false, false]),
-    (.required, .max 4, [false, false, false, false, false, false, false], [false, false, false, false, false, false, false]),
-    (.required, .length 3, [false, false, false, false, false, false, false], [false, false, false, false, false, false, false]),
-    (.required, .nonempty, [false, false, false, false, false, false, false], [false, false, false, false, false, false, false]),
-    (.min 2, .max 4, [false, false, false, false, false, false, false], [false, false, false, false, false, false, false]),
-    (.min 2, .length 3, [false, false, false, false, false, false, false], [false, false, false, false, false, false, false]),
-    (.min 2, .nonempty, [false, false, false, false, false, false, false], [false, false, false, false, false, false, false]),
-    (.max 4, .length 3, [false, false, false, false, false, false, false], [false, false, false, false, false, false, false]),
-    (.max 4, .nonempty, [false, false, false, false, false, false, false], [false, false, false, false, false, false, false]),
-    (.length 3, .nonempty, [false, false, false, false, false, false, false], [false, false, false, false, false, false, false])
+    (.required, .min 2, [false, false, false, true, true, true, true], [false, false, false, true, true, true, true]),
+    (.required, .max 4, [false, true, true, true, true, true, false], [false, true, true, true, true, true, false]),
+    (.required, .length 3, [false, false, false, false, true, false, false], [false, false, false, false, true, false, false]),
+    (.required, .nonempty, [false, false, true, true, true, true, true], [false, false, true, true, true, true, true]),
+    (.min 2, .max 4, [true, false, false, true, true, true, false], [true, false, false, true, true, true, false]),
+    (.min 2, .length 3, [true, false, false, false, true, false, false], [true, false, false, false, true, false, false]),
+    (.min 2, .nonempty, [true, false, false, true, true, true, true], [true, false, false, true, true, true, true]),
+    (.max 4, .length 3, [true, false, false, false, true, false, false], [true, false, false, false, true, false, false]),
+    (.max 4, .nonempty, [true, false, true, true, true, true, false], [true, false, true, true, true, true, false]),
+    (.length 3, .nonempty, [true, false, false, false, true, false, false], [true, false, false, false, true, false, false])
   ]
 
 def tagBlock53 : Block where
   fty := ⟨true, .slice_ptr_string⟩
   probes := [.nil, .elems 0, .elems 1, .elems 2, .elems 3, .elems 4, .elems 5]
   singles := [
-    (.required, [false, false, false, false, false, false, false]),
-    (.min 2, [false, false, false, false, false, false, false]),
-    (.max 4, [false, false, false, false, false, false, false]),
-    (.length 3, [false, false, false, false, false, false, false]),
-    (.nonempty, [false, false, false, false, false, false, false])
+    (.required, [false, true, true, true, true, true, true]),
+    (.min 2, [true, false, false, true, true, true, true]),
+    (.max 4, [true, true, true, true, true, true, false]),
+    (.length 3, [true, false, false, false, true, false, false]),
+    (.nonempty, [true, false, true, true, true, true, true])
   ]
   pairs := [
-    (.required, .min 2, [false, false, false, false, false, false, false], [false, false, false, false, false, false, false]),
-    (.required, .max 4, [false, false, false, false, false, false, false], [false, false, false, false, false, false, false]),
-    (.required, .length 3, [false, false, false, false, false, false, false], [false, false, false, false, false, false, false]),
-    (.required, .nonempty, [false, false, false, false, false, false, false], [false, false, false, false, false, false, false]),
-    (.min 2, .max 4, [false, false, false, false, false, false, false], [false, false, false, false, false, false, false]),
-    (.min 2, .length 3, [false, false, false, false, false, false, false], [false, false, false, false, false, false, false]),
-    (.min 2, .nonempty, [false, false, false, false, false, false, false], [false, false, false, false, false, false, false]),
-    (.max 4, .length 3, [false, false, false, false, false, false, false], [false, false, false, false, false, false, false]),
-    (.max 4, .nonempty, [false, false, false, false, false, false, false], [false, false, false, false, false, false, false]),
-    (.length 3, .nonempty, [false, false, false, false, false, false, false], [false, false, false, false, false, false, false])
+    (.required, .min 2, [false, false, false, true, true, true, true], [false, false, false, true, true, true, true]),
+    (.required, .max 4, [false, true, true, true, true, true, false], [false, true, true, true, true, true, false]),
+    (.required, .length 3, [false, false, false, false, true, false, false], [false, false, false, false, true, false, false]),
+    (.required, .nonempty, [false, false, true, true, true, true, true], [false, false, true, true, true, true, true]),
+    (.min 2, .max 4, [true, false, false, true, true, true, false], [true, false, false, true, true, true, false]),
+    (.min 2, .length 3, [true, false, false, false, true, false, false], [true, false, false, false, true, false, false]),
+    (.min 2, .nonempty, [true, false, false, true, true, true, true], [true, false, false, true, true, true, true]),
+    (.max 4, .length 3, [true, false, false, false, true, false, false], [true, false, false, false, true, false, false]),
+    (.max 4, .nonempty, [true, false, true, true, true, true, false], [true, false, true, true, true, true, false]),
+    (.length 3, .nonempty, [true, false, false, false, true, false, false], [true, false, false, false, true, false, false])
   ]
 
 def tagBlock54 : Block where
   fty := ⟨true, .map_string_string⟩
   probes := [.nil, .elems 0, .elems 1, .elems 2]
   singles := [
-    (.required, [false, false, false, false])
+    (.required, [false, true, true, true])
   ]
   pairs := [
 
@@ -1725,7 +1725,7 @@ def tagBlock55 : Block where
   fty := ⟨true, .map_string_int⟩
   probes := [.nil, .elems 0, .elems 1, .elems 2]
   singles := [
-    (.required, [false, false, false, false])
+    (.required, [false, true, true, true])
   ]
   pairs := [
 
@@ -1745,7 +1745,7 @@ def tagBlock57 : Block where
   fty := ⟨true, .map_string_float64⟩
   probes := [.nil, .elems 0, .elems 1, .elems 2]
   singles := [
-    (.required, [false, false, false, false])
+    (.required, [false, true, true, true])
   ]
   pairs := [
 
@@ -1755,7 +1755,7 @@ def tagBlock58 : Block where
   fty := ⟨true, .struct⟩
   probes := [.nil, .inner true]
   singles := [
-    (.required, [true, true])
+    (.required, [false, true])
   ]
   pairs := [
 
